@@ -1,4 +1,6 @@
 import CppUModel.Proofs.Asserts
+import CppUModel.Gen.AssertFns
+import CppUModel.Gen.AssertMacros
 /-!
 # C03 — each check fails exactly when the predicate it names is false
 
@@ -716,6 +718,46 @@ theorem body_exit (pre : List Stmt) (post : List Stmt) (hpre : ∀ x ∈ pre, x.
       simp [Stmt.stops] at hx
       simp [runBody, hx, BodyResult.after, ih']
 
+/-- CONVERSE of `body_first_failure`: a test body records a failure exactly when it has a failing check that is reached,
+    i.e. one preceded only by passing checks (no failing check and no TEST_EXIT in front of it) -/
+theorem body_failure_iff (b : List Stmt) :
+    (runBody b).failures = 1 ↔
+      ∃ pre o post, b = pre ++ Stmt.check o :: post ∧ (∀ x ∈ pre, x.stops = false) ∧ o.fails = true := by
+  constructor
+  · intro h
+    induction b with
+    | nil => simp [runBody] at h
+    | cons x xs ih =>
+      cases x with
+      | exit => simp [runBody] at h
+      | check o =>
+        by_cases ho : o.fails = true
+        · exact ⟨[], o, xs, rfl, by simp, ho⟩
+        · have ho' : o.fails = false := by simpa using ho
+          simp [runBody, ho', BodyResult.after] at h
+          obtain ⟨pre, o2, post, e, hp, h2⟩ := ih h
+          refine ⟨Stmt.check o :: pre, o2, post, by simp [e], ?_, h2⟩
+          intro y hy
+          rcases List.mem_cons.mp hy with rfl | hy
+          · simpa [Stmt.stops] using ho'
+          · exact hp y hy
+  · rintro ⟨pre, o, post, rfl, hp, ho⟩
+    exact (body_first_failure pre o post hp ho).1
+
+/-- the check count of a body never exceeds what its statements count together, and it is exact for the executed prefix -/
+theorem body_checks_eq_prefix_sum (b : List Stmt) :
+    (runBody b).checks = ((b.take (runBody b).executed).map Stmt.counted).sum := by
+  induction b with
+  | nil => simp [runBody]
+  | cons x xs ih =>
+    cases x with
+    | exit => simp [runBody, Stmt.counted]
+    | check o =>
+      by_cases ho : o.fails = true
+      · simp [runBody, ho, Stmt.counted]
+      · have ho' : o.fails = false := by simpa using ho
+        simp [runBody, ho', BodyResult.after, Stmt.counted, ih]
+
 /-! ## 11. operands with side effects: what the macros do (observation about the code, stated and proved
     on the model; upstream documents that a failing CHECK_EQUAL re-evaluates its operands) -/
 
@@ -747,6 +789,1048 @@ theorem checkCompareRun_evaluations (op : RelOp) (t : CTy) (e a : Nat → Int) :
     ((checkCompareRun op t e a).1.fails = true → (checkCompareRun op t e a).2.expected = 2 ∧ (checkCompareRun op t e a).2.actual = 2) := by
   unfold checkCompareRun CHECK_COMPARE_int CHECK_COMPARE
   cases h : cppRel op ⟨t, e 0⟩ ⟨t, a 0⟩ <;> simp [assertCompare, countThenFailIf, nothing]
+
+/-! ## 13. the regenerated functions ARE the model
+
+`Gen/AssertFns.lean` is produced on every run from clang's typed AST of the current Utest.cpp: `doubles_equal` as an
+executable function over the class model, every `UtestShell::assert*` body as its statement list in source order
+(`countCheck()`, `if (c) return;`, `if (c) failWith(…)`), integer conversions as the cast nodes clang inserted.  Each is
+proved equal to the hand-written model function for ALL operands, so every theorem above speaks about what the source
+says at check time; the `gen_*` corollaries state the property directly on the regenerated definitions. -/
+
+section GenEq
+variable {F : Type}
+
+theorem ite_outcome (b : Bool) :
+    (if b = true then { fails := true, counted := 1 } else { fails := false, counted := 1 } : Outcome) =
+      { fails := b, counted := 1 } := by
+  cases b <;> rfl
+
+theorem runAssert_count_failIf (c : Bool) : runAssert 0 [.count, .failIf c] = countThenFailIf c := by
+  cases c <;> rfl
+
+theorem gen_doubles_equal_eq (o : FinOps F) (a b t : D F) :
+    Gen.AssertFns.doubles_equal o a b t = doublesEqual o a b t := by
+  cases a <;> cases b <;> cases t <;> simp [Gen.AssertFns.doubles_equal, doublesEqual, D.isNan, D.isInf]
+
+theorem gen_assertTrue_eq (c : Bool) : Gen.AssertFns.assertTrue c = assertTrue c := runAssert_count_failIf _
+theorem gen_fail_eq : Gen.AssertFns.fail = fail := rfl
+theorem gen_assertLongsEqual_eq (e a : BitVec 64) : Gen.AssertFns.assertLongsEqual e a = assertLongsEqual e a :=
+  runAssert_count_failIf _
+theorem gen_assertUnsignedLongsEqual_eq (e a : BitVec 64) :
+    Gen.AssertFns.assertUnsignedLongsEqual e a = assertUnsignedLongsEqual e a := runAssert_count_failIf _
+theorem gen_assertLongLongsEqual_eq (e a : BitVec 64) :
+    Gen.AssertFns.assertLongLongsEqual e a = assertLongLongsEqual e a := runAssert_count_failIf _
+theorem gen_assertUnsignedLongLongsEqual_eq (e a : BitVec 64) :
+    Gen.AssertFns.assertUnsignedLongLongsEqual e a = assertUnsignedLongLongsEqual e a := runAssert_count_failIf _
+theorem gen_assertSignedBytesEqual_eq (e a : BitVec 8) :
+    Gen.AssertFns.assertSignedBytesEqual e a = assertSignedBytesEqual e a := runAssert_count_failIf _
+theorem gen_assertPointersEqual_eq (e a : BitVec 64) :
+    Gen.AssertFns.assertPointersEqual e a = assertPointersEqual e a := runAssert_count_failIf _
+theorem gen_assertFunctionPointersEqual_eq (e a : BitVec 64) :
+    Gen.AssertFns.assertFunctionPointersEqual e a = assertFunctionPointersEqual e a := runAssert_count_failIf _
+theorem gen_assertBitsEqual_eq (e a m bc : BitVec 64) :
+    Gen.AssertFns.assertBitsEqual e a m bc = assertBitsEqual e a m bc.toNat := runAssert_count_failIf _
+theorem gen_assertEquals_eq (failed : Bool) :
+    Gen.AssertFns.assertEquals failed = assertEquals failed := runAssert_count_failIf _
+theorem gen_assertCompare_eq (c : Bool) : Gen.AssertFns.assertCompare c = assertCompare c := runAssert_count_failIf _
+
+theorem gen_assertDoublesEqual_eq (o : FinOps F) (e a t : D F) :
+    Gen.AssertFns.assertDoublesEqual o e a t = assertDoublesEqual o e a t := by
+  unfold Gen.AssertFns.assertDoublesEqual assertDoublesEqual
+  rw [runAssert_count_failIf, gen_doubles_equal_eq]
+
+/-- the skeleton of the string / block bodies: two NULLs return, one NULL fails, then the comparison -/
+theorem runAssert_cstr (e a : Option Bytes) (c : Bool) :
+    runAssert 0 [.count, .retIf (a.isNone && e.isNone), .failIf (a.isNone || e.isNone), .failIf c] =
+      match e, a with
+      | none, none => { fails := false, counted := 1 }
+      | some _, some _ => countThenFailIf c
+      | _, _ => { fails := true, counted := 1 } := by
+  cases e <;> cases a <;> cases c <;> rfl
+
+theorem gen_assertCstrEqual_eq (e a : Option Bytes) : Gen.AssertFns.assertCstrEqual e a = assertCstrEqual e a := by
+  unfold Gen.AssertFns.assertCstrEqual; rw [runAssert_cstr]
+  cases e <;> cases a <;> rfl
+
+theorem gen_assertCstrNEqual_eq (e a : Option Bytes) (n : BitVec 64) :
+    Gen.AssertFns.assertCstrNEqual e a n = assertCstrNEqual e a n.toNat := by
+  unfold Gen.AssertFns.assertCstrNEqual; rw [runAssert_cstr]
+  cases e <;> cases a <;> rfl
+
+theorem gen_assertCstrNoCaseEqual_eq (e a : Option Bytes) :
+    Gen.AssertFns.assertCstrNoCaseEqual e a = assertCstrNoCaseEqual e a := by
+  unfold Gen.AssertFns.assertCstrNoCaseEqual; rw [runAssert_cstr]
+  cases e <;> cases a <;> rfl
+
+theorem gen_assertCstrContains_eq (e a : Option Bytes) :
+    Gen.AssertFns.assertCstrContains e a = assertCstrContains e a := by
+  unfold Gen.AssertFns.assertCstrContains; rw [runAssert_cstr]
+  cases e <;> cases a <;> rfl
+
+theorem gen_assertCstrNoCaseContains_eq (e a : Option Bytes) :
+    Gen.AssertFns.assertCstrNoCaseContains e a = assertCstrNoCaseContains e a := by
+  unfold Gen.AssertFns.assertCstrNoCaseContains; rw [runAssert_cstr]
+  cases e <;> cases a <;> rfl
+
+theorem gen_assertBinaryEqual_eq (e a : Option Bytes) (n : BitVec 64) :
+    Gen.AssertFns.assertBinaryEqual e a n = assertBinaryEqual e a n.toNat := by
+  unfold Gen.AssertFns.assertBinaryEqual assertBinaryEqual
+  by_cases h : n = 0#64
+  · subst h; rfl
+  · have h' : n.toNat ≠ 0 := fun hz => h (BitVec.eq_of_toNat_eq (by simpa using hz))
+    have hb : (n == 0#64) = false := by simpa using h
+    rw [if_neg h']
+    show runAssert 1 [.retIf (n == 0#64), _, _, _] = _
+    simp only [runAssert, hb]
+    cases e <;> cases a <;> simp only [runAssert, cstrCheck, countThenFailIf, P.MemCmp, Option.isNone, Bool.and_self,
+      Bool.or_self, Bool.and_false, Bool.false_and, Bool.or_true, Bool.true_or, Bool.or_false, if_true, if_false,
+      Bool.false_eq_true]
+    next x y => exact ite_outcome _
+
+/-- the property, stated on the regenerated `doubles_equal` itself -/
+theorem gen_doubles_equal_spec (o : FinOps F) (a b t : D F) :
+    Gen.AssertFns.doubles_equal o a b t = true ↔ DoublesSpec o a b t := by
+  rw [gen_doubles_equal_eq]; exact doubles_equal_spec o a b t
+
+/-- every regenerated assert body counts exactly one check, whatever the operands -/
+theorem gen_assert_family_counts_one :
+    (∀ c, (Gen.AssertFns.assertTrue c).counted = 1) ∧ Gen.AssertFns.fail.counted = 1 ∧
+    (∀ e a, (Gen.AssertFns.assertLongsEqual e a).counted = 1) ∧ (∀ e a, (Gen.AssertFns.assertUnsignedLongsEqual e a).counted = 1) ∧
+    (∀ e a, (Gen.AssertFns.assertLongLongsEqual e a).counted = 1) ∧
+    (∀ e a, (Gen.AssertFns.assertUnsignedLongLongsEqual e a).counted = 1) ∧
+    (∀ e a, (Gen.AssertFns.assertSignedBytesEqual e a).counted = 1) ∧ (∀ e a, (Gen.AssertFns.assertPointersEqual e a).counted = 1) ∧
+    (∀ e a, (Gen.AssertFns.assertFunctionPointersEqual e a).counted = 1) ∧
+    (∀ e a m n, (Gen.AssertFns.assertBitsEqual e a m n).counted = 1) ∧
+    (∀ f, (Gen.AssertFns.assertEquals f).counted = 1) ∧ (∀ c, (Gen.AssertFns.assertCompare c).counted = 1) ∧
+    (∀ e a, (Gen.AssertFns.assertCstrEqual e a).counted = 1) ∧ (∀ e a n, (Gen.AssertFns.assertCstrNEqual e a n).counted = 1) ∧
+    (∀ e a, (Gen.AssertFns.assertCstrNoCaseEqual e a).counted = 1) ∧ (∀ e a, (Gen.AssertFns.assertCstrContains e a).counted = 1) ∧
+    (∀ e a, (Gen.AssertFns.assertCstrNoCaseContains e a).counted = 1) ∧
+    (∀ e a n, (Gen.AssertFns.assertBinaryEqual e a n).counted = 1) ∧
+    (∀ (o : FinOps F) e a t, (Gen.AssertFns.assertDoublesEqual o e a t).counted = 1) := by
+  obtain ⟨h1, h2, h3, h4, h5, h6, h7, h8, h9, h10, h11, h12, h13, h14, h15, h16, h17, h18⟩ := assert_family_counts_one
+  refine ⟨?_, ?_, ?_, ?_, ?_, ?_, ?_, ?_, ?_, ?_, ?_, ?_, ?_, ?_, ?_, ?_, ?_, ?_, ?_⟩
+  · intro c; rw [gen_assertTrue_eq]; exact h1 c
+  · rw [gen_fail_eq]; exact h2
+  · intro e a; rw [gen_assertLongsEqual_eq]; exact h3 e a
+  · intro e a; rw [gen_assertUnsignedLongsEqual_eq]; exact h4 e a
+  · intro e a; rw [gen_assertLongLongsEqual_eq]; exact h5 e a
+  · intro e a; rw [gen_assertUnsignedLongLongsEqual_eq]; exact h6 e a
+  · intro e a; rw [gen_assertSignedBytesEqual_eq]; exact h7 e a
+  · intro e a; rw [gen_assertPointersEqual_eq]; exact h8 e a
+  · intro e a; rw [gen_assertFunctionPointersEqual_eq]; exact h9 e a
+  · intro e a m n; rw [gen_assertBitsEqual_eq]; exact h10 e a m _
+  · intro f; rw [gen_assertEquals_eq]; exact h11 f
+  · intro c; rw [gen_assertCompare_eq]; exact h12 c
+  · intro e a; rw [gen_assertCstrEqual_eq]; exact h13 e a
+  · intro e a n; rw [gen_assertCstrNEqual_eq]; exact h14 e a _
+  · intro e a; rw [gen_assertCstrNoCaseEqual_eq]; exact h15 e a
+  · intro e a; rw [gen_assertCstrContains_eq]; exact h16 e a
+  · intro e a; rw [gen_assertCstrNoCaseContains_eq]; exact h17 e a
+  · intro e a n; rw [gen_assertBinaryEqual_eq]; exact h18 e a _
+  · intro o e a t; rw [gen_assertDoublesEqual_eq]; rfl
+
+/-- the verdicts of the regenerated string / block / double bodies, stated with the textbook predicates -/
+theorem gen_string_checks_fail_iff (e a : Option Bytes) (n : BitVec 64) (he : NulFreeOpt e) (ha : NulFreeOpt a) :
+    ((Gen.AssertFns.assertCstrEqual e a).fails = true ↔ ¬ NullOrRel (fun x y => x = y) e a) ∧
+    ((Gen.AssertFns.assertCstrNEqual e a n).fails = true ↔ ¬ NullOrRel (fun x y => x.take n.toNat = y.take n.toNat) e a) ∧
+    ((Gen.AssertFns.assertCstrNoCaseEqual e a).fails = true ↔ ¬ NullOrRel (fun x y => Text.lower x = Text.lower y) e a) ∧
+    ((Gen.AssertFns.assertCstrContains e a).fails = true ↔ ¬ NullOrRel (fun x y => x <:+: y) e a) ∧
+    ((Gen.AssertFns.assertCstrNoCaseContains e a).fails = true ↔ ¬ NullOrRel (fun x y => Text.lower x <:+: Text.lower y) e a) := by
+  rw [gen_assertCstrEqual_eq, gen_assertCstrNEqual_eq, gen_assertCstrNoCaseEqual_eq, gen_assertCstrContains_eq,
+    gen_assertCstrNoCaseContains_eq]
+  exact ⟨assertCstrEqual_fails_iff e a he ha, assertCstrNEqual_fails_iff e a _ he ha, assertCstrNoCaseEqual_fails_iff e a,
+    assertCstrContains_fails_iff e a, assertCstrNoCaseContains_fails_iff e a⟩
+
+theorem gen_assertBinaryEqual_fails_iff (e a : Option Bytes) (n : BitVec 64)
+    (he : ∀ x, e = some x → n.toNat ≤ x.length) (ha : ∀ x, a = some x → n.toNat ≤ x.length) :
+    (Gen.AssertFns.assertBinaryEqual e a n).fails = true ↔
+      n ≠ 0#64 ∧ ¬ NullOrRel (fun x y => x.take n.toNat = y.take n.toNat) e a := by
+  rw [gen_assertBinaryEqual_eq]
+  by_cases h : n = 0#64
+  · subst h; simp [assertBinaryEqual]
+  · have h' : n.toNat ≠ 0 := fun hz => h (BitVec.eq_of_toNat_eq (by simpa using hz))
+    rw [assertBinaryEqual_fails_iff e a _ h' he ha]; simp [h]
+
+theorem gen_assertDoublesEqual_fails_iff (o : FinOps F) (e a t : D F) :
+    (Gen.AssertFns.assertDoublesEqual o e a t).fails = true ↔ ¬ DoublesSpec o e a t := by
+  rw [gen_assertDoublesEqual_eq]; exact assertDoublesEqual_fails_iff o e a t
+
+/-- the regenerated integer / pointer / bit bodies: failure iff the operands (masked) differ -/
+theorem gen_integer_asserts_fail_iff (e a m bc : BitVec 64) (x y : BitVec 8) :
+    ((Gen.AssertFns.assertLongsEqual e a).fails = true ↔ e.toInt ≠ a.toInt) ∧
+    ((Gen.AssertFns.assertUnsignedLongsEqual e a).fails = true ↔ e.toNat ≠ a.toNat) ∧
+    ((Gen.AssertFns.assertLongLongsEqual e a).fails = true ↔ e.toInt ≠ a.toInt) ∧
+    ((Gen.AssertFns.assertUnsignedLongLongsEqual e a).fails = true ↔ e.toNat ≠ a.toNat) ∧
+    ((Gen.AssertFns.assertSignedBytesEqual x y).fails = true ↔ x.toInt ≠ y.toInt) ∧
+    ((Gen.AssertFns.assertPointersEqual e a).fails = true ↔ e ≠ a) ∧
+    ((Gen.AssertFns.assertFunctionPointersEqual e a).fails = true ↔ e ≠ a) ∧
+    ((Gen.AssertFns.assertBitsEqual e a m bc).fails = true ↔ (e &&& m) ≠ (a &&& m)) := by
+  rw [gen_assertLongsEqual_eq, gen_assertUnsignedLongsEqual_eq, gen_assertLongLongsEqual_eq,
+    gen_assertUnsignedLongLongsEqual_eq, gen_assertSignedBytesEqual_eq, gen_assertPointersEqual_eq,
+    gen_assertFunctionPointersEqual_eq, gen_assertBitsEqual_eq]
+  exact ⟨assertLongsEqual_fails_iff e a, assertUnsignedLongsEqual_fails_iff e a, assertLongLongsEqual_fails_iff e a,
+    assertUnsignedLongLongsEqual_fails_iff e a, assertSignedBytesEqual_fails_iff x y, assertPointersEqual_fails_iff e a,
+    assertFunctionPointersEqual_fails_iff e a, assertBitsEqual_fails_iff e a m _⟩
+
+end GenEq
+
+example : (Gen.AssertFns.assertBinaryEqual none (some [1, 2]) 2#64).fails = true := by decide
+example : (Gen.AssertFns.assertBinaryEqual none (some [1, 2]) 0#64) = { fails := false, counted := 1 } := by decide
+example : (Gen.AssertFns.assertCstrNEqual (some [97, 98, 99]) (some [97, 98, 100]) 2#64).fails = false := by decide
+example : (Gen.AssertFns.assertSignedBytesEqual 0x80#8 0x7f#8).fails = true := by decide
+example : runAssert 0 [.retIf true, .count] = { fails := false, counted := 0 } := rfl     -- the order of the statements matters
+
+/-! ## 14. the macro layer: what the headers expand to, read back from clang's typed AST
+
+`Gen/AssertMacros.lean` is regenerated on every run: a probe translation unit instantiates every check macro of
+UtestMacros.h / TestHarness_c.h (plain and `_TEXT`) at every operand type (pair) the harness drives; the expansion is
+read from the typed AST - callee, casts, the usual arithmetic conversions clang inserted for `CHECK_EQUAL` /
+`CHECK_COMPARE`, the `& 0xff`, `sizeof(actual)`, the statement structure of the flow macros - and emitted as
+`M_<macro>_<types> : BitVec … → Outcome`; the C entry points of TestHarness_c.cpp likewise (`C.<name>`).  Each is
+proved equal to the hand-written model function on the operands' mathematical values (`valueAt signed bits`), for all
+bit patterns: in particular the model's `promote` / `common` (integral promotion, usual arithmetic conversions) agree
+with clang on all 64 operand type pairs. -/
+
+/-- the simp set that evaluates a regenerated macro expansion and the model function on the same typed operands -/
+macro "psimp" "[" ns:ident,* "]" : tactic =>
+  `(tactic| simp (config := {failIfUnchanged := false}) [$[$ns:ident],*, -BitVec.toInt_setWidth, -BitVec.toNat_setWidth, -BitVec.toInt_and, -BitVec.toNat_and,
+      Nat.max_def, signExtend_eq_iff, setWidth_eq_iff, LONGS_EQUAL, UNSIGNED_LONGS_EQUAL, LONGLONGS_EQUAL, UNSIGNED_LONGLONGS_EQUAL, BYTES_EQUAL,
+      SIGNED_BYTES_EQUAL, andLit_w _ _ 32 true, andLit_w _ _ 32 false, andLit_w _ _ 64 true, andLit_w _ _ 64 false, Gen.AssertShapes.bytesMask, CHECK_EQUAL_C_BOOL, CHECK_EQUAL_C_INT, CHECK_EQUAL_C_UINT,
+      CHECK_EQUAL_C_LONG, CHECK_EQUAL_C_ULONG, CHECK_EQUAL_C_LONGLONG, CHECK_EQUAL_C_ULONGLONG, CHECK_EQUAL_C_CHAR,
+      CHECK_EQUAL_C_UBYTE, CHECK_EQUAL_C_SBYTE, CHECK_EQUAL_C_BITS, CHECK_C, CHECK, CHECK_FALSE, CHECK_EQUAL_ZERO,
+      CHECK_EQUAL_int, CHECK_EQUAL, cppNe_w _ _ 32, cppNe_w _ _ 64, CHECK_COMPARE_int, CHECK_COMPARE, cppRel, ENUMS_EQUAL_TYPE, BITS_EQUAL,
+      common, promote, commonPromoted, tyInt, valueAt, conv_toInt, conv_toNat, conv_zero, seqO_nothing_left, toInt_bne_zero,
+      toNat_bne_zero, holds_lt_s, holds_lt_u, holds_le_s, holds_le_u, holds_gt_s, holds_gt_u, holds_ge_s, holds_ge_u,
+      holds_eq_s, holds_eq_u, holds_ne_s, holds_ne_u,
+      Gen.AssertMacros.C.CHECK_EQUAL_C_BOOL_LOCATION, Gen.AssertMacros.C.CHECK_EQUAL_C_INT_LOCATION,
+      Gen.AssertMacros.C.CHECK_EQUAL_C_UINT_LOCATION, Gen.AssertMacros.C.CHECK_EQUAL_C_LONG_LOCATION,
+      Gen.AssertMacros.C.CHECK_EQUAL_C_ULONG_LOCATION, Gen.AssertMacros.C.CHECK_EQUAL_C_LONGLONG_LOCATION,
+      Gen.AssertMacros.C.CHECK_EQUAL_C_ULONGLONG_LOCATION, Gen.AssertMacros.C.CHECK_EQUAL_C_CHAR_LOCATION,
+      Gen.AssertMacros.C.CHECK_EQUAL_C_UBYTE_LOCATION, Gen.AssertMacros.C.CHECK_EQUAL_C_SBYTE_LOCATION,
+      Gen.AssertMacros.C.CHECK_EQUAL_C_BITS_LOCATION, Gen.AssertMacros.C.CHECK_C_LOCATION,
+      gen_assertTrue_eq, gen_assertLongsEqual_eq, gen_assertUnsignedLongsEqual_eq, gen_assertLongLongsEqual_eq,
+      gen_assertUnsignedLongLongsEqual_eq, gen_assertSignedBytesEqual_eq, gen_assertBitsEqual_eq, gen_assertEquals_eq,
+      gen_assertCompare_eq] <;> (try simp [signExtend_eq_iff, setWidth_eq_iff]))
+
+theorem gen_macro_LONGS_EQUAL :
+    (∀ (e a : BitVec 8), Gen.AssertMacros.M_LONGS_EQUAL_i8 e a = LONGS_EQUAL (valueAt true e) (valueAt true a)) ∧
+    (∀ (e a : BitVec 8), Gen.AssertMacros.M_LONGS_EQUAL_u8 e a = LONGS_EQUAL (valueAt false e) (valueAt false a)) ∧
+    (∀ (e a : BitVec 16), Gen.AssertMacros.M_LONGS_EQUAL_i16 e a = LONGS_EQUAL (valueAt true e) (valueAt true a)) ∧
+    (∀ (e a : BitVec 16), Gen.AssertMacros.M_LONGS_EQUAL_u16 e a = LONGS_EQUAL (valueAt false e) (valueAt false a)) ∧
+    (∀ (e a : BitVec 32), Gen.AssertMacros.M_LONGS_EQUAL_i32 e a = LONGS_EQUAL (valueAt true e) (valueAt true a)) ∧
+    (∀ (e a : BitVec 32), Gen.AssertMacros.M_LONGS_EQUAL_u32 e a = LONGS_EQUAL (valueAt false e) (valueAt false a)) ∧
+    (∀ (e a : BitVec 64), Gen.AssertMacros.M_LONGS_EQUAL_i64 e a = LONGS_EQUAL (valueAt true e) (valueAt true a)) ∧
+    (∀ (e a : BitVec 64), Gen.AssertMacros.M_LONGS_EQUAL_u64 e a = LONGS_EQUAL (valueAt false e) (valueAt false a)) ∧
+    (∀ (e a : BitVec 32), Gen.AssertMacros.M_LONGS_EQUAL_TEXT_i32 e a = LONGS_EQUAL (valueAt true e) (valueAt true a)) := by
+  refine ⟨?_, ?_, ?_, ?_, ?_, ?_, ?_, ?_, ?_⟩ <;> intros <;>
+    psimp [Gen.AssertMacros.M_LONGS_EQUAL_i8, Gen.AssertMacros.M_LONGS_EQUAL_u8, Gen.AssertMacros.M_LONGS_EQUAL_i16, Gen.AssertMacros.M_LONGS_EQUAL_u16, Gen.AssertMacros.M_LONGS_EQUAL_i32, Gen.AssertMacros.M_LONGS_EQUAL_u32, Gen.AssertMacros.M_LONGS_EQUAL_i64, Gen.AssertMacros.M_LONGS_EQUAL_u64, Gen.AssertMacros.M_LONGS_EQUAL_TEXT_i32]
+
+theorem gen_macro_UNSIGNED_LONGS_EQUAL :
+    (∀ (e a : BitVec 8), Gen.AssertMacros.M_UNSIGNED_LONGS_EQUAL_i8 e a = UNSIGNED_LONGS_EQUAL (valueAt true e) (valueAt true a)) ∧
+    (∀ (e a : BitVec 8), Gen.AssertMacros.M_UNSIGNED_LONGS_EQUAL_u8 e a = UNSIGNED_LONGS_EQUAL (valueAt false e) (valueAt false a)) ∧
+    (∀ (e a : BitVec 16), Gen.AssertMacros.M_UNSIGNED_LONGS_EQUAL_i16 e a = UNSIGNED_LONGS_EQUAL (valueAt true e) (valueAt true a)) ∧
+    (∀ (e a : BitVec 16), Gen.AssertMacros.M_UNSIGNED_LONGS_EQUAL_u16 e a = UNSIGNED_LONGS_EQUAL (valueAt false e) (valueAt false a)) ∧
+    (∀ (e a : BitVec 32), Gen.AssertMacros.M_UNSIGNED_LONGS_EQUAL_i32 e a = UNSIGNED_LONGS_EQUAL (valueAt true e) (valueAt true a)) ∧
+    (∀ (e a : BitVec 32), Gen.AssertMacros.M_UNSIGNED_LONGS_EQUAL_u32 e a = UNSIGNED_LONGS_EQUAL (valueAt false e) (valueAt false a)) ∧
+    (∀ (e a : BitVec 64), Gen.AssertMacros.M_UNSIGNED_LONGS_EQUAL_i64 e a = UNSIGNED_LONGS_EQUAL (valueAt true e) (valueAt true a)) ∧
+    (∀ (e a : BitVec 64), Gen.AssertMacros.M_UNSIGNED_LONGS_EQUAL_u64 e a = UNSIGNED_LONGS_EQUAL (valueAt false e) (valueAt false a)) ∧
+    (∀ (e a : BitVec 32), Gen.AssertMacros.M_UNSIGNED_LONGS_EQUAL_TEXT_i32 e a = UNSIGNED_LONGS_EQUAL (valueAt true e) (valueAt true a)) := by
+  refine ⟨?_, ?_, ?_, ?_, ?_, ?_, ?_, ?_, ?_⟩ <;> intros <;>
+    psimp [Gen.AssertMacros.M_UNSIGNED_LONGS_EQUAL_i8, Gen.AssertMacros.M_UNSIGNED_LONGS_EQUAL_u8, Gen.AssertMacros.M_UNSIGNED_LONGS_EQUAL_i16, Gen.AssertMacros.M_UNSIGNED_LONGS_EQUAL_u16, Gen.AssertMacros.M_UNSIGNED_LONGS_EQUAL_i32, Gen.AssertMacros.M_UNSIGNED_LONGS_EQUAL_u32, Gen.AssertMacros.M_UNSIGNED_LONGS_EQUAL_i64, Gen.AssertMacros.M_UNSIGNED_LONGS_EQUAL_u64, Gen.AssertMacros.M_UNSIGNED_LONGS_EQUAL_TEXT_i32]
+
+theorem gen_macro_LONGLONGS_EQUAL :
+    (∀ (e a : BitVec 8), Gen.AssertMacros.M_LONGLONGS_EQUAL_i8 e a = LONGLONGS_EQUAL (valueAt true e) (valueAt true a)) ∧
+    (∀ (e a : BitVec 8), Gen.AssertMacros.M_LONGLONGS_EQUAL_u8 e a = LONGLONGS_EQUAL (valueAt false e) (valueAt false a)) ∧
+    (∀ (e a : BitVec 16), Gen.AssertMacros.M_LONGLONGS_EQUAL_i16 e a = LONGLONGS_EQUAL (valueAt true e) (valueAt true a)) ∧
+    (∀ (e a : BitVec 16), Gen.AssertMacros.M_LONGLONGS_EQUAL_u16 e a = LONGLONGS_EQUAL (valueAt false e) (valueAt false a)) ∧
+    (∀ (e a : BitVec 32), Gen.AssertMacros.M_LONGLONGS_EQUAL_i32 e a = LONGLONGS_EQUAL (valueAt true e) (valueAt true a)) ∧
+    (∀ (e a : BitVec 32), Gen.AssertMacros.M_LONGLONGS_EQUAL_u32 e a = LONGLONGS_EQUAL (valueAt false e) (valueAt false a)) ∧
+    (∀ (e a : BitVec 64), Gen.AssertMacros.M_LONGLONGS_EQUAL_i64 e a = LONGLONGS_EQUAL (valueAt true e) (valueAt true a)) ∧
+    (∀ (e a : BitVec 64), Gen.AssertMacros.M_LONGLONGS_EQUAL_u64 e a = LONGLONGS_EQUAL (valueAt false e) (valueAt false a)) ∧
+    (∀ (e a : BitVec 32), Gen.AssertMacros.M_LONGLONGS_EQUAL_TEXT_i32 e a = LONGLONGS_EQUAL (valueAt true e) (valueAt true a)) := by
+  refine ⟨?_, ?_, ?_, ?_, ?_, ?_, ?_, ?_, ?_⟩ <;> intros <;>
+    psimp [Gen.AssertMacros.M_LONGLONGS_EQUAL_i8, Gen.AssertMacros.M_LONGLONGS_EQUAL_u8, Gen.AssertMacros.M_LONGLONGS_EQUAL_i16, Gen.AssertMacros.M_LONGLONGS_EQUAL_u16, Gen.AssertMacros.M_LONGLONGS_EQUAL_i32, Gen.AssertMacros.M_LONGLONGS_EQUAL_u32, Gen.AssertMacros.M_LONGLONGS_EQUAL_i64, Gen.AssertMacros.M_LONGLONGS_EQUAL_u64, Gen.AssertMacros.M_LONGLONGS_EQUAL_TEXT_i32]
+
+theorem gen_macro_UNSIGNED_LONGLONGS_EQUAL :
+    (∀ (e a : BitVec 8), Gen.AssertMacros.M_UNSIGNED_LONGLONGS_EQUAL_i8 e a = UNSIGNED_LONGLONGS_EQUAL (valueAt true e) (valueAt true a)) ∧
+    (∀ (e a : BitVec 8), Gen.AssertMacros.M_UNSIGNED_LONGLONGS_EQUAL_u8 e a = UNSIGNED_LONGLONGS_EQUAL (valueAt false e) (valueAt false a)) ∧
+    (∀ (e a : BitVec 16), Gen.AssertMacros.M_UNSIGNED_LONGLONGS_EQUAL_i16 e a = UNSIGNED_LONGLONGS_EQUAL (valueAt true e) (valueAt true a)) ∧
+    (∀ (e a : BitVec 16), Gen.AssertMacros.M_UNSIGNED_LONGLONGS_EQUAL_u16 e a = UNSIGNED_LONGLONGS_EQUAL (valueAt false e) (valueAt false a)) ∧
+    (∀ (e a : BitVec 32), Gen.AssertMacros.M_UNSIGNED_LONGLONGS_EQUAL_i32 e a = UNSIGNED_LONGLONGS_EQUAL (valueAt true e) (valueAt true a)) ∧
+    (∀ (e a : BitVec 32), Gen.AssertMacros.M_UNSIGNED_LONGLONGS_EQUAL_u32 e a = UNSIGNED_LONGLONGS_EQUAL (valueAt false e) (valueAt false a)) ∧
+    (∀ (e a : BitVec 64), Gen.AssertMacros.M_UNSIGNED_LONGLONGS_EQUAL_i64 e a = UNSIGNED_LONGLONGS_EQUAL (valueAt true e) (valueAt true a)) ∧
+    (∀ (e a : BitVec 64), Gen.AssertMacros.M_UNSIGNED_LONGLONGS_EQUAL_u64 e a = UNSIGNED_LONGLONGS_EQUAL (valueAt false e) (valueAt false a)) ∧
+    (∀ (e a : BitVec 32), Gen.AssertMacros.M_UNSIGNED_LONGLONGS_EQUAL_TEXT_i32 e a = UNSIGNED_LONGLONGS_EQUAL (valueAt true e) (valueAt true a)) := by
+  refine ⟨?_, ?_, ?_, ?_, ?_, ?_, ?_, ?_, ?_⟩ <;> intros <;>
+    psimp [Gen.AssertMacros.M_UNSIGNED_LONGLONGS_EQUAL_i8, Gen.AssertMacros.M_UNSIGNED_LONGLONGS_EQUAL_u8, Gen.AssertMacros.M_UNSIGNED_LONGLONGS_EQUAL_i16, Gen.AssertMacros.M_UNSIGNED_LONGLONGS_EQUAL_u16, Gen.AssertMacros.M_UNSIGNED_LONGLONGS_EQUAL_i32, Gen.AssertMacros.M_UNSIGNED_LONGLONGS_EQUAL_u32, Gen.AssertMacros.M_UNSIGNED_LONGLONGS_EQUAL_i64, Gen.AssertMacros.M_UNSIGNED_LONGLONGS_EQUAL_u64, Gen.AssertMacros.M_UNSIGNED_LONGLONGS_EQUAL_TEXT_i32]
+
+theorem gen_macro_BYTES_EQUAL :
+    (∀ (e a : BitVec 8), Gen.AssertMacros.M_BYTES_EQUAL_i8 e a = BYTES_EQUAL ⟨⟨8, true⟩, valueAt true e⟩ ⟨⟨8, true⟩, valueAt true a⟩) ∧
+    (∀ (e a : BitVec 8), Gen.AssertMacros.M_BYTES_EQUAL_u8 e a = BYTES_EQUAL ⟨⟨8, false⟩, valueAt false e⟩ ⟨⟨8, false⟩, valueAt false a⟩) ∧
+    (∀ (e a : BitVec 16), Gen.AssertMacros.M_BYTES_EQUAL_i16 e a = BYTES_EQUAL ⟨⟨16, true⟩, valueAt true e⟩ ⟨⟨16, true⟩, valueAt true a⟩) ∧
+    (∀ (e a : BitVec 16), Gen.AssertMacros.M_BYTES_EQUAL_u16 e a = BYTES_EQUAL ⟨⟨16, false⟩, valueAt false e⟩ ⟨⟨16, false⟩, valueAt false a⟩) ∧
+    (∀ (e a : BitVec 32), Gen.AssertMacros.M_BYTES_EQUAL_i32 e a = BYTES_EQUAL ⟨⟨32, true⟩, valueAt true e⟩ ⟨⟨32, true⟩, valueAt true a⟩) ∧
+    (∀ (e a : BitVec 32), Gen.AssertMacros.M_BYTES_EQUAL_u32 e a = BYTES_EQUAL ⟨⟨32, false⟩, valueAt false e⟩ ⟨⟨32, false⟩, valueAt false a⟩) ∧
+    (∀ (e a : BitVec 64), Gen.AssertMacros.M_BYTES_EQUAL_i64 e a = BYTES_EQUAL ⟨⟨64, true⟩, valueAt true e⟩ ⟨⟨64, true⟩, valueAt true a⟩) ∧
+    (∀ (e a : BitVec 64), Gen.AssertMacros.M_BYTES_EQUAL_u64 e a = BYTES_EQUAL ⟨⟨64, false⟩, valueAt false e⟩ ⟨⟨64, false⟩, valueAt false a⟩) ∧
+    (∀ (e a : BitVec 32), Gen.AssertMacros.M_BYTES_EQUAL_TEXT_i32 e a = BYTES_EQUAL ⟨⟨32, true⟩, valueAt true e⟩ ⟨⟨32, true⟩, valueAt true a⟩) := by
+  refine ⟨?_, ?_, ?_, ?_, ?_, ?_, ?_, ?_, ?_⟩ <;> intros <;>
+    psimp [Gen.AssertMacros.M_BYTES_EQUAL_i8, Gen.AssertMacros.M_BYTES_EQUAL_u8, Gen.AssertMacros.M_BYTES_EQUAL_i16, Gen.AssertMacros.M_BYTES_EQUAL_u16, Gen.AssertMacros.M_BYTES_EQUAL_i32, Gen.AssertMacros.M_BYTES_EQUAL_u32, Gen.AssertMacros.M_BYTES_EQUAL_i64, Gen.AssertMacros.M_BYTES_EQUAL_u64, Gen.AssertMacros.M_BYTES_EQUAL_TEXT_i32]
+
+theorem gen_macro_SIGNED_BYTES_EQUAL :
+    (∀ (e a : BitVec 8), Gen.AssertMacros.M_SIGNED_BYTES_EQUAL_i8 e a = SIGNED_BYTES_EQUAL (valueAt true e) (valueAt true a)) ∧
+    (∀ (e a : BitVec 8), Gen.AssertMacros.M_SIGNED_BYTES_EQUAL_u8 e a = SIGNED_BYTES_EQUAL (valueAt false e) (valueAt false a)) ∧
+    (∀ (e a : BitVec 16), Gen.AssertMacros.M_SIGNED_BYTES_EQUAL_i16 e a = SIGNED_BYTES_EQUAL (valueAt true e) (valueAt true a)) ∧
+    (∀ (e a : BitVec 16), Gen.AssertMacros.M_SIGNED_BYTES_EQUAL_u16 e a = SIGNED_BYTES_EQUAL (valueAt false e) (valueAt false a)) ∧
+    (∀ (e a : BitVec 32), Gen.AssertMacros.M_SIGNED_BYTES_EQUAL_i32 e a = SIGNED_BYTES_EQUAL (valueAt true e) (valueAt true a)) ∧
+    (∀ (e a : BitVec 32), Gen.AssertMacros.M_SIGNED_BYTES_EQUAL_u32 e a = SIGNED_BYTES_EQUAL (valueAt false e) (valueAt false a)) ∧
+    (∀ (e a : BitVec 64), Gen.AssertMacros.M_SIGNED_BYTES_EQUAL_i64 e a = SIGNED_BYTES_EQUAL (valueAt true e) (valueAt true a)) ∧
+    (∀ (e a : BitVec 64), Gen.AssertMacros.M_SIGNED_BYTES_EQUAL_u64 e a = SIGNED_BYTES_EQUAL (valueAt false e) (valueAt false a)) ∧
+    (∀ (e a : BitVec 32), Gen.AssertMacros.M_SIGNED_BYTES_EQUAL_TEXT_i32 e a = SIGNED_BYTES_EQUAL (valueAt true e) (valueAt true a)) := by
+  refine ⟨?_, ?_, ?_, ?_, ?_, ?_, ?_, ?_, ?_⟩ <;> intros <;>
+    psimp [Gen.AssertMacros.M_SIGNED_BYTES_EQUAL_i8, Gen.AssertMacros.M_SIGNED_BYTES_EQUAL_u8, Gen.AssertMacros.M_SIGNED_BYTES_EQUAL_i16, Gen.AssertMacros.M_SIGNED_BYTES_EQUAL_u16, Gen.AssertMacros.M_SIGNED_BYTES_EQUAL_i32, Gen.AssertMacros.M_SIGNED_BYTES_EQUAL_u32, Gen.AssertMacros.M_SIGNED_BYTES_EQUAL_i64, Gen.AssertMacros.M_SIGNED_BYTES_EQUAL_u64, Gen.AssertMacros.M_SIGNED_BYTES_EQUAL_TEXT_i32]
+
+theorem gen_macro_CHECK_EQUAL_C_BOOL :
+    (∀ (e a : BitVec 8), Gen.AssertMacros.M_CHECK_EQUAL_C_BOOL_i8 e a = CHECK_EQUAL_C_BOOL (valueAt true e) (valueAt true a)) ∧
+    (∀ (e a : BitVec 8), Gen.AssertMacros.M_CHECK_EQUAL_C_BOOL_u8 e a = CHECK_EQUAL_C_BOOL (valueAt false e) (valueAt false a)) ∧
+    (∀ (e a : BitVec 16), Gen.AssertMacros.M_CHECK_EQUAL_C_BOOL_i16 e a = CHECK_EQUAL_C_BOOL (valueAt true e) (valueAt true a)) ∧
+    (∀ (e a : BitVec 16), Gen.AssertMacros.M_CHECK_EQUAL_C_BOOL_u16 e a = CHECK_EQUAL_C_BOOL (valueAt false e) (valueAt false a)) ∧
+    (∀ (e a : BitVec 32), Gen.AssertMacros.M_CHECK_EQUAL_C_BOOL_i32 e a = CHECK_EQUAL_C_BOOL (valueAt true e) (valueAt true a)) ∧
+    (∀ (e a : BitVec 32), Gen.AssertMacros.M_CHECK_EQUAL_C_BOOL_u32 e a = CHECK_EQUAL_C_BOOL (valueAt false e) (valueAt false a)) ∧
+    (∀ (e a : BitVec 64), Gen.AssertMacros.M_CHECK_EQUAL_C_BOOL_i64 e a = CHECK_EQUAL_C_BOOL (valueAt true e) (valueAt true a)) ∧
+    (∀ (e a : BitVec 64), Gen.AssertMacros.M_CHECK_EQUAL_C_BOOL_u64 e a = CHECK_EQUAL_C_BOOL (valueAt false e) (valueAt false a)) ∧
+    (∀ (e a : BitVec 32), Gen.AssertMacros.M_CHECK_EQUAL_C_BOOL_TEXT_i32 e a = CHECK_EQUAL_C_BOOL (valueAt true e) (valueAt true a)) := by
+  refine ⟨?_, ?_, ?_, ?_, ?_, ?_, ?_, ?_, ?_⟩ <;> intros <;>
+    psimp [Gen.AssertMacros.M_CHECK_EQUAL_C_BOOL_i8, Gen.AssertMacros.M_CHECK_EQUAL_C_BOOL_u8, Gen.AssertMacros.M_CHECK_EQUAL_C_BOOL_i16, Gen.AssertMacros.M_CHECK_EQUAL_C_BOOL_u16, Gen.AssertMacros.M_CHECK_EQUAL_C_BOOL_i32, Gen.AssertMacros.M_CHECK_EQUAL_C_BOOL_u32, Gen.AssertMacros.M_CHECK_EQUAL_C_BOOL_i64, Gen.AssertMacros.M_CHECK_EQUAL_C_BOOL_u64, Gen.AssertMacros.M_CHECK_EQUAL_C_BOOL_TEXT_i32]
+
+theorem gen_macro_CHECK_EQUAL_C_INT :
+    (∀ (e a : BitVec 8), Gen.AssertMacros.M_CHECK_EQUAL_C_INT_i8 e a = CHECK_EQUAL_C_INT (valueAt true e) (valueAt true a)) ∧
+    (∀ (e a : BitVec 8), Gen.AssertMacros.M_CHECK_EQUAL_C_INT_u8 e a = CHECK_EQUAL_C_INT (valueAt false e) (valueAt false a)) ∧
+    (∀ (e a : BitVec 16), Gen.AssertMacros.M_CHECK_EQUAL_C_INT_i16 e a = CHECK_EQUAL_C_INT (valueAt true e) (valueAt true a)) ∧
+    (∀ (e a : BitVec 16), Gen.AssertMacros.M_CHECK_EQUAL_C_INT_u16 e a = CHECK_EQUAL_C_INT (valueAt false e) (valueAt false a)) ∧
+    (∀ (e a : BitVec 32), Gen.AssertMacros.M_CHECK_EQUAL_C_INT_i32 e a = CHECK_EQUAL_C_INT (valueAt true e) (valueAt true a)) ∧
+    (∀ (e a : BitVec 32), Gen.AssertMacros.M_CHECK_EQUAL_C_INT_u32 e a = CHECK_EQUAL_C_INT (valueAt false e) (valueAt false a)) ∧
+    (∀ (e a : BitVec 64), Gen.AssertMacros.M_CHECK_EQUAL_C_INT_i64 e a = CHECK_EQUAL_C_INT (valueAt true e) (valueAt true a)) ∧
+    (∀ (e a : BitVec 64), Gen.AssertMacros.M_CHECK_EQUAL_C_INT_u64 e a = CHECK_EQUAL_C_INT (valueAt false e) (valueAt false a)) ∧
+    (∀ (e a : BitVec 32), Gen.AssertMacros.M_CHECK_EQUAL_C_INT_TEXT_i32 e a = CHECK_EQUAL_C_INT (valueAt true e) (valueAt true a)) := by
+  refine ⟨?_, ?_, ?_, ?_, ?_, ?_, ?_, ?_, ?_⟩ <;> intros <;>
+    psimp [Gen.AssertMacros.M_CHECK_EQUAL_C_INT_i8, Gen.AssertMacros.M_CHECK_EQUAL_C_INT_u8, Gen.AssertMacros.M_CHECK_EQUAL_C_INT_i16, Gen.AssertMacros.M_CHECK_EQUAL_C_INT_u16, Gen.AssertMacros.M_CHECK_EQUAL_C_INT_i32, Gen.AssertMacros.M_CHECK_EQUAL_C_INT_u32, Gen.AssertMacros.M_CHECK_EQUAL_C_INT_i64, Gen.AssertMacros.M_CHECK_EQUAL_C_INT_u64, Gen.AssertMacros.M_CHECK_EQUAL_C_INT_TEXT_i32]
+
+theorem gen_macro_CHECK_EQUAL_C_UINT :
+    (∀ (e a : BitVec 8), Gen.AssertMacros.M_CHECK_EQUAL_C_UINT_i8 e a = CHECK_EQUAL_C_UINT (valueAt true e) (valueAt true a)) ∧
+    (∀ (e a : BitVec 8), Gen.AssertMacros.M_CHECK_EQUAL_C_UINT_u8 e a = CHECK_EQUAL_C_UINT (valueAt false e) (valueAt false a)) ∧
+    (∀ (e a : BitVec 16), Gen.AssertMacros.M_CHECK_EQUAL_C_UINT_i16 e a = CHECK_EQUAL_C_UINT (valueAt true e) (valueAt true a)) ∧
+    (∀ (e a : BitVec 16), Gen.AssertMacros.M_CHECK_EQUAL_C_UINT_u16 e a = CHECK_EQUAL_C_UINT (valueAt false e) (valueAt false a)) ∧
+    (∀ (e a : BitVec 32), Gen.AssertMacros.M_CHECK_EQUAL_C_UINT_i32 e a = CHECK_EQUAL_C_UINT (valueAt true e) (valueAt true a)) ∧
+    (∀ (e a : BitVec 32), Gen.AssertMacros.M_CHECK_EQUAL_C_UINT_u32 e a = CHECK_EQUAL_C_UINT (valueAt false e) (valueAt false a)) ∧
+    (∀ (e a : BitVec 64), Gen.AssertMacros.M_CHECK_EQUAL_C_UINT_i64 e a = CHECK_EQUAL_C_UINT (valueAt true e) (valueAt true a)) ∧
+    (∀ (e a : BitVec 64), Gen.AssertMacros.M_CHECK_EQUAL_C_UINT_u64 e a = CHECK_EQUAL_C_UINT (valueAt false e) (valueAt false a)) ∧
+    (∀ (e a : BitVec 32), Gen.AssertMacros.M_CHECK_EQUAL_C_UINT_TEXT_i32 e a = CHECK_EQUAL_C_UINT (valueAt true e) (valueAt true a)) := by
+  refine ⟨?_, ?_, ?_, ?_, ?_, ?_, ?_, ?_, ?_⟩ <;> intros <;>
+    psimp [Gen.AssertMacros.M_CHECK_EQUAL_C_UINT_i8, Gen.AssertMacros.M_CHECK_EQUAL_C_UINT_u8, Gen.AssertMacros.M_CHECK_EQUAL_C_UINT_i16, Gen.AssertMacros.M_CHECK_EQUAL_C_UINT_u16, Gen.AssertMacros.M_CHECK_EQUAL_C_UINT_i32, Gen.AssertMacros.M_CHECK_EQUAL_C_UINT_u32, Gen.AssertMacros.M_CHECK_EQUAL_C_UINT_i64, Gen.AssertMacros.M_CHECK_EQUAL_C_UINT_u64, Gen.AssertMacros.M_CHECK_EQUAL_C_UINT_TEXT_i32]
+
+theorem gen_macro_CHECK_EQUAL_C_LONG :
+    (∀ (e a : BitVec 8), Gen.AssertMacros.M_CHECK_EQUAL_C_LONG_i8 e a = CHECK_EQUAL_C_LONG (valueAt true e) (valueAt true a)) ∧
+    (∀ (e a : BitVec 8), Gen.AssertMacros.M_CHECK_EQUAL_C_LONG_u8 e a = CHECK_EQUAL_C_LONG (valueAt false e) (valueAt false a)) ∧
+    (∀ (e a : BitVec 16), Gen.AssertMacros.M_CHECK_EQUAL_C_LONG_i16 e a = CHECK_EQUAL_C_LONG (valueAt true e) (valueAt true a)) ∧
+    (∀ (e a : BitVec 16), Gen.AssertMacros.M_CHECK_EQUAL_C_LONG_u16 e a = CHECK_EQUAL_C_LONG (valueAt false e) (valueAt false a)) ∧
+    (∀ (e a : BitVec 32), Gen.AssertMacros.M_CHECK_EQUAL_C_LONG_i32 e a = CHECK_EQUAL_C_LONG (valueAt true e) (valueAt true a)) ∧
+    (∀ (e a : BitVec 32), Gen.AssertMacros.M_CHECK_EQUAL_C_LONG_u32 e a = CHECK_EQUAL_C_LONG (valueAt false e) (valueAt false a)) ∧
+    (∀ (e a : BitVec 64), Gen.AssertMacros.M_CHECK_EQUAL_C_LONG_i64 e a = CHECK_EQUAL_C_LONG (valueAt true e) (valueAt true a)) ∧
+    (∀ (e a : BitVec 64), Gen.AssertMacros.M_CHECK_EQUAL_C_LONG_u64 e a = CHECK_EQUAL_C_LONG (valueAt false e) (valueAt false a)) ∧
+    (∀ (e a : BitVec 32), Gen.AssertMacros.M_CHECK_EQUAL_C_LONG_TEXT_i32 e a = CHECK_EQUAL_C_LONG (valueAt true e) (valueAt true a)) := by
+  refine ⟨?_, ?_, ?_, ?_, ?_, ?_, ?_, ?_, ?_⟩ <;> intros <;>
+    psimp [Gen.AssertMacros.M_CHECK_EQUAL_C_LONG_i8, Gen.AssertMacros.M_CHECK_EQUAL_C_LONG_u8, Gen.AssertMacros.M_CHECK_EQUAL_C_LONG_i16, Gen.AssertMacros.M_CHECK_EQUAL_C_LONG_u16, Gen.AssertMacros.M_CHECK_EQUAL_C_LONG_i32, Gen.AssertMacros.M_CHECK_EQUAL_C_LONG_u32, Gen.AssertMacros.M_CHECK_EQUAL_C_LONG_i64, Gen.AssertMacros.M_CHECK_EQUAL_C_LONG_u64, Gen.AssertMacros.M_CHECK_EQUAL_C_LONG_TEXT_i32]
+
+theorem gen_macro_CHECK_EQUAL_C_ULONG :
+    (∀ (e a : BitVec 8), Gen.AssertMacros.M_CHECK_EQUAL_C_ULONG_i8 e a = CHECK_EQUAL_C_ULONG (valueAt true e) (valueAt true a)) ∧
+    (∀ (e a : BitVec 8), Gen.AssertMacros.M_CHECK_EQUAL_C_ULONG_u8 e a = CHECK_EQUAL_C_ULONG (valueAt false e) (valueAt false a)) ∧
+    (∀ (e a : BitVec 16), Gen.AssertMacros.M_CHECK_EQUAL_C_ULONG_i16 e a = CHECK_EQUAL_C_ULONG (valueAt true e) (valueAt true a)) ∧
+    (∀ (e a : BitVec 16), Gen.AssertMacros.M_CHECK_EQUAL_C_ULONG_u16 e a = CHECK_EQUAL_C_ULONG (valueAt false e) (valueAt false a)) ∧
+    (∀ (e a : BitVec 32), Gen.AssertMacros.M_CHECK_EQUAL_C_ULONG_i32 e a = CHECK_EQUAL_C_ULONG (valueAt true e) (valueAt true a)) ∧
+    (∀ (e a : BitVec 32), Gen.AssertMacros.M_CHECK_EQUAL_C_ULONG_u32 e a = CHECK_EQUAL_C_ULONG (valueAt false e) (valueAt false a)) ∧
+    (∀ (e a : BitVec 64), Gen.AssertMacros.M_CHECK_EQUAL_C_ULONG_i64 e a = CHECK_EQUAL_C_ULONG (valueAt true e) (valueAt true a)) ∧
+    (∀ (e a : BitVec 64), Gen.AssertMacros.M_CHECK_EQUAL_C_ULONG_u64 e a = CHECK_EQUAL_C_ULONG (valueAt false e) (valueAt false a)) ∧
+    (∀ (e a : BitVec 32), Gen.AssertMacros.M_CHECK_EQUAL_C_ULONG_TEXT_i32 e a = CHECK_EQUAL_C_ULONG (valueAt true e) (valueAt true a)) := by
+  refine ⟨?_, ?_, ?_, ?_, ?_, ?_, ?_, ?_, ?_⟩ <;> intros <;>
+    psimp [Gen.AssertMacros.M_CHECK_EQUAL_C_ULONG_i8, Gen.AssertMacros.M_CHECK_EQUAL_C_ULONG_u8, Gen.AssertMacros.M_CHECK_EQUAL_C_ULONG_i16, Gen.AssertMacros.M_CHECK_EQUAL_C_ULONG_u16, Gen.AssertMacros.M_CHECK_EQUAL_C_ULONG_i32, Gen.AssertMacros.M_CHECK_EQUAL_C_ULONG_u32, Gen.AssertMacros.M_CHECK_EQUAL_C_ULONG_i64, Gen.AssertMacros.M_CHECK_EQUAL_C_ULONG_u64, Gen.AssertMacros.M_CHECK_EQUAL_C_ULONG_TEXT_i32]
+
+theorem gen_macro_CHECK_EQUAL_C_LONGLONG :
+    (∀ (e a : BitVec 8), Gen.AssertMacros.M_CHECK_EQUAL_C_LONGLONG_i8 e a = CHECK_EQUAL_C_LONGLONG (valueAt true e) (valueAt true a)) ∧
+    (∀ (e a : BitVec 8), Gen.AssertMacros.M_CHECK_EQUAL_C_LONGLONG_u8 e a = CHECK_EQUAL_C_LONGLONG (valueAt false e) (valueAt false a)) ∧
+    (∀ (e a : BitVec 16), Gen.AssertMacros.M_CHECK_EQUAL_C_LONGLONG_i16 e a = CHECK_EQUAL_C_LONGLONG (valueAt true e) (valueAt true a)) ∧
+    (∀ (e a : BitVec 16), Gen.AssertMacros.M_CHECK_EQUAL_C_LONGLONG_u16 e a = CHECK_EQUAL_C_LONGLONG (valueAt false e) (valueAt false a)) ∧
+    (∀ (e a : BitVec 32), Gen.AssertMacros.M_CHECK_EQUAL_C_LONGLONG_i32 e a = CHECK_EQUAL_C_LONGLONG (valueAt true e) (valueAt true a)) ∧
+    (∀ (e a : BitVec 32), Gen.AssertMacros.M_CHECK_EQUAL_C_LONGLONG_u32 e a = CHECK_EQUAL_C_LONGLONG (valueAt false e) (valueAt false a)) ∧
+    (∀ (e a : BitVec 64), Gen.AssertMacros.M_CHECK_EQUAL_C_LONGLONG_i64 e a = CHECK_EQUAL_C_LONGLONG (valueAt true e) (valueAt true a)) ∧
+    (∀ (e a : BitVec 64), Gen.AssertMacros.M_CHECK_EQUAL_C_LONGLONG_u64 e a = CHECK_EQUAL_C_LONGLONG (valueAt false e) (valueAt false a)) ∧
+    (∀ (e a : BitVec 32), Gen.AssertMacros.M_CHECK_EQUAL_C_LONGLONG_TEXT_i32 e a = CHECK_EQUAL_C_LONGLONG (valueAt true e) (valueAt true a)) := by
+  refine ⟨?_, ?_, ?_, ?_, ?_, ?_, ?_, ?_, ?_⟩ <;> intros <;>
+    psimp [Gen.AssertMacros.M_CHECK_EQUAL_C_LONGLONG_i8, Gen.AssertMacros.M_CHECK_EQUAL_C_LONGLONG_u8, Gen.AssertMacros.M_CHECK_EQUAL_C_LONGLONG_i16, Gen.AssertMacros.M_CHECK_EQUAL_C_LONGLONG_u16, Gen.AssertMacros.M_CHECK_EQUAL_C_LONGLONG_i32, Gen.AssertMacros.M_CHECK_EQUAL_C_LONGLONG_u32, Gen.AssertMacros.M_CHECK_EQUAL_C_LONGLONG_i64, Gen.AssertMacros.M_CHECK_EQUAL_C_LONGLONG_u64, Gen.AssertMacros.M_CHECK_EQUAL_C_LONGLONG_TEXT_i32]
+
+theorem gen_macro_CHECK_EQUAL_C_ULONGLONG :
+    (∀ (e a : BitVec 8), Gen.AssertMacros.M_CHECK_EQUAL_C_ULONGLONG_i8 e a = CHECK_EQUAL_C_ULONGLONG (valueAt true e) (valueAt true a)) ∧
+    (∀ (e a : BitVec 8), Gen.AssertMacros.M_CHECK_EQUAL_C_ULONGLONG_u8 e a = CHECK_EQUAL_C_ULONGLONG (valueAt false e) (valueAt false a)) ∧
+    (∀ (e a : BitVec 16), Gen.AssertMacros.M_CHECK_EQUAL_C_ULONGLONG_i16 e a = CHECK_EQUAL_C_ULONGLONG (valueAt true e) (valueAt true a)) ∧
+    (∀ (e a : BitVec 16), Gen.AssertMacros.M_CHECK_EQUAL_C_ULONGLONG_u16 e a = CHECK_EQUAL_C_ULONGLONG (valueAt false e) (valueAt false a)) ∧
+    (∀ (e a : BitVec 32), Gen.AssertMacros.M_CHECK_EQUAL_C_ULONGLONG_i32 e a = CHECK_EQUAL_C_ULONGLONG (valueAt true e) (valueAt true a)) ∧
+    (∀ (e a : BitVec 32), Gen.AssertMacros.M_CHECK_EQUAL_C_ULONGLONG_u32 e a = CHECK_EQUAL_C_ULONGLONG (valueAt false e) (valueAt false a)) ∧
+    (∀ (e a : BitVec 64), Gen.AssertMacros.M_CHECK_EQUAL_C_ULONGLONG_i64 e a = CHECK_EQUAL_C_ULONGLONG (valueAt true e) (valueAt true a)) ∧
+    (∀ (e a : BitVec 64), Gen.AssertMacros.M_CHECK_EQUAL_C_ULONGLONG_u64 e a = CHECK_EQUAL_C_ULONGLONG (valueAt false e) (valueAt false a)) ∧
+    (∀ (e a : BitVec 32), Gen.AssertMacros.M_CHECK_EQUAL_C_ULONGLONG_TEXT_i32 e a = CHECK_EQUAL_C_ULONGLONG (valueAt true e) (valueAt true a)) := by
+  refine ⟨?_, ?_, ?_, ?_, ?_, ?_, ?_, ?_, ?_⟩ <;> intros <;>
+    psimp [Gen.AssertMacros.M_CHECK_EQUAL_C_ULONGLONG_i8, Gen.AssertMacros.M_CHECK_EQUAL_C_ULONGLONG_u8, Gen.AssertMacros.M_CHECK_EQUAL_C_ULONGLONG_i16, Gen.AssertMacros.M_CHECK_EQUAL_C_ULONGLONG_u16, Gen.AssertMacros.M_CHECK_EQUAL_C_ULONGLONG_i32, Gen.AssertMacros.M_CHECK_EQUAL_C_ULONGLONG_u32, Gen.AssertMacros.M_CHECK_EQUAL_C_ULONGLONG_i64, Gen.AssertMacros.M_CHECK_EQUAL_C_ULONGLONG_u64, Gen.AssertMacros.M_CHECK_EQUAL_C_ULONGLONG_TEXT_i32]
+
+theorem gen_macro_CHECK_EQUAL_C_CHAR :
+    (∀ (e a : BitVec 8), Gen.AssertMacros.M_CHECK_EQUAL_C_CHAR_i8 e a = CHECK_EQUAL_C_CHAR (valueAt true e) (valueAt true a)) ∧
+    (∀ (e a : BitVec 8), Gen.AssertMacros.M_CHECK_EQUAL_C_CHAR_u8 e a = CHECK_EQUAL_C_CHAR (valueAt false e) (valueAt false a)) ∧
+    (∀ (e a : BitVec 16), Gen.AssertMacros.M_CHECK_EQUAL_C_CHAR_i16 e a = CHECK_EQUAL_C_CHAR (valueAt true e) (valueAt true a)) ∧
+    (∀ (e a : BitVec 16), Gen.AssertMacros.M_CHECK_EQUAL_C_CHAR_u16 e a = CHECK_EQUAL_C_CHAR (valueAt false e) (valueAt false a)) ∧
+    (∀ (e a : BitVec 32), Gen.AssertMacros.M_CHECK_EQUAL_C_CHAR_i32 e a = CHECK_EQUAL_C_CHAR (valueAt true e) (valueAt true a)) ∧
+    (∀ (e a : BitVec 32), Gen.AssertMacros.M_CHECK_EQUAL_C_CHAR_u32 e a = CHECK_EQUAL_C_CHAR (valueAt false e) (valueAt false a)) ∧
+    (∀ (e a : BitVec 64), Gen.AssertMacros.M_CHECK_EQUAL_C_CHAR_i64 e a = CHECK_EQUAL_C_CHAR (valueAt true e) (valueAt true a)) ∧
+    (∀ (e a : BitVec 64), Gen.AssertMacros.M_CHECK_EQUAL_C_CHAR_u64 e a = CHECK_EQUAL_C_CHAR (valueAt false e) (valueAt false a)) ∧
+    (∀ (e a : BitVec 32), Gen.AssertMacros.M_CHECK_EQUAL_C_CHAR_TEXT_i32 e a = CHECK_EQUAL_C_CHAR (valueAt true e) (valueAt true a)) := by
+  refine ⟨?_, ?_, ?_, ?_, ?_, ?_, ?_, ?_, ?_⟩ <;> intros <;>
+    psimp [Gen.AssertMacros.M_CHECK_EQUAL_C_CHAR_i8, Gen.AssertMacros.M_CHECK_EQUAL_C_CHAR_u8, Gen.AssertMacros.M_CHECK_EQUAL_C_CHAR_i16, Gen.AssertMacros.M_CHECK_EQUAL_C_CHAR_u16, Gen.AssertMacros.M_CHECK_EQUAL_C_CHAR_i32, Gen.AssertMacros.M_CHECK_EQUAL_C_CHAR_u32, Gen.AssertMacros.M_CHECK_EQUAL_C_CHAR_i64, Gen.AssertMacros.M_CHECK_EQUAL_C_CHAR_u64, Gen.AssertMacros.M_CHECK_EQUAL_C_CHAR_TEXT_i32]
+
+theorem gen_macro_CHECK_EQUAL_C_UBYTE :
+    (∀ (e a : BitVec 8), Gen.AssertMacros.M_CHECK_EQUAL_C_UBYTE_i8 e a = CHECK_EQUAL_C_UBYTE (valueAt true e) (valueAt true a)) ∧
+    (∀ (e a : BitVec 8), Gen.AssertMacros.M_CHECK_EQUAL_C_UBYTE_u8 e a = CHECK_EQUAL_C_UBYTE (valueAt false e) (valueAt false a)) ∧
+    (∀ (e a : BitVec 16), Gen.AssertMacros.M_CHECK_EQUAL_C_UBYTE_i16 e a = CHECK_EQUAL_C_UBYTE (valueAt true e) (valueAt true a)) ∧
+    (∀ (e a : BitVec 16), Gen.AssertMacros.M_CHECK_EQUAL_C_UBYTE_u16 e a = CHECK_EQUAL_C_UBYTE (valueAt false e) (valueAt false a)) ∧
+    (∀ (e a : BitVec 32), Gen.AssertMacros.M_CHECK_EQUAL_C_UBYTE_i32 e a = CHECK_EQUAL_C_UBYTE (valueAt true e) (valueAt true a)) ∧
+    (∀ (e a : BitVec 32), Gen.AssertMacros.M_CHECK_EQUAL_C_UBYTE_u32 e a = CHECK_EQUAL_C_UBYTE (valueAt false e) (valueAt false a)) ∧
+    (∀ (e a : BitVec 64), Gen.AssertMacros.M_CHECK_EQUAL_C_UBYTE_i64 e a = CHECK_EQUAL_C_UBYTE (valueAt true e) (valueAt true a)) ∧
+    (∀ (e a : BitVec 64), Gen.AssertMacros.M_CHECK_EQUAL_C_UBYTE_u64 e a = CHECK_EQUAL_C_UBYTE (valueAt false e) (valueAt false a)) ∧
+    (∀ (e a : BitVec 32), Gen.AssertMacros.M_CHECK_EQUAL_C_UBYTE_TEXT_i32 e a = CHECK_EQUAL_C_UBYTE (valueAt true e) (valueAt true a)) := by
+  refine ⟨?_, ?_, ?_, ?_, ?_, ?_, ?_, ?_, ?_⟩ <;> intros <;>
+    psimp [Gen.AssertMacros.M_CHECK_EQUAL_C_UBYTE_i8, Gen.AssertMacros.M_CHECK_EQUAL_C_UBYTE_u8, Gen.AssertMacros.M_CHECK_EQUAL_C_UBYTE_i16, Gen.AssertMacros.M_CHECK_EQUAL_C_UBYTE_u16, Gen.AssertMacros.M_CHECK_EQUAL_C_UBYTE_i32, Gen.AssertMacros.M_CHECK_EQUAL_C_UBYTE_u32, Gen.AssertMacros.M_CHECK_EQUAL_C_UBYTE_i64, Gen.AssertMacros.M_CHECK_EQUAL_C_UBYTE_u64, Gen.AssertMacros.M_CHECK_EQUAL_C_UBYTE_TEXT_i32]
+
+theorem gen_macro_CHECK_EQUAL_C_SBYTE :
+    (∀ (e a : BitVec 8), Gen.AssertMacros.M_CHECK_EQUAL_C_SBYTE_i8 e a = CHECK_EQUAL_C_SBYTE (valueAt true e) (valueAt true a)) ∧
+    (∀ (e a : BitVec 8), Gen.AssertMacros.M_CHECK_EQUAL_C_SBYTE_u8 e a = CHECK_EQUAL_C_SBYTE (valueAt false e) (valueAt false a)) ∧
+    (∀ (e a : BitVec 16), Gen.AssertMacros.M_CHECK_EQUAL_C_SBYTE_i16 e a = CHECK_EQUAL_C_SBYTE (valueAt true e) (valueAt true a)) ∧
+    (∀ (e a : BitVec 16), Gen.AssertMacros.M_CHECK_EQUAL_C_SBYTE_u16 e a = CHECK_EQUAL_C_SBYTE (valueAt false e) (valueAt false a)) ∧
+    (∀ (e a : BitVec 32), Gen.AssertMacros.M_CHECK_EQUAL_C_SBYTE_i32 e a = CHECK_EQUAL_C_SBYTE (valueAt true e) (valueAt true a)) ∧
+    (∀ (e a : BitVec 32), Gen.AssertMacros.M_CHECK_EQUAL_C_SBYTE_u32 e a = CHECK_EQUAL_C_SBYTE (valueAt false e) (valueAt false a)) ∧
+    (∀ (e a : BitVec 64), Gen.AssertMacros.M_CHECK_EQUAL_C_SBYTE_i64 e a = CHECK_EQUAL_C_SBYTE (valueAt true e) (valueAt true a)) ∧
+    (∀ (e a : BitVec 64), Gen.AssertMacros.M_CHECK_EQUAL_C_SBYTE_u64 e a = CHECK_EQUAL_C_SBYTE (valueAt false e) (valueAt false a)) ∧
+    (∀ (e a : BitVec 32), Gen.AssertMacros.M_CHECK_EQUAL_C_SBYTE_TEXT_i32 e a = CHECK_EQUAL_C_SBYTE (valueAt true e) (valueAt true a)) := by
+  refine ⟨?_, ?_, ?_, ?_, ?_, ?_, ?_, ?_, ?_⟩ <;> intros <;>
+    psimp [Gen.AssertMacros.M_CHECK_EQUAL_C_SBYTE_i8, Gen.AssertMacros.M_CHECK_EQUAL_C_SBYTE_u8, Gen.AssertMacros.M_CHECK_EQUAL_C_SBYTE_i16, Gen.AssertMacros.M_CHECK_EQUAL_C_SBYTE_u16, Gen.AssertMacros.M_CHECK_EQUAL_C_SBYTE_i32, Gen.AssertMacros.M_CHECK_EQUAL_C_SBYTE_u32, Gen.AssertMacros.M_CHECK_EQUAL_C_SBYTE_i64, Gen.AssertMacros.M_CHECK_EQUAL_C_SBYTE_u64, Gen.AssertMacros.M_CHECK_EQUAL_C_SBYTE_TEXT_i32]
+
+theorem gen_macro_CHECK :
+    (∀ (a : BitVec 8), Gen.AssertMacros.M_CHECK_i8 a = CHECK ((valueAt true a) != 0)) ∧
+    (∀ (a : BitVec 8), Gen.AssertMacros.M_CHECK_u8 a = CHECK ((valueAt false a) != 0)) ∧
+    (∀ (a : BitVec 16), Gen.AssertMacros.M_CHECK_i16 a = CHECK ((valueAt true a) != 0)) ∧
+    (∀ (a : BitVec 16), Gen.AssertMacros.M_CHECK_u16 a = CHECK ((valueAt false a) != 0)) ∧
+    (∀ (a : BitVec 32), Gen.AssertMacros.M_CHECK_i32 a = CHECK ((valueAt true a) != 0)) ∧
+    (∀ (a : BitVec 32), Gen.AssertMacros.M_CHECK_u32 a = CHECK ((valueAt false a) != 0)) ∧
+    (∀ (a : BitVec 64), Gen.AssertMacros.M_CHECK_i64 a = CHECK ((valueAt true a) != 0)) ∧
+    (∀ (a : BitVec 64), Gen.AssertMacros.M_CHECK_u64 a = CHECK ((valueAt false a) != 0)) ∧
+    (∀ (a : BitVec 32), Gen.AssertMacros.M_CHECK_TEXT_i32 a = CHECK ((valueAt true a) != 0)) := by
+  refine ⟨?_, ?_, ?_, ?_, ?_, ?_, ?_, ?_, ?_⟩ <;> intros <;>
+    psimp [Gen.AssertMacros.M_CHECK_i8, Gen.AssertMacros.M_CHECK_u8, Gen.AssertMacros.M_CHECK_i16, Gen.AssertMacros.M_CHECK_u16, Gen.AssertMacros.M_CHECK_i32, Gen.AssertMacros.M_CHECK_u32, Gen.AssertMacros.M_CHECK_i64, Gen.AssertMacros.M_CHECK_u64, Gen.AssertMacros.M_CHECK_TEXT_i32]
+
+theorem gen_macro_CHECK_TRUE :
+    (∀ (a : BitVec 8), Gen.AssertMacros.M_CHECK_TRUE_i8 a = CHECK ((valueAt true a) != 0)) ∧
+    (∀ (a : BitVec 8), Gen.AssertMacros.M_CHECK_TRUE_u8 a = CHECK ((valueAt false a) != 0)) ∧
+    (∀ (a : BitVec 16), Gen.AssertMacros.M_CHECK_TRUE_i16 a = CHECK ((valueAt true a) != 0)) ∧
+    (∀ (a : BitVec 16), Gen.AssertMacros.M_CHECK_TRUE_u16 a = CHECK ((valueAt false a) != 0)) ∧
+    (∀ (a : BitVec 32), Gen.AssertMacros.M_CHECK_TRUE_i32 a = CHECK ((valueAt true a) != 0)) ∧
+    (∀ (a : BitVec 32), Gen.AssertMacros.M_CHECK_TRUE_u32 a = CHECK ((valueAt false a) != 0)) ∧
+    (∀ (a : BitVec 64), Gen.AssertMacros.M_CHECK_TRUE_i64 a = CHECK ((valueAt true a) != 0)) ∧
+    (∀ (a : BitVec 64), Gen.AssertMacros.M_CHECK_TRUE_u64 a = CHECK ((valueAt false a) != 0)) ∧
+    (∀ (a : BitVec 32), Gen.AssertMacros.M_CHECK_TRUE_TEXT_i32 a = CHECK ((valueAt true a) != 0)) := by
+  refine ⟨?_, ?_, ?_, ?_, ?_, ?_, ?_, ?_, ?_⟩ <;> intros <;>
+    psimp [Gen.AssertMacros.M_CHECK_TRUE_i8, Gen.AssertMacros.M_CHECK_TRUE_u8, Gen.AssertMacros.M_CHECK_TRUE_i16, Gen.AssertMacros.M_CHECK_TRUE_u16, Gen.AssertMacros.M_CHECK_TRUE_i32, Gen.AssertMacros.M_CHECK_TRUE_u32, Gen.AssertMacros.M_CHECK_TRUE_i64, Gen.AssertMacros.M_CHECK_TRUE_u64, Gen.AssertMacros.M_CHECK_TRUE_TEXT_i32]
+
+theorem gen_macro_CHECK_FALSE :
+    (∀ (a : BitVec 8), Gen.AssertMacros.M_CHECK_FALSE_i8 a = CHECK_FALSE ((valueAt true a) != 0)) ∧
+    (∀ (a : BitVec 8), Gen.AssertMacros.M_CHECK_FALSE_u8 a = CHECK_FALSE ((valueAt false a) != 0)) ∧
+    (∀ (a : BitVec 16), Gen.AssertMacros.M_CHECK_FALSE_i16 a = CHECK_FALSE ((valueAt true a) != 0)) ∧
+    (∀ (a : BitVec 16), Gen.AssertMacros.M_CHECK_FALSE_u16 a = CHECK_FALSE ((valueAt false a) != 0)) ∧
+    (∀ (a : BitVec 32), Gen.AssertMacros.M_CHECK_FALSE_i32 a = CHECK_FALSE ((valueAt true a) != 0)) ∧
+    (∀ (a : BitVec 32), Gen.AssertMacros.M_CHECK_FALSE_u32 a = CHECK_FALSE ((valueAt false a) != 0)) ∧
+    (∀ (a : BitVec 64), Gen.AssertMacros.M_CHECK_FALSE_i64 a = CHECK_FALSE ((valueAt true a) != 0)) ∧
+    (∀ (a : BitVec 64), Gen.AssertMacros.M_CHECK_FALSE_u64 a = CHECK_FALSE ((valueAt false a) != 0)) ∧
+    (∀ (a : BitVec 32), Gen.AssertMacros.M_CHECK_FALSE_TEXT_i32 a = CHECK_FALSE ((valueAt true a) != 0)) := by
+  refine ⟨?_, ?_, ?_, ?_, ?_, ?_, ?_, ?_, ?_⟩ <;> intros <;>
+    psimp [Gen.AssertMacros.M_CHECK_FALSE_i8, Gen.AssertMacros.M_CHECK_FALSE_u8, Gen.AssertMacros.M_CHECK_FALSE_i16, Gen.AssertMacros.M_CHECK_FALSE_u16, Gen.AssertMacros.M_CHECK_FALSE_i32, Gen.AssertMacros.M_CHECK_FALSE_u32, Gen.AssertMacros.M_CHECK_FALSE_i64, Gen.AssertMacros.M_CHECK_FALSE_u64, Gen.AssertMacros.M_CHECK_FALSE_TEXT_i32]
+
+theorem gen_macro_CHECK_C :
+    (∀ (a : BitVec 8), Gen.AssertMacros.M_CHECK_C_i8 a = CHECK_C (valueAt true a)) ∧
+    (∀ (a : BitVec 8), Gen.AssertMacros.M_CHECK_C_u8 a = CHECK_C (valueAt false a)) ∧
+    (∀ (a : BitVec 16), Gen.AssertMacros.M_CHECK_C_i16 a = CHECK_C (valueAt true a)) ∧
+    (∀ (a : BitVec 16), Gen.AssertMacros.M_CHECK_C_u16 a = CHECK_C (valueAt false a)) ∧
+    (∀ (a : BitVec 32), Gen.AssertMacros.M_CHECK_C_i32 a = CHECK_C (valueAt true a)) ∧
+    (∀ (a : BitVec 32), Gen.AssertMacros.M_CHECK_C_u32 a = CHECK_C (valueAt false a)) ∧
+    (∀ (a : BitVec 64), Gen.AssertMacros.M_CHECK_C_i64 a = CHECK_C (valueAt true a)) ∧
+    (∀ (a : BitVec 64), Gen.AssertMacros.M_CHECK_C_u64 a = CHECK_C (valueAt false a)) ∧
+    (∀ (a : BitVec 32), Gen.AssertMacros.M_CHECK_C_TEXT_i32 a = CHECK_C (valueAt true a)) := by
+  refine ⟨?_, ?_, ?_, ?_, ?_, ?_, ?_, ?_, ?_⟩ <;> intros <;>
+    psimp [Gen.AssertMacros.M_CHECK_C_i8, Gen.AssertMacros.M_CHECK_C_u8, Gen.AssertMacros.M_CHECK_C_i16, Gen.AssertMacros.M_CHECK_C_u16, Gen.AssertMacros.M_CHECK_C_i32, Gen.AssertMacros.M_CHECK_C_u32, Gen.AssertMacros.M_CHECK_C_i64, Gen.AssertMacros.M_CHECK_C_u64, Gen.AssertMacros.M_CHECK_C_TEXT_i32]
+
+theorem gen_macro_CHECK_EQUAL_ZERO :
+    (∀ (a : BitVec 8), Gen.AssertMacros.M_CHECK_EQUAL_ZERO_i8 a = CHECK_EQUAL_ZERO ⟨⟨8, true⟩, valueAt true a⟩) ∧
+    (∀ (a : BitVec 8), Gen.AssertMacros.M_CHECK_EQUAL_ZERO_u8 a = CHECK_EQUAL_ZERO ⟨⟨8, false⟩, valueAt false a⟩) ∧
+    (∀ (a : BitVec 16), Gen.AssertMacros.M_CHECK_EQUAL_ZERO_i16 a = CHECK_EQUAL_ZERO ⟨⟨16, true⟩, valueAt true a⟩) ∧
+    (∀ (a : BitVec 16), Gen.AssertMacros.M_CHECK_EQUAL_ZERO_u16 a = CHECK_EQUAL_ZERO ⟨⟨16, false⟩, valueAt false a⟩) ∧
+    (∀ (a : BitVec 32), Gen.AssertMacros.M_CHECK_EQUAL_ZERO_i32 a = CHECK_EQUAL_ZERO ⟨⟨32, true⟩, valueAt true a⟩) ∧
+    (∀ (a : BitVec 32), Gen.AssertMacros.M_CHECK_EQUAL_ZERO_u32 a = CHECK_EQUAL_ZERO ⟨⟨32, false⟩, valueAt false a⟩) ∧
+    (∀ (a : BitVec 64), Gen.AssertMacros.M_CHECK_EQUAL_ZERO_i64 a = CHECK_EQUAL_ZERO ⟨⟨64, true⟩, valueAt true a⟩) ∧
+    (∀ (a : BitVec 64), Gen.AssertMacros.M_CHECK_EQUAL_ZERO_u64 a = CHECK_EQUAL_ZERO ⟨⟨64, false⟩, valueAt false a⟩) ∧
+    (∀ (a : BitVec 32), Gen.AssertMacros.M_CHECK_EQUAL_ZERO_TEXT_i32 a = CHECK_EQUAL_ZERO ⟨⟨32, true⟩, valueAt true a⟩) := by
+  refine ⟨?_, ?_, ?_, ?_, ?_, ?_, ?_, ?_, ?_⟩ <;> intros <;>
+    psimp [Gen.AssertMacros.M_CHECK_EQUAL_ZERO_i8, Gen.AssertMacros.M_CHECK_EQUAL_ZERO_u8, Gen.AssertMacros.M_CHECK_EQUAL_ZERO_i16, Gen.AssertMacros.M_CHECK_EQUAL_ZERO_u16, Gen.AssertMacros.M_CHECK_EQUAL_ZERO_i32, Gen.AssertMacros.M_CHECK_EQUAL_ZERO_u32, Gen.AssertMacros.M_CHECK_EQUAL_ZERO_i64, Gen.AssertMacros.M_CHECK_EQUAL_ZERO_u64, Gen.AssertMacros.M_CHECK_EQUAL_ZERO_TEXT_i32]
+
+theorem gen_macro_CHECK_EQUAL :
+    (∀ (e : BitVec 8) (a : BitVec 8), Gen.AssertMacros.M_CHECK_EQUAL_i8_i8 e a = CHECK_EQUAL_int ⟨⟨8, true⟩, valueAt true e⟩ ⟨⟨8, true⟩, valueAt true a⟩) ∧
+    (∀ (e : BitVec 8) (a : BitVec 8), Gen.AssertMacros.M_CHECK_EQUAL_i8_u8 e a = CHECK_EQUAL_int ⟨⟨8, true⟩, valueAt true e⟩ ⟨⟨8, false⟩, valueAt false a⟩) ∧
+    (∀ (e : BitVec 8) (a : BitVec 16), Gen.AssertMacros.M_CHECK_EQUAL_i8_i16 e a = CHECK_EQUAL_int ⟨⟨8, true⟩, valueAt true e⟩ ⟨⟨16, true⟩, valueAt true a⟩) ∧
+    (∀ (e : BitVec 8) (a : BitVec 16), Gen.AssertMacros.M_CHECK_EQUAL_i8_u16 e a = CHECK_EQUAL_int ⟨⟨8, true⟩, valueAt true e⟩ ⟨⟨16, false⟩, valueAt false a⟩) ∧
+    (∀ (e : BitVec 8) (a : BitVec 32), Gen.AssertMacros.M_CHECK_EQUAL_i8_i32 e a = CHECK_EQUAL_int ⟨⟨8, true⟩, valueAt true e⟩ ⟨⟨32, true⟩, valueAt true a⟩) ∧
+    (∀ (e : BitVec 8) (a : BitVec 32), Gen.AssertMacros.M_CHECK_EQUAL_i8_u32 e a = CHECK_EQUAL_int ⟨⟨8, true⟩, valueAt true e⟩ ⟨⟨32, false⟩, valueAt false a⟩) ∧
+    (∀ (e : BitVec 8) (a : BitVec 64), Gen.AssertMacros.M_CHECK_EQUAL_i8_i64 e a = CHECK_EQUAL_int ⟨⟨8, true⟩, valueAt true e⟩ ⟨⟨64, true⟩, valueAt true a⟩) ∧
+    (∀ (e : BitVec 8) (a : BitVec 64), Gen.AssertMacros.M_CHECK_EQUAL_i8_u64 e a = CHECK_EQUAL_int ⟨⟨8, true⟩, valueAt true e⟩ ⟨⟨64, false⟩, valueAt false a⟩) ∧
+    (∀ (e : BitVec 8) (a : BitVec 8), Gen.AssertMacros.M_CHECK_EQUAL_u8_i8 e a = CHECK_EQUAL_int ⟨⟨8, false⟩, valueAt false e⟩ ⟨⟨8, true⟩, valueAt true a⟩) ∧
+    (∀ (e : BitVec 8) (a : BitVec 8), Gen.AssertMacros.M_CHECK_EQUAL_u8_u8 e a = CHECK_EQUAL_int ⟨⟨8, false⟩, valueAt false e⟩ ⟨⟨8, false⟩, valueAt false a⟩) ∧
+    (∀ (e : BitVec 8) (a : BitVec 16), Gen.AssertMacros.M_CHECK_EQUAL_u8_i16 e a = CHECK_EQUAL_int ⟨⟨8, false⟩, valueAt false e⟩ ⟨⟨16, true⟩, valueAt true a⟩) ∧
+    (∀ (e : BitVec 8) (a : BitVec 16), Gen.AssertMacros.M_CHECK_EQUAL_u8_u16 e a = CHECK_EQUAL_int ⟨⟨8, false⟩, valueAt false e⟩ ⟨⟨16, false⟩, valueAt false a⟩) ∧
+    (∀ (e : BitVec 8) (a : BitVec 32), Gen.AssertMacros.M_CHECK_EQUAL_u8_i32 e a = CHECK_EQUAL_int ⟨⟨8, false⟩, valueAt false e⟩ ⟨⟨32, true⟩, valueAt true a⟩) ∧
+    (∀ (e : BitVec 8) (a : BitVec 32), Gen.AssertMacros.M_CHECK_EQUAL_u8_u32 e a = CHECK_EQUAL_int ⟨⟨8, false⟩, valueAt false e⟩ ⟨⟨32, false⟩, valueAt false a⟩) ∧
+    (∀ (e : BitVec 8) (a : BitVec 64), Gen.AssertMacros.M_CHECK_EQUAL_u8_i64 e a = CHECK_EQUAL_int ⟨⟨8, false⟩, valueAt false e⟩ ⟨⟨64, true⟩, valueAt true a⟩) ∧
+    (∀ (e : BitVec 8) (a : BitVec 64), Gen.AssertMacros.M_CHECK_EQUAL_u8_u64 e a = CHECK_EQUAL_int ⟨⟨8, false⟩, valueAt false e⟩ ⟨⟨64, false⟩, valueAt false a⟩) ∧
+    (∀ (e : BitVec 16) (a : BitVec 8), Gen.AssertMacros.M_CHECK_EQUAL_i16_i8 e a = CHECK_EQUAL_int ⟨⟨16, true⟩, valueAt true e⟩ ⟨⟨8, true⟩, valueAt true a⟩) ∧
+    (∀ (e : BitVec 16) (a : BitVec 8), Gen.AssertMacros.M_CHECK_EQUAL_i16_u8 e a = CHECK_EQUAL_int ⟨⟨16, true⟩, valueAt true e⟩ ⟨⟨8, false⟩, valueAt false a⟩) ∧
+    (∀ (e : BitVec 16) (a : BitVec 16), Gen.AssertMacros.M_CHECK_EQUAL_i16_i16 e a = CHECK_EQUAL_int ⟨⟨16, true⟩, valueAt true e⟩ ⟨⟨16, true⟩, valueAt true a⟩) ∧
+    (∀ (e : BitVec 16) (a : BitVec 16), Gen.AssertMacros.M_CHECK_EQUAL_i16_u16 e a = CHECK_EQUAL_int ⟨⟨16, true⟩, valueAt true e⟩ ⟨⟨16, false⟩, valueAt false a⟩) ∧
+    (∀ (e : BitVec 16) (a : BitVec 32), Gen.AssertMacros.M_CHECK_EQUAL_i16_i32 e a = CHECK_EQUAL_int ⟨⟨16, true⟩, valueAt true e⟩ ⟨⟨32, true⟩, valueAt true a⟩) ∧
+    (∀ (e : BitVec 16) (a : BitVec 32), Gen.AssertMacros.M_CHECK_EQUAL_i16_u32 e a = CHECK_EQUAL_int ⟨⟨16, true⟩, valueAt true e⟩ ⟨⟨32, false⟩, valueAt false a⟩) ∧
+    (∀ (e : BitVec 16) (a : BitVec 64), Gen.AssertMacros.M_CHECK_EQUAL_i16_i64 e a = CHECK_EQUAL_int ⟨⟨16, true⟩, valueAt true e⟩ ⟨⟨64, true⟩, valueAt true a⟩) ∧
+    (∀ (e : BitVec 16) (a : BitVec 64), Gen.AssertMacros.M_CHECK_EQUAL_i16_u64 e a = CHECK_EQUAL_int ⟨⟨16, true⟩, valueAt true e⟩ ⟨⟨64, false⟩, valueAt false a⟩) ∧
+    (∀ (e : BitVec 16) (a : BitVec 8), Gen.AssertMacros.M_CHECK_EQUAL_u16_i8 e a = CHECK_EQUAL_int ⟨⟨16, false⟩, valueAt false e⟩ ⟨⟨8, true⟩, valueAt true a⟩) ∧
+    (∀ (e : BitVec 16) (a : BitVec 8), Gen.AssertMacros.M_CHECK_EQUAL_u16_u8 e a = CHECK_EQUAL_int ⟨⟨16, false⟩, valueAt false e⟩ ⟨⟨8, false⟩, valueAt false a⟩) ∧
+    (∀ (e : BitVec 16) (a : BitVec 16), Gen.AssertMacros.M_CHECK_EQUAL_u16_i16 e a = CHECK_EQUAL_int ⟨⟨16, false⟩, valueAt false e⟩ ⟨⟨16, true⟩, valueAt true a⟩) ∧
+    (∀ (e : BitVec 16) (a : BitVec 16), Gen.AssertMacros.M_CHECK_EQUAL_u16_u16 e a = CHECK_EQUAL_int ⟨⟨16, false⟩, valueAt false e⟩ ⟨⟨16, false⟩, valueAt false a⟩) ∧
+    (∀ (e : BitVec 16) (a : BitVec 32), Gen.AssertMacros.M_CHECK_EQUAL_u16_i32 e a = CHECK_EQUAL_int ⟨⟨16, false⟩, valueAt false e⟩ ⟨⟨32, true⟩, valueAt true a⟩) ∧
+    (∀ (e : BitVec 16) (a : BitVec 32), Gen.AssertMacros.M_CHECK_EQUAL_u16_u32 e a = CHECK_EQUAL_int ⟨⟨16, false⟩, valueAt false e⟩ ⟨⟨32, false⟩, valueAt false a⟩) ∧
+    (∀ (e : BitVec 16) (a : BitVec 64), Gen.AssertMacros.M_CHECK_EQUAL_u16_i64 e a = CHECK_EQUAL_int ⟨⟨16, false⟩, valueAt false e⟩ ⟨⟨64, true⟩, valueAt true a⟩) ∧
+    (∀ (e : BitVec 16) (a : BitVec 64), Gen.AssertMacros.M_CHECK_EQUAL_u16_u64 e a = CHECK_EQUAL_int ⟨⟨16, false⟩, valueAt false e⟩ ⟨⟨64, false⟩, valueAt false a⟩) ∧
+    (∀ (e : BitVec 32) (a : BitVec 8), Gen.AssertMacros.M_CHECK_EQUAL_i32_i8 e a = CHECK_EQUAL_int ⟨⟨32, true⟩, valueAt true e⟩ ⟨⟨8, true⟩, valueAt true a⟩) ∧
+    (∀ (e : BitVec 32) (a : BitVec 8), Gen.AssertMacros.M_CHECK_EQUAL_i32_u8 e a = CHECK_EQUAL_int ⟨⟨32, true⟩, valueAt true e⟩ ⟨⟨8, false⟩, valueAt false a⟩) ∧
+    (∀ (e : BitVec 32) (a : BitVec 16), Gen.AssertMacros.M_CHECK_EQUAL_i32_i16 e a = CHECK_EQUAL_int ⟨⟨32, true⟩, valueAt true e⟩ ⟨⟨16, true⟩, valueAt true a⟩) ∧
+    (∀ (e : BitVec 32) (a : BitVec 16), Gen.AssertMacros.M_CHECK_EQUAL_i32_u16 e a = CHECK_EQUAL_int ⟨⟨32, true⟩, valueAt true e⟩ ⟨⟨16, false⟩, valueAt false a⟩) ∧
+    (∀ (e : BitVec 32) (a : BitVec 32), Gen.AssertMacros.M_CHECK_EQUAL_i32_i32 e a = CHECK_EQUAL_int ⟨⟨32, true⟩, valueAt true e⟩ ⟨⟨32, true⟩, valueAt true a⟩) ∧
+    (∀ (e : BitVec 32) (a : BitVec 32), Gen.AssertMacros.M_CHECK_EQUAL_i32_u32 e a = CHECK_EQUAL_int ⟨⟨32, true⟩, valueAt true e⟩ ⟨⟨32, false⟩, valueAt false a⟩) ∧
+    (∀ (e : BitVec 32) (a : BitVec 64), Gen.AssertMacros.M_CHECK_EQUAL_i32_i64 e a = CHECK_EQUAL_int ⟨⟨32, true⟩, valueAt true e⟩ ⟨⟨64, true⟩, valueAt true a⟩) ∧
+    (∀ (e : BitVec 32) (a : BitVec 64), Gen.AssertMacros.M_CHECK_EQUAL_i32_u64 e a = CHECK_EQUAL_int ⟨⟨32, true⟩, valueAt true e⟩ ⟨⟨64, false⟩, valueAt false a⟩) ∧
+    (∀ (e : BitVec 32) (a : BitVec 8), Gen.AssertMacros.M_CHECK_EQUAL_u32_i8 e a = CHECK_EQUAL_int ⟨⟨32, false⟩, valueAt false e⟩ ⟨⟨8, true⟩, valueAt true a⟩) ∧
+    (∀ (e : BitVec 32) (a : BitVec 8), Gen.AssertMacros.M_CHECK_EQUAL_u32_u8 e a = CHECK_EQUAL_int ⟨⟨32, false⟩, valueAt false e⟩ ⟨⟨8, false⟩, valueAt false a⟩) ∧
+    (∀ (e : BitVec 32) (a : BitVec 16), Gen.AssertMacros.M_CHECK_EQUAL_u32_i16 e a = CHECK_EQUAL_int ⟨⟨32, false⟩, valueAt false e⟩ ⟨⟨16, true⟩, valueAt true a⟩) ∧
+    (∀ (e : BitVec 32) (a : BitVec 16), Gen.AssertMacros.M_CHECK_EQUAL_u32_u16 e a = CHECK_EQUAL_int ⟨⟨32, false⟩, valueAt false e⟩ ⟨⟨16, false⟩, valueAt false a⟩) ∧
+    (∀ (e : BitVec 32) (a : BitVec 32), Gen.AssertMacros.M_CHECK_EQUAL_u32_i32 e a = CHECK_EQUAL_int ⟨⟨32, false⟩, valueAt false e⟩ ⟨⟨32, true⟩, valueAt true a⟩) ∧
+    (∀ (e : BitVec 32) (a : BitVec 32), Gen.AssertMacros.M_CHECK_EQUAL_u32_u32 e a = CHECK_EQUAL_int ⟨⟨32, false⟩, valueAt false e⟩ ⟨⟨32, false⟩, valueAt false a⟩) ∧
+    (∀ (e : BitVec 32) (a : BitVec 64), Gen.AssertMacros.M_CHECK_EQUAL_u32_i64 e a = CHECK_EQUAL_int ⟨⟨32, false⟩, valueAt false e⟩ ⟨⟨64, true⟩, valueAt true a⟩) ∧
+    (∀ (e : BitVec 32) (a : BitVec 64), Gen.AssertMacros.M_CHECK_EQUAL_u32_u64 e a = CHECK_EQUAL_int ⟨⟨32, false⟩, valueAt false e⟩ ⟨⟨64, false⟩, valueAt false a⟩) ∧
+    (∀ (e : BitVec 64) (a : BitVec 8), Gen.AssertMacros.M_CHECK_EQUAL_i64_i8 e a = CHECK_EQUAL_int ⟨⟨64, true⟩, valueAt true e⟩ ⟨⟨8, true⟩, valueAt true a⟩) ∧
+    (∀ (e : BitVec 64) (a : BitVec 8), Gen.AssertMacros.M_CHECK_EQUAL_i64_u8 e a = CHECK_EQUAL_int ⟨⟨64, true⟩, valueAt true e⟩ ⟨⟨8, false⟩, valueAt false a⟩) ∧
+    (∀ (e : BitVec 64) (a : BitVec 16), Gen.AssertMacros.M_CHECK_EQUAL_i64_i16 e a = CHECK_EQUAL_int ⟨⟨64, true⟩, valueAt true e⟩ ⟨⟨16, true⟩, valueAt true a⟩) ∧
+    (∀ (e : BitVec 64) (a : BitVec 16), Gen.AssertMacros.M_CHECK_EQUAL_i64_u16 e a = CHECK_EQUAL_int ⟨⟨64, true⟩, valueAt true e⟩ ⟨⟨16, false⟩, valueAt false a⟩) ∧
+    (∀ (e : BitVec 64) (a : BitVec 32), Gen.AssertMacros.M_CHECK_EQUAL_i64_i32 e a = CHECK_EQUAL_int ⟨⟨64, true⟩, valueAt true e⟩ ⟨⟨32, true⟩, valueAt true a⟩) ∧
+    (∀ (e : BitVec 64) (a : BitVec 32), Gen.AssertMacros.M_CHECK_EQUAL_i64_u32 e a = CHECK_EQUAL_int ⟨⟨64, true⟩, valueAt true e⟩ ⟨⟨32, false⟩, valueAt false a⟩) ∧
+    (∀ (e : BitVec 64) (a : BitVec 64), Gen.AssertMacros.M_CHECK_EQUAL_i64_i64 e a = CHECK_EQUAL_int ⟨⟨64, true⟩, valueAt true e⟩ ⟨⟨64, true⟩, valueAt true a⟩) ∧
+    (∀ (e : BitVec 64) (a : BitVec 64), Gen.AssertMacros.M_CHECK_EQUAL_i64_u64 e a = CHECK_EQUAL_int ⟨⟨64, true⟩, valueAt true e⟩ ⟨⟨64, false⟩, valueAt false a⟩) ∧
+    (∀ (e : BitVec 64) (a : BitVec 8), Gen.AssertMacros.M_CHECK_EQUAL_u64_i8 e a = CHECK_EQUAL_int ⟨⟨64, false⟩, valueAt false e⟩ ⟨⟨8, true⟩, valueAt true a⟩) ∧
+    (∀ (e : BitVec 64) (a : BitVec 8), Gen.AssertMacros.M_CHECK_EQUAL_u64_u8 e a = CHECK_EQUAL_int ⟨⟨64, false⟩, valueAt false e⟩ ⟨⟨8, false⟩, valueAt false a⟩) ∧
+    (∀ (e : BitVec 64) (a : BitVec 16), Gen.AssertMacros.M_CHECK_EQUAL_u64_i16 e a = CHECK_EQUAL_int ⟨⟨64, false⟩, valueAt false e⟩ ⟨⟨16, true⟩, valueAt true a⟩) ∧
+    (∀ (e : BitVec 64) (a : BitVec 16), Gen.AssertMacros.M_CHECK_EQUAL_u64_u16 e a = CHECK_EQUAL_int ⟨⟨64, false⟩, valueAt false e⟩ ⟨⟨16, false⟩, valueAt false a⟩) ∧
+    (∀ (e : BitVec 64) (a : BitVec 32), Gen.AssertMacros.M_CHECK_EQUAL_u64_i32 e a = CHECK_EQUAL_int ⟨⟨64, false⟩, valueAt false e⟩ ⟨⟨32, true⟩, valueAt true a⟩) ∧
+    (∀ (e : BitVec 64) (a : BitVec 32), Gen.AssertMacros.M_CHECK_EQUAL_u64_u32 e a = CHECK_EQUAL_int ⟨⟨64, false⟩, valueAt false e⟩ ⟨⟨32, false⟩, valueAt false a⟩) ∧
+    (∀ (e : BitVec 64) (a : BitVec 64), Gen.AssertMacros.M_CHECK_EQUAL_u64_i64 e a = CHECK_EQUAL_int ⟨⟨64, false⟩, valueAt false e⟩ ⟨⟨64, true⟩, valueAt true a⟩) ∧
+    (∀ (e : BitVec 64) (a : BitVec 64), Gen.AssertMacros.M_CHECK_EQUAL_u64_u64 e a = CHECK_EQUAL_int ⟨⟨64, false⟩, valueAt false e⟩ ⟨⟨64, false⟩, valueAt false a⟩) ∧
+    (∀ (e a : BitVec 32), Gen.AssertMacros.M_CHECK_EQUAL_TEXT_i32 e a = CHECK_EQUAL_int ⟨⟨32, true⟩, valueAt true e⟩ ⟨⟨32, true⟩, valueAt true a⟩) := by
+  refine ⟨?_, ?_, ?_, ?_, ?_, ?_, ?_, ?_, ?_, ?_, ?_, ?_, ?_, ?_, ?_, ?_, ?_, ?_, ?_, ?_, ?_, ?_, ?_, ?_, ?_, ?_, ?_, ?_, ?_, ?_, ?_, ?_, ?_, ?_, ?_, ?_, ?_, ?_, ?_, ?_, ?_, ?_, ?_, ?_, ?_, ?_, ?_, ?_, ?_, ?_, ?_, ?_, ?_, ?_, ?_, ?_, ?_, ?_, ?_, ?_, ?_, ?_, ?_, ?_, ?_⟩ <;> intros <;>
+    psimp [Gen.AssertMacros.M_CHECK_EQUAL_i8_i8, Gen.AssertMacros.M_CHECK_EQUAL_i8_u8, Gen.AssertMacros.M_CHECK_EQUAL_i8_i16, Gen.AssertMacros.M_CHECK_EQUAL_i8_u16, Gen.AssertMacros.M_CHECK_EQUAL_i8_i32, Gen.AssertMacros.M_CHECK_EQUAL_i8_u32, Gen.AssertMacros.M_CHECK_EQUAL_i8_i64, Gen.AssertMacros.M_CHECK_EQUAL_i8_u64, Gen.AssertMacros.M_CHECK_EQUAL_u8_i8, Gen.AssertMacros.M_CHECK_EQUAL_u8_u8, Gen.AssertMacros.M_CHECK_EQUAL_u8_i16, Gen.AssertMacros.M_CHECK_EQUAL_u8_u16, Gen.AssertMacros.M_CHECK_EQUAL_u8_i32, Gen.AssertMacros.M_CHECK_EQUAL_u8_u32, Gen.AssertMacros.M_CHECK_EQUAL_u8_i64, Gen.AssertMacros.M_CHECK_EQUAL_u8_u64, Gen.AssertMacros.M_CHECK_EQUAL_i16_i8, Gen.AssertMacros.M_CHECK_EQUAL_i16_u8, Gen.AssertMacros.M_CHECK_EQUAL_i16_i16, Gen.AssertMacros.M_CHECK_EQUAL_i16_u16, Gen.AssertMacros.M_CHECK_EQUAL_i16_i32, Gen.AssertMacros.M_CHECK_EQUAL_i16_u32, Gen.AssertMacros.M_CHECK_EQUAL_i16_i64, Gen.AssertMacros.M_CHECK_EQUAL_i16_u64, Gen.AssertMacros.M_CHECK_EQUAL_u16_i8, Gen.AssertMacros.M_CHECK_EQUAL_u16_u8, Gen.AssertMacros.M_CHECK_EQUAL_u16_i16, Gen.AssertMacros.M_CHECK_EQUAL_u16_u16, Gen.AssertMacros.M_CHECK_EQUAL_u16_i32, Gen.AssertMacros.M_CHECK_EQUAL_u16_u32, Gen.AssertMacros.M_CHECK_EQUAL_u16_i64, Gen.AssertMacros.M_CHECK_EQUAL_u16_u64, Gen.AssertMacros.M_CHECK_EQUAL_i32_i8, Gen.AssertMacros.M_CHECK_EQUAL_i32_u8, Gen.AssertMacros.M_CHECK_EQUAL_i32_i16, Gen.AssertMacros.M_CHECK_EQUAL_i32_u16, Gen.AssertMacros.M_CHECK_EQUAL_i32_i32, Gen.AssertMacros.M_CHECK_EQUAL_i32_u32, Gen.AssertMacros.M_CHECK_EQUAL_i32_i64, Gen.AssertMacros.M_CHECK_EQUAL_i32_u64, Gen.AssertMacros.M_CHECK_EQUAL_u32_i8, Gen.AssertMacros.M_CHECK_EQUAL_u32_u8, Gen.AssertMacros.M_CHECK_EQUAL_u32_i16, Gen.AssertMacros.M_CHECK_EQUAL_u32_u16, Gen.AssertMacros.M_CHECK_EQUAL_u32_i32, Gen.AssertMacros.M_CHECK_EQUAL_u32_u32, Gen.AssertMacros.M_CHECK_EQUAL_u32_i64, Gen.AssertMacros.M_CHECK_EQUAL_u32_u64, Gen.AssertMacros.M_CHECK_EQUAL_i64_i8, Gen.AssertMacros.M_CHECK_EQUAL_i64_u8, Gen.AssertMacros.M_CHECK_EQUAL_i64_i16, Gen.AssertMacros.M_CHECK_EQUAL_i64_u16, Gen.AssertMacros.M_CHECK_EQUAL_i64_i32, Gen.AssertMacros.M_CHECK_EQUAL_i64_u32, Gen.AssertMacros.M_CHECK_EQUAL_i64_i64, Gen.AssertMacros.M_CHECK_EQUAL_i64_u64, Gen.AssertMacros.M_CHECK_EQUAL_u64_i8, Gen.AssertMacros.M_CHECK_EQUAL_u64_u8, Gen.AssertMacros.M_CHECK_EQUAL_u64_i16, Gen.AssertMacros.M_CHECK_EQUAL_u64_u16, Gen.AssertMacros.M_CHECK_EQUAL_u64_i32, Gen.AssertMacros.M_CHECK_EQUAL_u64_u32, Gen.AssertMacros.M_CHECK_EQUAL_u64_i64, Gen.AssertMacros.M_CHECK_EQUAL_u64_u64, Gen.AssertMacros.M_CHECK_EQUAL_TEXT_i32]
+
+theorem gen_macro_CHECK_COMPARE_lt :
+    (∀ (e : BitVec 8) (a : BitVec 8), Gen.AssertMacros.M_CHECK_COMPARE_lt_i8_i8 e a = CHECK_COMPARE_int .lt ⟨⟨8, true⟩, valueAt true e⟩ ⟨⟨8, true⟩, valueAt true a⟩) ∧
+    (∀ (e : BitVec 8) (a : BitVec 8), Gen.AssertMacros.M_CHECK_COMPARE_lt_i8_u8 e a = CHECK_COMPARE_int .lt ⟨⟨8, true⟩, valueAt true e⟩ ⟨⟨8, false⟩, valueAt false a⟩) ∧
+    (∀ (e : BitVec 8) (a : BitVec 16), Gen.AssertMacros.M_CHECK_COMPARE_lt_i8_i16 e a = CHECK_COMPARE_int .lt ⟨⟨8, true⟩, valueAt true e⟩ ⟨⟨16, true⟩, valueAt true a⟩) ∧
+    (∀ (e : BitVec 8) (a : BitVec 16), Gen.AssertMacros.M_CHECK_COMPARE_lt_i8_u16 e a = CHECK_COMPARE_int .lt ⟨⟨8, true⟩, valueAt true e⟩ ⟨⟨16, false⟩, valueAt false a⟩) ∧
+    (∀ (e : BitVec 8) (a : BitVec 32), Gen.AssertMacros.M_CHECK_COMPARE_lt_i8_i32 e a = CHECK_COMPARE_int .lt ⟨⟨8, true⟩, valueAt true e⟩ ⟨⟨32, true⟩, valueAt true a⟩) ∧
+    (∀ (e : BitVec 8) (a : BitVec 32), Gen.AssertMacros.M_CHECK_COMPARE_lt_i8_u32 e a = CHECK_COMPARE_int .lt ⟨⟨8, true⟩, valueAt true e⟩ ⟨⟨32, false⟩, valueAt false a⟩) ∧
+    (∀ (e : BitVec 8) (a : BitVec 64), Gen.AssertMacros.M_CHECK_COMPARE_lt_i8_i64 e a = CHECK_COMPARE_int .lt ⟨⟨8, true⟩, valueAt true e⟩ ⟨⟨64, true⟩, valueAt true a⟩) ∧
+    (∀ (e : BitVec 8) (a : BitVec 64), Gen.AssertMacros.M_CHECK_COMPARE_lt_i8_u64 e a = CHECK_COMPARE_int .lt ⟨⟨8, true⟩, valueAt true e⟩ ⟨⟨64, false⟩, valueAt false a⟩) ∧
+    (∀ (e : BitVec 8) (a : BitVec 8), Gen.AssertMacros.M_CHECK_COMPARE_lt_u8_i8 e a = CHECK_COMPARE_int .lt ⟨⟨8, false⟩, valueAt false e⟩ ⟨⟨8, true⟩, valueAt true a⟩) ∧
+    (∀ (e : BitVec 8) (a : BitVec 8), Gen.AssertMacros.M_CHECK_COMPARE_lt_u8_u8 e a = CHECK_COMPARE_int .lt ⟨⟨8, false⟩, valueAt false e⟩ ⟨⟨8, false⟩, valueAt false a⟩) ∧
+    (∀ (e : BitVec 8) (a : BitVec 16), Gen.AssertMacros.M_CHECK_COMPARE_lt_u8_i16 e a = CHECK_COMPARE_int .lt ⟨⟨8, false⟩, valueAt false e⟩ ⟨⟨16, true⟩, valueAt true a⟩) ∧
+    (∀ (e : BitVec 8) (a : BitVec 16), Gen.AssertMacros.M_CHECK_COMPARE_lt_u8_u16 e a = CHECK_COMPARE_int .lt ⟨⟨8, false⟩, valueAt false e⟩ ⟨⟨16, false⟩, valueAt false a⟩) ∧
+    (∀ (e : BitVec 8) (a : BitVec 32), Gen.AssertMacros.M_CHECK_COMPARE_lt_u8_i32 e a = CHECK_COMPARE_int .lt ⟨⟨8, false⟩, valueAt false e⟩ ⟨⟨32, true⟩, valueAt true a⟩) ∧
+    (∀ (e : BitVec 8) (a : BitVec 32), Gen.AssertMacros.M_CHECK_COMPARE_lt_u8_u32 e a = CHECK_COMPARE_int .lt ⟨⟨8, false⟩, valueAt false e⟩ ⟨⟨32, false⟩, valueAt false a⟩) ∧
+    (∀ (e : BitVec 8) (a : BitVec 64), Gen.AssertMacros.M_CHECK_COMPARE_lt_u8_i64 e a = CHECK_COMPARE_int .lt ⟨⟨8, false⟩, valueAt false e⟩ ⟨⟨64, true⟩, valueAt true a⟩) ∧
+    (∀ (e : BitVec 8) (a : BitVec 64), Gen.AssertMacros.M_CHECK_COMPARE_lt_u8_u64 e a = CHECK_COMPARE_int .lt ⟨⟨8, false⟩, valueAt false e⟩ ⟨⟨64, false⟩, valueAt false a⟩) ∧
+    (∀ (e : BitVec 16) (a : BitVec 8), Gen.AssertMacros.M_CHECK_COMPARE_lt_i16_i8 e a = CHECK_COMPARE_int .lt ⟨⟨16, true⟩, valueAt true e⟩ ⟨⟨8, true⟩, valueAt true a⟩) ∧
+    (∀ (e : BitVec 16) (a : BitVec 8), Gen.AssertMacros.M_CHECK_COMPARE_lt_i16_u8 e a = CHECK_COMPARE_int .lt ⟨⟨16, true⟩, valueAt true e⟩ ⟨⟨8, false⟩, valueAt false a⟩) ∧
+    (∀ (e : BitVec 16) (a : BitVec 16), Gen.AssertMacros.M_CHECK_COMPARE_lt_i16_i16 e a = CHECK_COMPARE_int .lt ⟨⟨16, true⟩, valueAt true e⟩ ⟨⟨16, true⟩, valueAt true a⟩) ∧
+    (∀ (e : BitVec 16) (a : BitVec 16), Gen.AssertMacros.M_CHECK_COMPARE_lt_i16_u16 e a = CHECK_COMPARE_int .lt ⟨⟨16, true⟩, valueAt true e⟩ ⟨⟨16, false⟩, valueAt false a⟩) ∧
+    (∀ (e : BitVec 16) (a : BitVec 32), Gen.AssertMacros.M_CHECK_COMPARE_lt_i16_i32 e a = CHECK_COMPARE_int .lt ⟨⟨16, true⟩, valueAt true e⟩ ⟨⟨32, true⟩, valueAt true a⟩) ∧
+    (∀ (e : BitVec 16) (a : BitVec 32), Gen.AssertMacros.M_CHECK_COMPARE_lt_i16_u32 e a = CHECK_COMPARE_int .lt ⟨⟨16, true⟩, valueAt true e⟩ ⟨⟨32, false⟩, valueAt false a⟩) ∧
+    (∀ (e : BitVec 16) (a : BitVec 64), Gen.AssertMacros.M_CHECK_COMPARE_lt_i16_i64 e a = CHECK_COMPARE_int .lt ⟨⟨16, true⟩, valueAt true e⟩ ⟨⟨64, true⟩, valueAt true a⟩) ∧
+    (∀ (e : BitVec 16) (a : BitVec 64), Gen.AssertMacros.M_CHECK_COMPARE_lt_i16_u64 e a = CHECK_COMPARE_int .lt ⟨⟨16, true⟩, valueAt true e⟩ ⟨⟨64, false⟩, valueAt false a⟩) ∧
+    (∀ (e : BitVec 16) (a : BitVec 8), Gen.AssertMacros.M_CHECK_COMPARE_lt_u16_i8 e a = CHECK_COMPARE_int .lt ⟨⟨16, false⟩, valueAt false e⟩ ⟨⟨8, true⟩, valueAt true a⟩) ∧
+    (∀ (e : BitVec 16) (a : BitVec 8), Gen.AssertMacros.M_CHECK_COMPARE_lt_u16_u8 e a = CHECK_COMPARE_int .lt ⟨⟨16, false⟩, valueAt false e⟩ ⟨⟨8, false⟩, valueAt false a⟩) ∧
+    (∀ (e : BitVec 16) (a : BitVec 16), Gen.AssertMacros.M_CHECK_COMPARE_lt_u16_i16 e a = CHECK_COMPARE_int .lt ⟨⟨16, false⟩, valueAt false e⟩ ⟨⟨16, true⟩, valueAt true a⟩) ∧
+    (∀ (e : BitVec 16) (a : BitVec 16), Gen.AssertMacros.M_CHECK_COMPARE_lt_u16_u16 e a = CHECK_COMPARE_int .lt ⟨⟨16, false⟩, valueAt false e⟩ ⟨⟨16, false⟩, valueAt false a⟩) ∧
+    (∀ (e : BitVec 16) (a : BitVec 32), Gen.AssertMacros.M_CHECK_COMPARE_lt_u16_i32 e a = CHECK_COMPARE_int .lt ⟨⟨16, false⟩, valueAt false e⟩ ⟨⟨32, true⟩, valueAt true a⟩) ∧
+    (∀ (e : BitVec 16) (a : BitVec 32), Gen.AssertMacros.M_CHECK_COMPARE_lt_u16_u32 e a = CHECK_COMPARE_int .lt ⟨⟨16, false⟩, valueAt false e⟩ ⟨⟨32, false⟩, valueAt false a⟩) ∧
+    (∀ (e : BitVec 16) (a : BitVec 64), Gen.AssertMacros.M_CHECK_COMPARE_lt_u16_i64 e a = CHECK_COMPARE_int .lt ⟨⟨16, false⟩, valueAt false e⟩ ⟨⟨64, true⟩, valueAt true a⟩) ∧
+    (∀ (e : BitVec 16) (a : BitVec 64), Gen.AssertMacros.M_CHECK_COMPARE_lt_u16_u64 e a = CHECK_COMPARE_int .lt ⟨⟨16, false⟩, valueAt false e⟩ ⟨⟨64, false⟩, valueAt false a⟩) ∧
+    (∀ (e : BitVec 32) (a : BitVec 8), Gen.AssertMacros.M_CHECK_COMPARE_lt_i32_i8 e a = CHECK_COMPARE_int .lt ⟨⟨32, true⟩, valueAt true e⟩ ⟨⟨8, true⟩, valueAt true a⟩) ∧
+    (∀ (e : BitVec 32) (a : BitVec 8), Gen.AssertMacros.M_CHECK_COMPARE_lt_i32_u8 e a = CHECK_COMPARE_int .lt ⟨⟨32, true⟩, valueAt true e⟩ ⟨⟨8, false⟩, valueAt false a⟩) ∧
+    (∀ (e : BitVec 32) (a : BitVec 16), Gen.AssertMacros.M_CHECK_COMPARE_lt_i32_i16 e a = CHECK_COMPARE_int .lt ⟨⟨32, true⟩, valueAt true e⟩ ⟨⟨16, true⟩, valueAt true a⟩) ∧
+    (∀ (e : BitVec 32) (a : BitVec 16), Gen.AssertMacros.M_CHECK_COMPARE_lt_i32_u16 e a = CHECK_COMPARE_int .lt ⟨⟨32, true⟩, valueAt true e⟩ ⟨⟨16, false⟩, valueAt false a⟩) ∧
+    (∀ (e : BitVec 32) (a : BitVec 32), Gen.AssertMacros.M_CHECK_COMPARE_lt_i32_i32 e a = CHECK_COMPARE_int .lt ⟨⟨32, true⟩, valueAt true e⟩ ⟨⟨32, true⟩, valueAt true a⟩) ∧
+    (∀ (e : BitVec 32) (a : BitVec 32), Gen.AssertMacros.M_CHECK_COMPARE_lt_i32_u32 e a = CHECK_COMPARE_int .lt ⟨⟨32, true⟩, valueAt true e⟩ ⟨⟨32, false⟩, valueAt false a⟩) ∧
+    (∀ (e : BitVec 32) (a : BitVec 64), Gen.AssertMacros.M_CHECK_COMPARE_lt_i32_i64 e a = CHECK_COMPARE_int .lt ⟨⟨32, true⟩, valueAt true e⟩ ⟨⟨64, true⟩, valueAt true a⟩) ∧
+    (∀ (e : BitVec 32) (a : BitVec 64), Gen.AssertMacros.M_CHECK_COMPARE_lt_i32_u64 e a = CHECK_COMPARE_int .lt ⟨⟨32, true⟩, valueAt true e⟩ ⟨⟨64, false⟩, valueAt false a⟩) ∧
+    (∀ (e : BitVec 32) (a : BitVec 8), Gen.AssertMacros.M_CHECK_COMPARE_lt_u32_i8 e a = CHECK_COMPARE_int .lt ⟨⟨32, false⟩, valueAt false e⟩ ⟨⟨8, true⟩, valueAt true a⟩) ∧
+    (∀ (e : BitVec 32) (a : BitVec 8), Gen.AssertMacros.M_CHECK_COMPARE_lt_u32_u8 e a = CHECK_COMPARE_int .lt ⟨⟨32, false⟩, valueAt false e⟩ ⟨⟨8, false⟩, valueAt false a⟩) ∧
+    (∀ (e : BitVec 32) (a : BitVec 16), Gen.AssertMacros.M_CHECK_COMPARE_lt_u32_i16 e a = CHECK_COMPARE_int .lt ⟨⟨32, false⟩, valueAt false e⟩ ⟨⟨16, true⟩, valueAt true a⟩) ∧
+    (∀ (e : BitVec 32) (a : BitVec 16), Gen.AssertMacros.M_CHECK_COMPARE_lt_u32_u16 e a = CHECK_COMPARE_int .lt ⟨⟨32, false⟩, valueAt false e⟩ ⟨⟨16, false⟩, valueAt false a⟩) ∧
+    (∀ (e : BitVec 32) (a : BitVec 32), Gen.AssertMacros.M_CHECK_COMPARE_lt_u32_i32 e a = CHECK_COMPARE_int .lt ⟨⟨32, false⟩, valueAt false e⟩ ⟨⟨32, true⟩, valueAt true a⟩) ∧
+    (∀ (e : BitVec 32) (a : BitVec 32), Gen.AssertMacros.M_CHECK_COMPARE_lt_u32_u32 e a = CHECK_COMPARE_int .lt ⟨⟨32, false⟩, valueAt false e⟩ ⟨⟨32, false⟩, valueAt false a⟩) ∧
+    (∀ (e : BitVec 32) (a : BitVec 64), Gen.AssertMacros.M_CHECK_COMPARE_lt_u32_i64 e a = CHECK_COMPARE_int .lt ⟨⟨32, false⟩, valueAt false e⟩ ⟨⟨64, true⟩, valueAt true a⟩) ∧
+    (∀ (e : BitVec 32) (a : BitVec 64), Gen.AssertMacros.M_CHECK_COMPARE_lt_u32_u64 e a = CHECK_COMPARE_int .lt ⟨⟨32, false⟩, valueAt false e⟩ ⟨⟨64, false⟩, valueAt false a⟩) ∧
+    (∀ (e : BitVec 64) (a : BitVec 8), Gen.AssertMacros.M_CHECK_COMPARE_lt_i64_i8 e a = CHECK_COMPARE_int .lt ⟨⟨64, true⟩, valueAt true e⟩ ⟨⟨8, true⟩, valueAt true a⟩) ∧
+    (∀ (e : BitVec 64) (a : BitVec 8), Gen.AssertMacros.M_CHECK_COMPARE_lt_i64_u8 e a = CHECK_COMPARE_int .lt ⟨⟨64, true⟩, valueAt true e⟩ ⟨⟨8, false⟩, valueAt false a⟩) ∧
+    (∀ (e : BitVec 64) (a : BitVec 16), Gen.AssertMacros.M_CHECK_COMPARE_lt_i64_i16 e a = CHECK_COMPARE_int .lt ⟨⟨64, true⟩, valueAt true e⟩ ⟨⟨16, true⟩, valueAt true a⟩) ∧
+    (∀ (e : BitVec 64) (a : BitVec 16), Gen.AssertMacros.M_CHECK_COMPARE_lt_i64_u16 e a = CHECK_COMPARE_int .lt ⟨⟨64, true⟩, valueAt true e⟩ ⟨⟨16, false⟩, valueAt false a⟩) ∧
+    (∀ (e : BitVec 64) (a : BitVec 32), Gen.AssertMacros.M_CHECK_COMPARE_lt_i64_i32 e a = CHECK_COMPARE_int .lt ⟨⟨64, true⟩, valueAt true e⟩ ⟨⟨32, true⟩, valueAt true a⟩) ∧
+    (∀ (e : BitVec 64) (a : BitVec 32), Gen.AssertMacros.M_CHECK_COMPARE_lt_i64_u32 e a = CHECK_COMPARE_int .lt ⟨⟨64, true⟩, valueAt true e⟩ ⟨⟨32, false⟩, valueAt false a⟩) ∧
+    (∀ (e : BitVec 64) (a : BitVec 64), Gen.AssertMacros.M_CHECK_COMPARE_lt_i64_i64 e a = CHECK_COMPARE_int .lt ⟨⟨64, true⟩, valueAt true e⟩ ⟨⟨64, true⟩, valueAt true a⟩) ∧
+    (∀ (e : BitVec 64) (a : BitVec 64), Gen.AssertMacros.M_CHECK_COMPARE_lt_i64_u64 e a = CHECK_COMPARE_int .lt ⟨⟨64, true⟩, valueAt true e⟩ ⟨⟨64, false⟩, valueAt false a⟩) ∧
+    (∀ (e : BitVec 64) (a : BitVec 8), Gen.AssertMacros.M_CHECK_COMPARE_lt_u64_i8 e a = CHECK_COMPARE_int .lt ⟨⟨64, false⟩, valueAt false e⟩ ⟨⟨8, true⟩, valueAt true a⟩) ∧
+    (∀ (e : BitVec 64) (a : BitVec 8), Gen.AssertMacros.M_CHECK_COMPARE_lt_u64_u8 e a = CHECK_COMPARE_int .lt ⟨⟨64, false⟩, valueAt false e⟩ ⟨⟨8, false⟩, valueAt false a⟩) ∧
+    (∀ (e : BitVec 64) (a : BitVec 16), Gen.AssertMacros.M_CHECK_COMPARE_lt_u64_i16 e a = CHECK_COMPARE_int .lt ⟨⟨64, false⟩, valueAt false e⟩ ⟨⟨16, true⟩, valueAt true a⟩) ∧
+    (∀ (e : BitVec 64) (a : BitVec 16), Gen.AssertMacros.M_CHECK_COMPARE_lt_u64_u16 e a = CHECK_COMPARE_int .lt ⟨⟨64, false⟩, valueAt false e⟩ ⟨⟨16, false⟩, valueAt false a⟩) ∧
+    (∀ (e : BitVec 64) (a : BitVec 32), Gen.AssertMacros.M_CHECK_COMPARE_lt_u64_i32 e a = CHECK_COMPARE_int .lt ⟨⟨64, false⟩, valueAt false e⟩ ⟨⟨32, true⟩, valueAt true a⟩) ∧
+    (∀ (e : BitVec 64) (a : BitVec 32), Gen.AssertMacros.M_CHECK_COMPARE_lt_u64_u32 e a = CHECK_COMPARE_int .lt ⟨⟨64, false⟩, valueAt false e⟩ ⟨⟨32, false⟩, valueAt false a⟩) ∧
+    (∀ (e : BitVec 64) (a : BitVec 64), Gen.AssertMacros.M_CHECK_COMPARE_lt_u64_i64 e a = CHECK_COMPARE_int .lt ⟨⟨64, false⟩, valueAt false e⟩ ⟨⟨64, true⟩, valueAt true a⟩) ∧
+    (∀ (e : BitVec 64) (a : BitVec 64), Gen.AssertMacros.M_CHECK_COMPARE_lt_u64_u64 e a = CHECK_COMPARE_int .lt ⟨⟨64, false⟩, valueAt false e⟩ ⟨⟨64, false⟩, valueAt false a⟩) ∧
+    (∀ (e a : BitVec 32), Gen.AssertMacros.M_CHECK_COMPARE_TEXT_lt_i32_i32 e a = CHECK_COMPARE_int .lt ⟨⟨32, true⟩, valueAt true e⟩ ⟨⟨32, true⟩, valueAt true a⟩) := by
+  refine ⟨?_, ?_, ?_, ?_, ?_, ?_, ?_, ?_, ?_, ?_, ?_, ?_, ?_, ?_, ?_, ?_, ?_, ?_, ?_, ?_, ?_, ?_, ?_, ?_, ?_, ?_, ?_, ?_, ?_, ?_, ?_, ?_, ?_, ?_, ?_, ?_, ?_, ?_, ?_, ?_, ?_, ?_, ?_, ?_, ?_, ?_, ?_, ?_, ?_, ?_, ?_, ?_, ?_, ?_, ?_, ?_, ?_, ?_, ?_, ?_, ?_, ?_, ?_, ?_, ?_⟩ <;> intros <;>
+    psimp [Gen.AssertMacros.M_CHECK_COMPARE_lt_i8_i8, Gen.AssertMacros.M_CHECK_COMPARE_lt_i8_u8, Gen.AssertMacros.M_CHECK_COMPARE_lt_i8_i16, Gen.AssertMacros.M_CHECK_COMPARE_lt_i8_u16, Gen.AssertMacros.M_CHECK_COMPARE_lt_i8_i32, Gen.AssertMacros.M_CHECK_COMPARE_lt_i8_u32, Gen.AssertMacros.M_CHECK_COMPARE_lt_i8_i64, Gen.AssertMacros.M_CHECK_COMPARE_lt_i8_u64, Gen.AssertMacros.M_CHECK_COMPARE_lt_u8_i8, Gen.AssertMacros.M_CHECK_COMPARE_lt_u8_u8, Gen.AssertMacros.M_CHECK_COMPARE_lt_u8_i16, Gen.AssertMacros.M_CHECK_COMPARE_lt_u8_u16, Gen.AssertMacros.M_CHECK_COMPARE_lt_u8_i32, Gen.AssertMacros.M_CHECK_COMPARE_lt_u8_u32, Gen.AssertMacros.M_CHECK_COMPARE_lt_u8_i64, Gen.AssertMacros.M_CHECK_COMPARE_lt_u8_u64, Gen.AssertMacros.M_CHECK_COMPARE_lt_i16_i8, Gen.AssertMacros.M_CHECK_COMPARE_lt_i16_u8, Gen.AssertMacros.M_CHECK_COMPARE_lt_i16_i16, Gen.AssertMacros.M_CHECK_COMPARE_lt_i16_u16, Gen.AssertMacros.M_CHECK_COMPARE_lt_i16_i32, Gen.AssertMacros.M_CHECK_COMPARE_lt_i16_u32, Gen.AssertMacros.M_CHECK_COMPARE_lt_i16_i64, Gen.AssertMacros.M_CHECK_COMPARE_lt_i16_u64, Gen.AssertMacros.M_CHECK_COMPARE_lt_u16_i8, Gen.AssertMacros.M_CHECK_COMPARE_lt_u16_u8, Gen.AssertMacros.M_CHECK_COMPARE_lt_u16_i16, Gen.AssertMacros.M_CHECK_COMPARE_lt_u16_u16, Gen.AssertMacros.M_CHECK_COMPARE_lt_u16_i32, Gen.AssertMacros.M_CHECK_COMPARE_lt_u16_u32, Gen.AssertMacros.M_CHECK_COMPARE_lt_u16_i64, Gen.AssertMacros.M_CHECK_COMPARE_lt_u16_u64, Gen.AssertMacros.M_CHECK_COMPARE_lt_i32_i8, Gen.AssertMacros.M_CHECK_COMPARE_lt_i32_u8, Gen.AssertMacros.M_CHECK_COMPARE_lt_i32_i16, Gen.AssertMacros.M_CHECK_COMPARE_lt_i32_u16, Gen.AssertMacros.M_CHECK_COMPARE_lt_i32_i32, Gen.AssertMacros.M_CHECK_COMPARE_lt_i32_u32, Gen.AssertMacros.M_CHECK_COMPARE_lt_i32_i64, Gen.AssertMacros.M_CHECK_COMPARE_lt_i32_u64, Gen.AssertMacros.M_CHECK_COMPARE_lt_u32_i8, Gen.AssertMacros.M_CHECK_COMPARE_lt_u32_u8, Gen.AssertMacros.M_CHECK_COMPARE_lt_u32_i16, Gen.AssertMacros.M_CHECK_COMPARE_lt_u32_u16, Gen.AssertMacros.M_CHECK_COMPARE_lt_u32_i32, Gen.AssertMacros.M_CHECK_COMPARE_lt_u32_u32, Gen.AssertMacros.M_CHECK_COMPARE_lt_u32_i64, Gen.AssertMacros.M_CHECK_COMPARE_lt_u32_u64, Gen.AssertMacros.M_CHECK_COMPARE_lt_i64_i8, Gen.AssertMacros.M_CHECK_COMPARE_lt_i64_u8, Gen.AssertMacros.M_CHECK_COMPARE_lt_i64_i16, Gen.AssertMacros.M_CHECK_COMPARE_lt_i64_u16, Gen.AssertMacros.M_CHECK_COMPARE_lt_i64_i32, Gen.AssertMacros.M_CHECK_COMPARE_lt_i64_u32, Gen.AssertMacros.M_CHECK_COMPARE_lt_i64_i64, Gen.AssertMacros.M_CHECK_COMPARE_lt_i64_u64, Gen.AssertMacros.M_CHECK_COMPARE_lt_u64_i8, Gen.AssertMacros.M_CHECK_COMPARE_lt_u64_u8, Gen.AssertMacros.M_CHECK_COMPARE_lt_u64_i16, Gen.AssertMacros.M_CHECK_COMPARE_lt_u64_u16, Gen.AssertMacros.M_CHECK_COMPARE_lt_u64_i32, Gen.AssertMacros.M_CHECK_COMPARE_lt_u64_u32, Gen.AssertMacros.M_CHECK_COMPARE_lt_u64_i64, Gen.AssertMacros.M_CHECK_COMPARE_lt_u64_u64, Gen.AssertMacros.M_CHECK_COMPARE_TEXT_lt_i32_i32]
+
+theorem gen_macro_CHECK_COMPARE_le :
+    (∀ (e : BitVec 8) (a : BitVec 8), Gen.AssertMacros.M_CHECK_COMPARE_le_i8_i8 e a = CHECK_COMPARE_int .le ⟨⟨8, true⟩, valueAt true e⟩ ⟨⟨8, true⟩, valueAt true a⟩) ∧
+    (∀ (e : BitVec 8) (a : BitVec 8), Gen.AssertMacros.M_CHECK_COMPARE_le_u8_u8 e a = CHECK_COMPARE_int .le ⟨⟨8, false⟩, valueAt false e⟩ ⟨⟨8, false⟩, valueAt false a⟩) ∧
+    (∀ (e : BitVec 16) (a : BitVec 16), Gen.AssertMacros.M_CHECK_COMPARE_le_i16_i16 e a = CHECK_COMPARE_int .le ⟨⟨16, true⟩, valueAt true e⟩ ⟨⟨16, true⟩, valueAt true a⟩) ∧
+    (∀ (e : BitVec 16) (a : BitVec 16), Gen.AssertMacros.M_CHECK_COMPARE_le_u16_u16 e a = CHECK_COMPARE_int .le ⟨⟨16, false⟩, valueAt false e⟩ ⟨⟨16, false⟩, valueAt false a⟩) ∧
+    (∀ (e : BitVec 32) (a : BitVec 32), Gen.AssertMacros.M_CHECK_COMPARE_le_i32_i32 e a = CHECK_COMPARE_int .le ⟨⟨32, true⟩, valueAt true e⟩ ⟨⟨32, true⟩, valueAt true a⟩) ∧
+    (∀ (e : BitVec 32) (a : BitVec 32), Gen.AssertMacros.M_CHECK_COMPARE_le_u32_u32 e a = CHECK_COMPARE_int .le ⟨⟨32, false⟩, valueAt false e⟩ ⟨⟨32, false⟩, valueAt false a⟩) ∧
+    (∀ (e : BitVec 64) (a : BitVec 64), Gen.AssertMacros.M_CHECK_COMPARE_le_i64_i64 e a = CHECK_COMPARE_int .le ⟨⟨64, true⟩, valueAt true e⟩ ⟨⟨64, true⟩, valueAt true a⟩) ∧
+    (∀ (e : BitVec 64) (a : BitVec 64), Gen.AssertMacros.M_CHECK_COMPARE_le_u64_u64 e a = CHECK_COMPARE_int .le ⟨⟨64, false⟩, valueAt false e⟩ ⟨⟨64, false⟩, valueAt false a⟩) := by
+  refine ⟨?_, ?_, ?_, ?_, ?_, ?_, ?_, ?_⟩ <;> intros <;>
+    psimp [Gen.AssertMacros.M_CHECK_COMPARE_le_i8_i8, Gen.AssertMacros.M_CHECK_COMPARE_le_u8_u8, Gen.AssertMacros.M_CHECK_COMPARE_le_i16_i16, Gen.AssertMacros.M_CHECK_COMPARE_le_u16_u16, Gen.AssertMacros.M_CHECK_COMPARE_le_i32_i32, Gen.AssertMacros.M_CHECK_COMPARE_le_u32_u32, Gen.AssertMacros.M_CHECK_COMPARE_le_i64_i64, Gen.AssertMacros.M_CHECK_COMPARE_le_u64_u64]
+
+theorem gen_macro_CHECK_COMPARE_gt :
+    (∀ (e : BitVec 8) (a : BitVec 8), Gen.AssertMacros.M_CHECK_COMPARE_gt_i8_i8 e a = CHECK_COMPARE_int .gt ⟨⟨8, true⟩, valueAt true e⟩ ⟨⟨8, true⟩, valueAt true a⟩) ∧
+    (∀ (e : BitVec 8) (a : BitVec 8), Gen.AssertMacros.M_CHECK_COMPARE_gt_u8_u8 e a = CHECK_COMPARE_int .gt ⟨⟨8, false⟩, valueAt false e⟩ ⟨⟨8, false⟩, valueAt false a⟩) ∧
+    (∀ (e : BitVec 16) (a : BitVec 16), Gen.AssertMacros.M_CHECK_COMPARE_gt_i16_i16 e a = CHECK_COMPARE_int .gt ⟨⟨16, true⟩, valueAt true e⟩ ⟨⟨16, true⟩, valueAt true a⟩) ∧
+    (∀ (e : BitVec 16) (a : BitVec 16), Gen.AssertMacros.M_CHECK_COMPARE_gt_u16_u16 e a = CHECK_COMPARE_int .gt ⟨⟨16, false⟩, valueAt false e⟩ ⟨⟨16, false⟩, valueAt false a⟩) ∧
+    (∀ (e : BitVec 32) (a : BitVec 32), Gen.AssertMacros.M_CHECK_COMPARE_gt_i32_i32 e a = CHECK_COMPARE_int .gt ⟨⟨32, true⟩, valueAt true e⟩ ⟨⟨32, true⟩, valueAt true a⟩) ∧
+    (∀ (e : BitVec 32) (a : BitVec 32), Gen.AssertMacros.M_CHECK_COMPARE_gt_u32_u32 e a = CHECK_COMPARE_int .gt ⟨⟨32, false⟩, valueAt false e⟩ ⟨⟨32, false⟩, valueAt false a⟩) ∧
+    (∀ (e : BitVec 64) (a : BitVec 64), Gen.AssertMacros.M_CHECK_COMPARE_gt_i64_i64 e a = CHECK_COMPARE_int .gt ⟨⟨64, true⟩, valueAt true e⟩ ⟨⟨64, true⟩, valueAt true a⟩) ∧
+    (∀ (e : BitVec 64) (a : BitVec 64), Gen.AssertMacros.M_CHECK_COMPARE_gt_u64_u64 e a = CHECK_COMPARE_int .gt ⟨⟨64, false⟩, valueAt false e⟩ ⟨⟨64, false⟩, valueAt false a⟩) := by
+  refine ⟨?_, ?_, ?_, ?_, ?_, ?_, ?_, ?_⟩ <;> intros <;>
+    psimp [Gen.AssertMacros.M_CHECK_COMPARE_gt_i8_i8, Gen.AssertMacros.M_CHECK_COMPARE_gt_u8_u8, Gen.AssertMacros.M_CHECK_COMPARE_gt_i16_i16, Gen.AssertMacros.M_CHECK_COMPARE_gt_u16_u16, Gen.AssertMacros.M_CHECK_COMPARE_gt_i32_i32, Gen.AssertMacros.M_CHECK_COMPARE_gt_u32_u32, Gen.AssertMacros.M_CHECK_COMPARE_gt_i64_i64, Gen.AssertMacros.M_CHECK_COMPARE_gt_u64_u64]
+
+theorem gen_macro_CHECK_COMPARE_ge :
+    (∀ (e : BitVec 8) (a : BitVec 8), Gen.AssertMacros.M_CHECK_COMPARE_ge_i8_i8 e a = CHECK_COMPARE_int .ge ⟨⟨8, true⟩, valueAt true e⟩ ⟨⟨8, true⟩, valueAt true a⟩) ∧
+    (∀ (e : BitVec 8) (a : BitVec 8), Gen.AssertMacros.M_CHECK_COMPARE_ge_i8_u8 e a = CHECK_COMPARE_int .ge ⟨⟨8, true⟩, valueAt true e⟩ ⟨⟨8, false⟩, valueAt false a⟩) ∧
+    (∀ (e : BitVec 8) (a : BitVec 16), Gen.AssertMacros.M_CHECK_COMPARE_ge_i8_i16 e a = CHECK_COMPARE_int .ge ⟨⟨8, true⟩, valueAt true e⟩ ⟨⟨16, true⟩, valueAt true a⟩) ∧
+    (∀ (e : BitVec 8) (a : BitVec 16), Gen.AssertMacros.M_CHECK_COMPARE_ge_i8_u16 e a = CHECK_COMPARE_int .ge ⟨⟨8, true⟩, valueAt true e⟩ ⟨⟨16, false⟩, valueAt false a⟩) ∧
+    (∀ (e : BitVec 8) (a : BitVec 32), Gen.AssertMacros.M_CHECK_COMPARE_ge_i8_i32 e a = CHECK_COMPARE_int .ge ⟨⟨8, true⟩, valueAt true e⟩ ⟨⟨32, true⟩, valueAt true a⟩) ∧
+    (∀ (e : BitVec 8) (a : BitVec 32), Gen.AssertMacros.M_CHECK_COMPARE_ge_i8_u32 e a = CHECK_COMPARE_int .ge ⟨⟨8, true⟩, valueAt true e⟩ ⟨⟨32, false⟩, valueAt false a⟩) ∧
+    (∀ (e : BitVec 8) (a : BitVec 64), Gen.AssertMacros.M_CHECK_COMPARE_ge_i8_i64 e a = CHECK_COMPARE_int .ge ⟨⟨8, true⟩, valueAt true e⟩ ⟨⟨64, true⟩, valueAt true a⟩) ∧
+    (∀ (e : BitVec 8) (a : BitVec 64), Gen.AssertMacros.M_CHECK_COMPARE_ge_i8_u64 e a = CHECK_COMPARE_int .ge ⟨⟨8, true⟩, valueAt true e⟩ ⟨⟨64, false⟩, valueAt false a⟩) ∧
+    (∀ (e : BitVec 8) (a : BitVec 8), Gen.AssertMacros.M_CHECK_COMPARE_ge_u8_i8 e a = CHECK_COMPARE_int .ge ⟨⟨8, false⟩, valueAt false e⟩ ⟨⟨8, true⟩, valueAt true a⟩) ∧
+    (∀ (e : BitVec 8) (a : BitVec 8), Gen.AssertMacros.M_CHECK_COMPARE_ge_u8_u8 e a = CHECK_COMPARE_int .ge ⟨⟨8, false⟩, valueAt false e⟩ ⟨⟨8, false⟩, valueAt false a⟩) ∧
+    (∀ (e : BitVec 8) (a : BitVec 16), Gen.AssertMacros.M_CHECK_COMPARE_ge_u8_i16 e a = CHECK_COMPARE_int .ge ⟨⟨8, false⟩, valueAt false e⟩ ⟨⟨16, true⟩, valueAt true a⟩) ∧
+    (∀ (e : BitVec 8) (a : BitVec 16), Gen.AssertMacros.M_CHECK_COMPARE_ge_u8_u16 e a = CHECK_COMPARE_int .ge ⟨⟨8, false⟩, valueAt false e⟩ ⟨⟨16, false⟩, valueAt false a⟩) ∧
+    (∀ (e : BitVec 8) (a : BitVec 32), Gen.AssertMacros.M_CHECK_COMPARE_ge_u8_i32 e a = CHECK_COMPARE_int .ge ⟨⟨8, false⟩, valueAt false e⟩ ⟨⟨32, true⟩, valueAt true a⟩) ∧
+    (∀ (e : BitVec 8) (a : BitVec 32), Gen.AssertMacros.M_CHECK_COMPARE_ge_u8_u32 e a = CHECK_COMPARE_int .ge ⟨⟨8, false⟩, valueAt false e⟩ ⟨⟨32, false⟩, valueAt false a⟩) ∧
+    (∀ (e : BitVec 8) (a : BitVec 64), Gen.AssertMacros.M_CHECK_COMPARE_ge_u8_i64 e a = CHECK_COMPARE_int .ge ⟨⟨8, false⟩, valueAt false e⟩ ⟨⟨64, true⟩, valueAt true a⟩) ∧
+    (∀ (e : BitVec 8) (a : BitVec 64), Gen.AssertMacros.M_CHECK_COMPARE_ge_u8_u64 e a = CHECK_COMPARE_int .ge ⟨⟨8, false⟩, valueAt false e⟩ ⟨⟨64, false⟩, valueAt false a⟩) ∧
+    (∀ (e : BitVec 16) (a : BitVec 8), Gen.AssertMacros.M_CHECK_COMPARE_ge_i16_i8 e a = CHECK_COMPARE_int .ge ⟨⟨16, true⟩, valueAt true e⟩ ⟨⟨8, true⟩, valueAt true a⟩) ∧
+    (∀ (e : BitVec 16) (a : BitVec 8), Gen.AssertMacros.M_CHECK_COMPARE_ge_i16_u8 e a = CHECK_COMPARE_int .ge ⟨⟨16, true⟩, valueAt true e⟩ ⟨⟨8, false⟩, valueAt false a⟩) ∧
+    (∀ (e : BitVec 16) (a : BitVec 16), Gen.AssertMacros.M_CHECK_COMPARE_ge_i16_i16 e a = CHECK_COMPARE_int .ge ⟨⟨16, true⟩, valueAt true e⟩ ⟨⟨16, true⟩, valueAt true a⟩) ∧
+    (∀ (e : BitVec 16) (a : BitVec 16), Gen.AssertMacros.M_CHECK_COMPARE_ge_i16_u16 e a = CHECK_COMPARE_int .ge ⟨⟨16, true⟩, valueAt true e⟩ ⟨⟨16, false⟩, valueAt false a⟩) ∧
+    (∀ (e : BitVec 16) (a : BitVec 32), Gen.AssertMacros.M_CHECK_COMPARE_ge_i16_i32 e a = CHECK_COMPARE_int .ge ⟨⟨16, true⟩, valueAt true e⟩ ⟨⟨32, true⟩, valueAt true a⟩) ∧
+    (∀ (e : BitVec 16) (a : BitVec 32), Gen.AssertMacros.M_CHECK_COMPARE_ge_i16_u32 e a = CHECK_COMPARE_int .ge ⟨⟨16, true⟩, valueAt true e⟩ ⟨⟨32, false⟩, valueAt false a⟩) ∧
+    (∀ (e : BitVec 16) (a : BitVec 64), Gen.AssertMacros.M_CHECK_COMPARE_ge_i16_i64 e a = CHECK_COMPARE_int .ge ⟨⟨16, true⟩, valueAt true e⟩ ⟨⟨64, true⟩, valueAt true a⟩) ∧
+    (∀ (e : BitVec 16) (a : BitVec 64), Gen.AssertMacros.M_CHECK_COMPARE_ge_i16_u64 e a = CHECK_COMPARE_int .ge ⟨⟨16, true⟩, valueAt true e⟩ ⟨⟨64, false⟩, valueAt false a⟩) ∧
+    (∀ (e : BitVec 16) (a : BitVec 8), Gen.AssertMacros.M_CHECK_COMPARE_ge_u16_i8 e a = CHECK_COMPARE_int .ge ⟨⟨16, false⟩, valueAt false e⟩ ⟨⟨8, true⟩, valueAt true a⟩) ∧
+    (∀ (e : BitVec 16) (a : BitVec 8), Gen.AssertMacros.M_CHECK_COMPARE_ge_u16_u8 e a = CHECK_COMPARE_int .ge ⟨⟨16, false⟩, valueAt false e⟩ ⟨⟨8, false⟩, valueAt false a⟩) ∧
+    (∀ (e : BitVec 16) (a : BitVec 16), Gen.AssertMacros.M_CHECK_COMPARE_ge_u16_i16 e a = CHECK_COMPARE_int .ge ⟨⟨16, false⟩, valueAt false e⟩ ⟨⟨16, true⟩, valueAt true a⟩) ∧
+    (∀ (e : BitVec 16) (a : BitVec 16), Gen.AssertMacros.M_CHECK_COMPARE_ge_u16_u16 e a = CHECK_COMPARE_int .ge ⟨⟨16, false⟩, valueAt false e⟩ ⟨⟨16, false⟩, valueAt false a⟩) ∧
+    (∀ (e : BitVec 16) (a : BitVec 32), Gen.AssertMacros.M_CHECK_COMPARE_ge_u16_i32 e a = CHECK_COMPARE_int .ge ⟨⟨16, false⟩, valueAt false e⟩ ⟨⟨32, true⟩, valueAt true a⟩) ∧
+    (∀ (e : BitVec 16) (a : BitVec 32), Gen.AssertMacros.M_CHECK_COMPARE_ge_u16_u32 e a = CHECK_COMPARE_int .ge ⟨⟨16, false⟩, valueAt false e⟩ ⟨⟨32, false⟩, valueAt false a⟩) ∧
+    (∀ (e : BitVec 16) (a : BitVec 64), Gen.AssertMacros.M_CHECK_COMPARE_ge_u16_i64 e a = CHECK_COMPARE_int .ge ⟨⟨16, false⟩, valueAt false e⟩ ⟨⟨64, true⟩, valueAt true a⟩) ∧
+    (∀ (e : BitVec 16) (a : BitVec 64), Gen.AssertMacros.M_CHECK_COMPARE_ge_u16_u64 e a = CHECK_COMPARE_int .ge ⟨⟨16, false⟩, valueAt false e⟩ ⟨⟨64, false⟩, valueAt false a⟩) ∧
+    (∀ (e : BitVec 32) (a : BitVec 8), Gen.AssertMacros.M_CHECK_COMPARE_ge_i32_i8 e a = CHECK_COMPARE_int .ge ⟨⟨32, true⟩, valueAt true e⟩ ⟨⟨8, true⟩, valueAt true a⟩) ∧
+    (∀ (e : BitVec 32) (a : BitVec 8), Gen.AssertMacros.M_CHECK_COMPARE_ge_i32_u8 e a = CHECK_COMPARE_int .ge ⟨⟨32, true⟩, valueAt true e⟩ ⟨⟨8, false⟩, valueAt false a⟩) ∧
+    (∀ (e : BitVec 32) (a : BitVec 16), Gen.AssertMacros.M_CHECK_COMPARE_ge_i32_i16 e a = CHECK_COMPARE_int .ge ⟨⟨32, true⟩, valueAt true e⟩ ⟨⟨16, true⟩, valueAt true a⟩) ∧
+    (∀ (e : BitVec 32) (a : BitVec 16), Gen.AssertMacros.M_CHECK_COMPARE_ge_i32_u16 e a = CHECK_COMPARE_int .ge ⟨⟨32, true⟩, valueAt true e⟩ ⟨⟨16, false⟩, valueAt false a⟩) ∧
+    (∀ (e : BitVec 32) (a : BitVec 32), Gen.AssertMacros.M_CHECK_COMPARE_ge_i32_i32 e a = CHECK_COMPARE_int .ge ⟨⟨32, true⟩, valueAt true e⟩ ⟨⟨32, true⟩, valueAt true a⟩) ∧
+    (∀ (e : BitVec 32) (a : BitVec 32), Gen.AssertMacros.M_CHECK_COMPARE_ge_i32_u32 e a = CHECK_COMPARE_int .ge ⟨⟨32, true⟩, valueAt true e⟩ ⟨⟨32, false⟩, valueAt false a⟩) ∧
+    (∀ (e : BitVec 32) (a : BitVec 64), Gen.AssertMacros.M_CHECK_COMPARE_ge_i32_i64 e a = CHECK_COMPARE_int .ge ⟨⟨32, true⟩, valueAt true e⟩ ⟨⟨64, true⟩, valueAt true a⟩) ∧
+    (∀ (e : BitVec 32) (a : BitVec 64), Gen.AssertMacros.M_CHECK_COMPARE_ge_i32_u64 e a = CHECK_COMPARE_int .ge ⟨⟨32, true⟩, valueAt true e⟩ ⟨⟨64, false⟩, valueAt false a⟩) ∧
+    (∀ (e : BitVec 32) (a : BitVec 8), Gen.AssertMacros.M_CHECK_COMPARE_ge_u32_i8 e a = CHECK_COMPARE_int .ge ⟨⟨32, false⟩, valueAt false e⟩ ⟨⟨8, true⟩, valueAt true a⟩) ∧
+    (∀ (e : BitVec 32) (a : BitVec 8), Gen.AssertMacros.M_CHECK_COMPARE_ge_u32_u8 e a = CHECK_COMPARE_int .ge ⟨⟨32, false⟩, valueAt false e⟩ ⟨⟨8, false⟩, valueAt false a⟩) ∧
+    (∀ (e : BitVec 32) (a : BitVec 16), Gen.AssertMacros.M_CHECK_COMPARE_ge_u32_i16 e a = CHECK_COMPARE_int .ge ⟨⟨32, false⟩, valueAt false e⟩ ⟨⟨16, true⟩, valueAt true a⟩) ∧
+    (∀ (e : BitVec 32) (a : BitVec 16), Gen.AssertMacros.M_CHECK_COMPARE_ge_u32_u16 e a = CHECK_COMPARE_int .ge ⟨⟨32, false⟩, valueAt false e⟩ ⟨⟨16, false⟩, valueAt false a⟩) ∧
+    (∀ (e : BitVec 32) (a : BitVec 32), Gen.AssertMacros.M_CHECK_COMPARE_ge_u32_i32 e a = CHECK_COMPARE_int .ge ⟨⟨32, false⟩, valueAt false e⟩ ⟨⟨32, true⟩, valueAt true a⟩) ∧
+    (∀ (e : BitVec 32) (a : BitVec 32), Gen.AssertMacros.M_CHECK_COMPARE_ge_u32_u32 e a = CHECK_COMPARE_int .ge ⟨⟨32, false⟩, valueAt false e⟩ ⟨⟨32, false⟩, valueAt false a⟩) ∧
+    (∀ (e : BitVec 32) (a : BitVec 64), Gen.AssertMacros.M_CHECK_COMPARE_ge_u32_i64 e a = CHECK_COMPARE_int .ge ⟨⟨32, false⟩, valueAt false e⟩ ⟨⟨64, true⟩, valueAt true a⟩) ∧
+    (∀ (e : BitVec 32) (a : BitVec 64), Gen.AssertMacros.M_CHECK_COMPARE_ge_u32_u64 e a = CHECK_COMPARE_int .ge ⟨⟨32, false⟩, valueAt false e⟩ ⟨⟨64, false⟩, valueAt false a⟩) ∧
+    (∀ (e : BitVec 64) (a : BitVec 8), Gen.AssertMacros.M_CHECK_COMPARE_ge_i64_i8 e a = CHECK_COMPARE_int .ge ⟨⟨64, true⟩, valueAt true e⟩ ⟨⟨8, true⟩, valueAt true a⟩) ∧
+    (∀ (e : BitVec 64) (a : BitVec 8), Gen.AssertMacros.M_CHECK_COMPARE_ge_i64_u8 e a = CHECK_COMPARE_int .ge ⟨⟨64, true⟩, valueAt true e⟩ ⟨⟨8, false⟩, valueAt false a⟩) ∧
+    (∀ (e : BitVec 64) (a : BitVec 16), Gen.AssertMacros.M_CHECK_COMPARE_ge_i64_i16 e a = CHECK_COMPARE_int .ge ⟨⟨64, true⟩, valueAt true e⟩ ⟨⟨16, true⟩, valueAt true a⟩) ∧
+    (∀ (e : BitVec 64) (a : BitVec 16), Gen.AssertMacros.M_CHECK_COMPARE_ge_i64_u16 e a = CHECK_COMPARE_int .ge ⟨⟨64, true⟩, valueAt true e⟩ ⟨⟨16, false⟩, valueAt false a⟩) ∧
+    (∀ (e : BitVec 64) (a : BitVec 32), Gen.AssertMacros.M_CHECK_COMPARE_ge_i64_i32 e a = CHECK_COMPARE_int .ge ⟨⟨64, true⟩, valueAt true e⟩ ⟨⟨32, true⟩, valueAt true a⟩) ∧
+    (∀ (e : BitVec 64) (a : BitVec 32), Gen.AssertMacros.M_CHECK_COMPARE_ge_i64_u32 e a = CHECK_COMPARE_int .ge ⟨⟨64, true⟩, valueAt true e⟩ ⟨⟨32, false⟩, valueAt false a⟩) ∧
+    (∀ (e : BitVec 64) (a : BitVec 64), Gen.AssertMacros.M_CHECK_COMPARE_ge_i64_i64 e a = CHECK_COMPARE_int .ge ⟨⟨64, true⟩, valueAt true e⟩ ⟨⟨64, true⟩, valueAt true a⟩) ∧
+    (∀ (e : BitVec 64) (a : BitVec 64), Gen.AssertMacros.M_CHECK_COMPARE_ge_i64_u64 e a = CHECK_COMPARE_int .ge ⟨⟨64, true⟩, valueAt true e⟩ ⟨⟨64, false⟩, valueAt false a⟩) ∧
+    (∀ (e : BitVec 64) (a : BitVec 8), Gen.AssertMacros.M_CHECK_COMPARE_ge_u64_i8 e a = CHECK_COMPARE_int .ge ⟨⟨64, false⟩, valueAt false e⟩ ⟨⟨8, true⟩, valueAt true a⟩) ∧
+    (∀ (e : BitVec 64) (a : BitVec 8), Gen.AssertMacros.M_CHECK_COMPARE_ge_u64_u8 e a = CHECK_COMPARE_int .ge ⟨⟨64, false⟩, valueAt false e⟩ ⟨⟨8, false⟩, valueAt false a⟩) ∧
+    (∀ (e : BitVec 64) (a : BitVec 16), Gen.AssertMacros.M_CHECK_COMPARE_ge_u64_i16 e a = CHECK_COMPARE_int .ge ⟨⟨64, false⟩, valueAt false e⟩ ⟨⟨16, true⟩, valueAt true a⟩) ∧
+    (∀ (e : BitVec 64) (a : BitVec 16), Gen.AssertMacros.M_CHECK_COMPARE_ge_u64_u16 e a = CHECK_COMPARE_int .ge ⟨⟨64, false⟩, valueAt false e⟩ ⟨⟨16, false⟩, valueAt false a⟩) ∧
+    (∀ (e : BitVec 64) (a : BitVec 32), Gen.AssertMacros.M_CHECK_COMPARE_ge_u64_i32 e a = CHECK_COMPARE_int .ge ⟨⟨64, false⟩, valueAt false e⟩ ⟨⟨32, true⟩, valueAt true a⟩) ∧
+    (∀ (e : BitVec 64) (a : BitVec 32), Gen.AssertMacros.M_CHECK_COMPARE_ge_u64_u32 e a = CHECK_COMPARE_int .ge ⟨⟨64, false⟩, valueAt false e⟩ ⟨⟨32, false⟩, valueAt false a⟩) ∧
+    (∀ (e : BitVec 64) (a : BitVec 64), Gen.AssertMacros.M_CHECK_COMPARE_ge_u64_i64 e a = CHECK_COMPARE_int .ge ⟨⟨64, false⟩, valueAt false e⟩ ⟨⟨64, true⟩, valueAt true a⟩) ∧
+    (∀ (e : BitVec 64) (a : BitVec 64), Gen.AssertMacros.M_CHECK_COMPARE_ge_u64_u64 e a = CHECK_COMPARE_int .ge ⟨⟨64, false⟩, valueAt false e⟩ ⟨⟨64, false⟩, valueAt false a⟩) := by
+  refine ⟨?_, ?_, ?_, ?_, ?_, ?_, ?_, ?_, ?_, ?_, ?_, ?_, ?_, ?_, ?_, ?_, ?_, ?_, ?_, ?_, ?_, ?_, ?_, ?_, ?_, ?_, ?_, ?_, ?_, ?_, ?_, ?_, ?_, ?_, ?_, ?_, ?_, ?_, ?_, ?_, ?_, ?_, ?_, ?_, ?_, ?_, ?_, ?_, ?_, ?_, ?_, ?_, ?_, ?_, ?_, ?_, ?_, ?_, ?_, ?_, ?_, ?_, ?_, ?_⟩ <;> intros <;>
+    psimp [Gen.AssertMacros.M_CHECK_COMPARE_ge_i8_i8, Gen.AssertMacros.M_CHECK_COMPARE_ge_i8_u8, Gen.AssertMacros.M_CHECK_COMPARE_ge_i8_i16, Gen.AssertMacros.M_CHECK_COMPARE_ge_i8_u16, Gen.AssertMacros.M_CHECK_COMPARE_ge_i8_i32, Gen.AssertMacros.M_CHECK_COMPARE_ge_i8_u32, Gen.AssertMacros.M_CHECK_COMPARE_ge_i8_i64, Gen.AssertMacros.M_CHECK_COMPARE_ge_i8_u64, Gen.AssertMacros.M_CHECK_COMPARE_ge_u8_i8, Gen.AssertMacros.M_CHECK_COMPARE_ge_u8_u8, Gen.AssertMacros.M_CHECK_COMPARE_ge_u8_i16, Gen.AssertMacros.M_CHECK_COMPARE_ge_u8_u16, Gen.AssertMacros.M_CHECK_COMPARE_ge_u8_i32, Gen.AssertMacros.M_CHECK_COMPARE_ge_u8_u32, Gen.AssertMacros.M_CHECK_COMPARE_ge_u8_i64, Gen.AssertMacros.M_CHECK_COMPARE_ge_u8_u64, Gen.AssertMacros.M_CHECK_COMPARE_ge_i16_i8, Gen.AssertMacros.M_CHECK_COMPARE_ge_i16_u8, Gen.AssertMacros.M_CHECK_COMPARE_ge_i16_i16, Gen.AssertMacros.M_CHECK_COMPARE_ge_i16_u16, Gen.AssertMacros.M_CHECK_COMPARE_ge_i16_i32, Gen.AssertMacros.M_CHECK_COMPARE_ge_i16_u32, Gen.AssertMacros.M_CHECK_COMPARE_ge_i16_i64, Gen.AssertMacros.M_CHECK_COMPARE_ge_i16_u64, Gen.AssertMacros.M_CHECK_COMPARE_ge_u16_i8, Gen.AssertMacros.M_CHECK_COMPARE_ge_u16_u8, Gen.AssertMacros.M_CHECK_COMPARE_ge_u16_i16, Gen.AssertMacros.M_CHECK_COMPARE_ge_u16_u16, Gen.AssertMacros.M_CHECK_COMPARE_ge_u16_i32, Gen.AssertMacros.M_CHECK_COMPARE_ge_u16_u32, Gen.AssertMacros.M_CHECK_COMPARE_ge_u16_i64, Gen.AssertMacros.M_CHECK_COMPARE_ge_u16_u64, Gen.AssertMacros.M_CHECK_COMPARE_ge_i32_i8, Gen.AssertMacros.M_CHECK_COMPARE_ge_i32_u8, Gen.AssertMacros.M_CHECK_COMPARE_ge_i32_i16, Gen.AssertMacros.M_CHECK_COMPARE_ge_i32_u16, Gen.AssertMacros.M_CHECK_COMPARE_ge_i32_i32, Gen.AssertMacros.M_CHECK_COMPARE_ge_i32_u32, Gen.AssertMacros.M_CHECK_COMPARE_ge_i32_i64, Gen.AssertMacros.M_CHECK_COMPARE_ge_i32_u64, Gen.AssertMacros.M_CHECK_COMPARE_ge_u32_i8, Gen.AssertMacros.M_CHECK_COMPARE_ge_u32_u8, Gen.AssertMacros.M_CHECK_COMPARE_ge_u32_i16, Gen.AssertMacros.M_CHECK_COMPARE_ge_u32_u16, Gen.AssertMacros.M_CHECK_COMPARE_ge_u32_i32, Gen.AssertMacros.M_CHECK_COMPARE_ge_u32_u32, Gen.AssertMacros.M_CHECK_COMPARE_ge_u32_i64, Gen.AssertMacros.M_CHECK_COMPARE_ge_u32_u64, Gen.AssertMacros.M_CHECK_COMPARE_ge_i64_i8, Gen.AssertMacros.M_CHECK_COMPARE_ge_i64_u8, Gen.AssertMacros.M_CHECK_COMPARE_ge_i64_i16, Gen.AssertMacros.M_CHECK_COMPARE_ge_i64_u16, Gen.AssertMacros.M_CHECK_COMPARE_ge_i64_i32, Gen.AssertMacros.M_CHECK_COMPARE_ge_i64_u32, Gen.AssertMacros.M_CHECK_COMPARE_ge_i64_i64, Gen.AssertMacros.M_CHECK_COMPARE_ge_i64_u64, Gen.AssertMacros.M_CHECK_COMPARE_ge_u64_i8, Gen.AssertMacros.M_CHECK_COMPARE_ge_u64_u8, Gen.AssertMacros.M_CHECK_COMPARE_ge_u64_i16, Gen.AssertMacros.M_CHECK_COMPARE_ge_u64_u16, Gen.AssertMacros.M_CHECK_COMPARE_ge_u64_i32, Gen.AssertMacros.M_CHECK_COMPARE_ge_u64_u32, Gen.AssertMacros.M_CHECK_COMPARE_ge_u64_i64, Gen.AssertMacros.M_CHECK_COMPARE_ge_u64_u64]
+
+theorem gen_macro_CHECK_COMPARE_eq :
+    (∀ (e : BitVec 8) (a : BitVec 8), Gen.AssertMacros.M_CHECK_COMPARE_eq_i8_i8 e a = CHECK_COMPARE_int .eq ⟨⟨8, true⟩, valueAt true e⟩ ⟨⟨8, true⟩, valueAt true a⟩) ∧
+    (∀ (e : BitVec 8) (a : BitVec 8), Gen.AssertMacros.M_CHECK_COMPARE_eq_u8_u8 e a = CHECK_COMPARE_int .eq ⟨⟨8, false⟩, valueAt false e⟩ ⟨⟨8, false⟩, valueAt false a⟩) ∧
+    (∀ (e : BitVec 16) (a : BitVec 16), Gen.AssertMacros.M_CHECK_COMPARE_eq_i16_i16 e a = CHECK_COMPARE_int .eq ⟨⟨16, true⟩, valueAt true e⟩ ⟨⟨16, true⟩, valueAt true a⟩) ∧
+    (∀ (e : BitVec 16) (a : BitVec 16), Gen.AssertMacros.M_CHECK_COMPARE_eq_u16_u16 e a = CHECK_COMPARE_int .eq ⟨⟨16, false⟩, valueAt false e⟩ ⟨⟨16, false⟩, valueAt false a⟩) ∧
+    (∀ (e : BitVec 32) (a : BitVec 32), Gen.AssertMacros.M_CHECK_COMPARE_eq_i32_i32 e a = CHECK_COMPARE_int .eq ⟨⟨32, true⟩, valueAt true e⟩ ⟨⟨32, true⟩, valueAt true a⟩) ∧
+    (∀ (e : BitVec 32) (a : BitVec 32), Gen.AssertMacros.M_CHECK_COMPARE_eq_u32_u32 e a = CHECK_COMPARE_int .eq ⟨⟨32, false⟩, valueAt false e⟩ ⟨⟨32, false⟩, valueAt false a⟩) ∧
+    (∀ (e : BitVec 64) (a : BitVec 64), Gen.AssertMacros.M_CHECK_COMPARE_eq_i64_i64 e a = CHECK_COMPARE_int .eq ⟨⟨64, true⟩, valueAt true e⟩ ⟨⟨64, true⟩, valueAt true a⟩) ∧
+    (∀ (e : BitVec 64) (a : BitVec 64), Gen.AssertMacros.M_CHECK_COMPARE_eq_u64_u64 e a = CHECK_COMPARE_int .eq ⟨⟨64, false⟩, valueAt false e⟩ ⟨⟨64, false⟩, valueAt false a⟩) := by
+  refine ⟨?_, ?_, ?_, ?_, ?_, ?_, ?_, ?_⟩ <;> intros <;>
+    psimp [Gen.AssertMacros.M_CHECK_COMPARE_eq_i8_i8, Gen.AssertMacros.M_CHECK_COMPARE_eq_u8_u8, Gen.AssertMacros.M_CHECK_COMPARE_eq_i16_i16, Gen.AssertMacros.M_CHECK_COMPARE_eq_u16_u16, Gen.AssertMacros.M_CHECK_COMPARE_eq_i32_i32, Gen.AssertMacros.M_CHECK_COMPARE_eq_u32_u32, Gen.AssertMacros.M_CHECK_COMPARE_eq_i64_i64, Gen.AssertMacros.M_CHECK_COMPARE_eq_u64_u64]
+
+theorem gen_macro_CHECK_COMPARE_ne :
+    (∀ (e : BitVec 8) (a : BitVec 8), Gen.AssertMacros.M_CHECK_COMPARE_ne_i8_i8 e a = CHECK_COMPARE_int .ne ⟨⟨8, true⟩, valueAt true e⟩ ⟨⟨8, true⟩, valueAt true a⟩) ∧
+    (∀ (e : BitVec 8) (a : BitVec 8), Gen.AssertMacros.M_CHECK_COMPARE_ne_u8_u8 e a = CHECK_COMPARE_int .ne ⟨⟨8, false⟩, valueAt false e⟩ ⟨⟨8, false⟩, valueAt false a⟩) ∧
+    (∀ (e : BitVec 16) (a : BitVec 16), Gen.AssertMacros.M_CHECK_COMPARE_ne_i16_i16 e a = CHECK_COMPARE_int .ne ⟨⟨16, true⟩, valueAt true e⟩ ⟨⟨16, true⟩, valueAt true a⟩) ∧
+    (∀ (e : BitVec 16) (a : BitVec 16), Gen.AssertMacros.M_CHECK_COMPARE_ne_u16_u16 e a = CHECK_COMPARE_int .ne ⟨⟨16, false⟩, valueAt false e⟩ ⟨⟨16, false⟩, valueAt false a⟩) ∧
+    (∀ (e : BitVec 32) (a : BitVec 32), Gen.AssertMacros.M_CHECK_COMPARE_ne_i32_i32 e a = CHECK_COMPARE_int .ne ⟨⟨32, true⟩, valueAt true e⟩ ⟨⟨32, true⟩, valueAt true a⟩) ∧
+    (∀ (e : BitVec 32) (a : BitVec 32), Gen.AssertMacros.M_CHECK_COMPARE_ne_u32_u32 e a = CHECK_COMPARE_int .ne ⟨⟨32, false⟩, valueAt false e⟩ ⟨⟨32, false⟩, valueAt false a⟩) ∧
+    (∀ (e : BitVec 64) (a : BitVec 64), Gen.AssertMacros.M_CHECK_COMPARE_ne_i64_i64 e a = CHECK_COMPARE_int .ne ⟨⟨64, true⟩, valueAt true e⟩ ⟨⟨64, true⟩, valueAt true a⟩) ∧
+    (∀ (e : BitVec 64) (a : BitVec 64), Gen.AssertMacros.M_CHECK_COMPARE_ne_u64_u64 e a = CHECK_COMPARE_int .ne ⟨⟨64, false⟩, valueAt false e⟩ ⟨⟨64, false⟩, valueAt false a⟩) := by
+  refine ⟨?_, ?_, ?_, ?_, ?_, ?_, ?_, ?_⟩ <;> intros <;>
+    psimp [Gen.AssertMacros.M_CHECK_COMPARE_ne_i8_i8, Gen.AssertMacros.M_CHECK_COMPARE_ne_u8_u8, Gen.AssertMacros.M_CHECK_COMPARE_ne_i16_i16, Gen.AssertMacros.M_CHECK_COMPARE_ne_u16_u16, Gen.AssertMacros.M_CHECK_COMPARE_ne_i32_i32, Gen.AssertMacros.M_CHECK_COMPARE_ne_u32_u32, Gen.AssertMacros.M_CHECK_COMPARE_ne_i64_i64, Gen.AssertMacros.M_CHECK_COMPARE_ne_u64_u64]
+
+theorem gen_macro_ENUMS_EQUAL_TYPE :
+    (∀ (e a : BitVec 8), Gen.AssertMacros.M_ENUMS_EQUAL_TYPE_i8_i8 e a = ENUMS_EQUAL_TYPE 8 (valueAt true e) (valueAt true a)) ∧
+    (∀ (e a : BitVec 8), Gen.AssertMacros.M_ENUMS_EQUAL_TYPE_i8_u8 e a = ENUMS_EQUAL_TYPE 8 (valueAt false e) (valueAt false a)) ∧
+    (∀ (e a : BitVec 16), Gen.AssertMacros.M_ENUMS_EQUAL_TYPE_i8_i16 e a = ENUMS_EQUAL_TYPE 8 (valueAt true e) (valueAt true a)) ∧
+    (∀ (e a : BitVec 16), Gen.AssertMacros.M_ENUMS_EQUAL_TYPE_i8_u16 e a = ENUMS_EQUAL_TYPE 8 (valueAt false e) (valueAt false a)) ∧
+    (∀ (e a : BitVec 32), Gen.AssertMacros.M_ENUMS_EQUAL_TYPE_i8_i32 e a = ENUMS_EQUAL_TYPE 8 (valueAt true e) (valueAt true a)) ∧
+    (∀ (e a : BitVec 32), Gen.AssertMacros.M_ENUMS_EQUAL_TYPE_i8_u32 e a = ENUMS_EQUAL_TYPE 8 (valueAt false e) (valueAt false a)) ∧
+    (∀ (e a : BitVec 64), Gen.AssertMacros.M_ENUMS_EQUAL_TYPE_i8_i64 e a = ENUMS_EQUAL_TYPE 8 (valueAt true e) (valueAt true a)) ∧
+    (∀ (e a : BitVec 64), Gen.AssertMacros.M_ENUMS_EQUAL_TYPE_i8_u64 e a = ENUMS_EQUAL_TYPE 8 (valueAt false e) (valueAt false a)) ∧
+    (∀ (e a : BitVec 8), Gen.AssertMacros.M_ENUMS_EQUAL_TYPE_u8_i8 e a = ENUMS_EQUAL_TYPE 8 (valueAt true e) (valueAt true a)) ∧
+    (∀ (e a : BitVec 8), Gen.AssertMacros.M_ENUMS_EQUAL_TYPE_u8_u8 e a = ENUMS_EQUAL_TYPE 8 (valueAt false e) (valueAt false a)) ∧
+    (∀ (e a : BitVec 16), Gen.AssertMacros.M_ENUMS_EQUAL_TYPE_u8_i16 e a = ENUMS_EQUAL_TYPE 8 (valueAt true e) (valueAt true a)) ∧
+    (∀ (e a : BitVec 16), Gen.AssertMacros.M_ENUMS_EQUAL_TYPE_u8_u16 e a = ENUMS_EQUAL_TYPE 8 (valueAt false e) (valueAt false a)) ∧
+    (∀ (e a : BitVec 32), Gen.AssertMacros.M_ENUMS_EQUAL_TYPE_u8_i32 e a = ENUMS_EQUAL_TYPE 8 (valueAt true e) (valueAt true a)) ∧
+    (∀ (e a : BitVec 32), Gen.AssertMacros.M_ENUMS_EQUAL_TYPE_u8_u32 e a = ENUMS_EQUAL_TYPE 8 (valueAt false e) (valueAt false a)) ∧
+    (∀ (e a : BitVec 64), Gen.AssertMacros.M_ENUMS_EQUAL_TYPE_u8_i64 e a = ENUMS_EQUAL_TYPE 8 (valueAt true e) (valueAt true a)) ∧
+    (∀ (e a : BitVec 64), Gen.AssertMacros.M_ENUMS_EQUAL_TYPE_u8_u64 e a = ENUMS_EQUAL_TYPE 8 (valueAt false e) (valueAt false a)) ∧
+    (∀ (e a : BitVec 8), Gen.AssertMacros.M_ENUMS_EQUAL_TYPE_i16_i8 e a = ENUMS_EQUAL_TYPE 16 (valueAt true e) (valueAt true a)) ∧
+    (∀ (e a : BitVec 8), Gen.AssertMacros.M_ENUMS_EQUAL_TYPE_i16_u8 e a = ENUMS_EQUAL_TYPE 16 (valueAt false e) (valueAt false a)) ∧
+    (∀ (e a : BitVec 16), Gen.AssertMacros.M_ENUMS_EQUAL_TYPE_i16_i16 e a = ENUMS_EQUAL_TYPE 16 (valueAt true e) (valueAt true a)) ∧
+    (∀ (e a : BitVec 16), Gen.AssertMacros.M_ENUMS_EQUAL_TYPE_i16_u16 e a = ENUMS_EQUAL_TYPE 16 (valueAt false e) (valueAt false a)) ∧
+    (∀ (e a : BitVec 32), Gen.AssertMacros.M_ENUMS_EQUAL_TYPE_i16_i32 e a = ENUMS_EQUAL_TYPE 16 (valueAt true e) (valueAt true a)) ∧
+    (∀ (e a : BitVec 32), Gen.AssertMacros.M_ENUMS_EQUAL_TYPE_i16_u32 e a = ENUMS_EQUAL_TYPE 16 (valueAt false e) (valueAt false a)) ∧
+    (∀ (e a : BitVec 64), Gen.AssertMacros.M_ENUMS_EQUAL_TYPE_i16_i64 e a = ENUMS_EQUAL_TYPE 16 (valueAt true e) (valueAt true a)) ∧
+    (∀ (e a : BitVec 64), Gen.AssertMacros.M_ENUMS_EQUAL_TYPE_i16_u64 e a = ENUMS_EQUAL_TYPE 16 (valueAt false e) (valueAt false a)) ∧
+    (∀ (e a : BitVec 8), Gen.AssertMacros.M_ENUMS_EQUAL_TYPE_u16_i8 e a = ENUMS_EQUAL_TYPE 16 (valueAt true e) (valueAt true a)) ∧
+    (∀ (e a : BitVec 8), Gen.AssertMacros.M_ENUMS_EQUAL_TYPE_u16_u8 e a = ENUMS_EQUAL_TYPE 16 (valueAt false e) (valueAt false a)) ∧
+    (∀ (e a : BitVec 16), Gen.AssertMacros.M_ENUMS_EQUAL_TYPE_u16_i16 e a = ENUMS_EQUAL_TYPE 16 (valueAt true e) (valueAt true a)) ∧
+    (∀ (e a : BitVec 16), Gen.AssertMacros.M_ENUMS_EQUAL_TYPE_u16_u16 e a = ENUMS_EQUAL_TYPE 16 (valueAt false e) (valueAt false a)) ∧
+    (∀ (e a : BitVec 32), Gen.AssertMacros.M_ENUMS_EQUAL_TYPE_u16_i32 e a = ENUMS_EQUAL_TYPE 16 (valueAt true e) (valueAt true a)) ∧
+    (∀ (e a : BitVec 32), Gen.AssertMacros.M_ENUMS_EQUAL_TYPE_u16_u32 e a = ENUMS_EQUAL_TYPE 16 (valueAt false e) (valueAt false a)) ∧
+    (∀ (e a : BitVec 64), Gen.AssertMacros.M_ENUMS_EQUAL_TYPE_u16_i64 e a = ENUMS_EQUAL_TYPE 16 (valueAt true e) (valueAt true a)) ∧
+    (∀ (e a : BitVec 64), Gen.AssertMacros.M_ENUMS_EQUAL_TYPE_u16_u64 e a = ENUMS_EQUAL_TYPE 16 (valueAt false e) (valueAt false a)) ∧
+    (∀ (e a : BitVec 8), Gen.AssertMacros.M_ENUMS_EQUAL_TYPE_i32_i8 e a = ENUMS_EQUAL_TYPE 32 (valueAt true e) (valueAt true a)) ∧
+    (∀ (e a : BitVec 8), Gen.AssertMacros.M_ENUMS_EQUAL_TYPE_i32_u8 e a = ENUMS_EQUAL_TYPE 32 (valueAt false e) (valueAt false a)) ∧
+    (∀ (e a : BitVec 16), Gen.AssertMacros.M_ENUMS_EQUAL_TYPE_i32_i16 e a = ENUMS_EQUAL_TYPE 32 (valueAt true e) (valueAt true a)) ∧
+    (∀ (e a : BitVec 16), Gen.AssertMacros.M_ENUMS_EQUAL_TYPE_i32_u16 e a = ENUMS_EQUAL_TYPE 32 (valueAt false e) (valueAt false a)) ∧
+    (∀ (e a : BitVec 32), Gen.AssertMacros.M_ENUMS_EQUAL_TYPE_i32_i32 e a = ENUMS_EQUAL_TYPE 32 (valueAt true e) (valueAt true a)) ∧
+    (∀ (e a : BitVec 32), Gen.AssertMacros.M_ENUMS_EQUAL_TYPE_i32_u32 e a = ENUMS_EQUAL_TYPE 32 (valueAt false e) (valueAt false a)) ∧
+    (∀ (e a : BitVec 64), Gen.AssertMacros.M_ENUMS_EQUAL_TYPE_i32_i64 e a = ENUMS_EQUAL_TYPE 32 (valueAt true e) (valueAt true a)) ∧
+    (∀ (e a : BitVec 64), Gen.AssertMacros.M_ENUMS_EQUAL_TYPE_i32_u64 e a = ENUMS_EQUAL_TYPE 32 (valueAt false e) (valueAt false a)) ∧
+    (∀ (e a : BitVec 8), Gen.AssertMacros.M_ENUMS_EQUAL_TYPE_u32_i8 e a = ENUMS_EQUAL_TYPE 32 (valueAt true e) (valueAt true a)) ∧
+    (∀ (e a : BitVec 8), Gen.AssertMacros.M_ENUMS_EQUAL_TYPE_u32_u8 e a = ENUMS_EQUAL_TYPE 32 (valueAt false e) (valueAt false a)) ∧
+    (∀ (e a : BitVec 16), Gen.AssertMacros.M_ENUMS_EQUAL_TYPE_u32_i16 e a = ENUMS_EQUAL_TYPE 32 (valueAt true e) (valueAt true a)) ∧
+    (∀ (e a : BitVec 16), Gen.AssertMacros.M_ENUMS_EQUAL_TYPE_u32_u16 e a = ENUMS_EQUAL_TYPE 32 (valueAt false e) (valueAt false a)) ∧
+    (∀ (e a : BitVec 32), Gen.AssertMacros.M_ENUMS_EQUAL_TYPE_u32_i32 e a = ENUMS_EQUAL_TYPE 32 (valueAt true e) (valueAt true a)) ∧
+    (∀ (e a : BitVec 32), Gen.AssertMacros.M_ENUMS_EQUAL_TYPE_u32_u32 e a = ENUMS_EQUAL_TYPE 32 (valueAt false e) (valueAt false a)) ∧
+    (∀ (e a : BitVec 64), Gen.AssertMacros.M_ENUMS_EQUAL_TYPE_u32_i64 e a = ENUMS_EQUAL_TYPE 32 (valueAt true e) (valueAt true a)) ∧
+    (∀ (e a : BitVec 64), Gen.AssertMacros.M_ENUMS_EQUAL_TYPE_u32_u64 e a = ENUMS_EQUAL_TYPE 32 (valueAt false e) (valueAt false a)) ∧
+    (∀ (e a : BitVec 8), Gen.AssertMacros.M_ENUMS_EQUAL_TYPE_i64_i8 e a = ENUMS_EQUAL_TYPE 64 (valueAt true e) (valueAt true a)) ∧
+    (∀ (e a : BitVec 8), Gen.AssertMacros.M_ENUMS_EQUAL_TYPE_i64_u8 e a = ENUMS_EQUAL_TYPE 64 (valueAt false e) (valueAt false a)) ∧
+    (∀ (e a : BitVec 16), Gen.AssertMacros.M_ENUMS_EQUAL_TYPE_i64_i16 e a = ENUMS_EQUAL_TYPE 64 (valueAt true e) (valueAt true a)) ∧
+    (∀ (e a : BitVec 16), Gen.AssertMacros.M_ENUMS_EQUAL_TYPE_i64_u16 e a = ENUMS_EQUAL_TYPE 64 (valueAt false e) (valueAt false a)) ∧
+    (∀ (e a : BitVec 32), Gen.AssertMacros.M_ENUMS_EQUAL_TYPE_i64_i32 e a = ENUMS_EQUAL_TYPE 64 (valueAt true e) (valueAt true a)) ∧
+    (∀ (e a : BitVec 32), Gen.AssertMacros.M_ENUMS_EQUAL_TYPE_i64_u32 e a = ENUMS_EQUAL_TYPE 64 (valueAt false e) (valueAt false a)) ∧
+    (∀ (e a : BitVec 64), Gen.AssertMacros.M_ENUMS_EQUAL_TYPE_i64_i64 e a = ENUMS_EQUAL_TYPE 64 (valueAt true e) (valueAt true a)) ∧
+    (∀ (e a : BitVec 64), Gen.AssertMacros.M_ENUMS_EQUAL_TYPE_i64_u64 e a = ENUMS_EQUAL_TYPE 64 (valueAt false e) (valueAt false a)) ∧
+    (∀ (e a : BitVec 8), Gen.AssertMacros.M_ENUMS_EQUAL_TYPE_u64_i8 e a = ENUMS_EQUAL_TYPE 64 (valueAt true e) (valueAt true a)) ∧
+    (∀ (e a : BitVec 8), Gen.AssertMacros.M_ENUMS_EQUAL_TYPE_u64_u8 e a = ENUMS_EQUAL_TYPE 64 (valueAt false e) (valueAt false a)) ∧
+    (∀ (e a : BitVec 16), Gen.AssertMacros.M_ENUMS_EQUAL_TYPE_u64_i16 e a = ENUMS_EQUAL_TYPE 64 (valueAt true e) (valueAt true a)) ∧
+    (∀ (e a : BitVec 16), Gen.AssertMacros.M_ENUMS_EQUAL_TYPE_u64_u16 e a = ENUMS_EQUAL_TYPE 64 (valueAt false e) (valueAt false a)) ∧
+    (∀ (e a : BitVec 32), Gen.AssertMacros.M_ENUMS_EQUAL_TYPE_u64_i32 e a = ENUMS_EQUAL_TYPE 64 (valueAt true e) (valueAt true a)) ∧
+    (∀ (e a : BitVec 32), Gen.AssertMacros.M_ENUMS_EQUAL_TYPE_u64_u32 e a = ENUMS_EQUAL_TYPE 64 (valueAt false e) (valueAt false a)) ∧
+    (∀ (e a : BitVec 64), Gen.AssertMacros.M_ENUMS_EQUAL_TYPE_u64_i64 e a = ENUMS_EQUAL_TYPE 64 (valueAt true e) (valueAt true a)) ∧
+    (∀ (e a : BitVec 64), Gen.AssertMacros.M_ENUMS_EQUAL_TYPE_u64_u64 e a = ENUMS_EQUAL_TYPE 64 (valueAt false e) (valueAt false a)) ∧
+    (∀ (e a : BitVec 32), Gen.AssertMacros.M_ENUMS_EQUAL_TYPE_TEXT_u16_i32 e a = ENUMS_EQUAL_TYPE 16 (valueAt true e) (valueAt true a)) := by
+  refine ⟨?_, ?_, ?_, ?_, ?_, ?_, ?_, ?_, ?_, ?_, ?_, ?_, ?_, ?_, ?_, ?_, ?_, ?_, ?_, ?_, ?_, ?_, ?_, ?_, ?_, ?_, ?_, ?_, ?_, ?_, ?_, ?_, ?_, ?_, ?_, ?_, ?_, ?_, ?_, ?_, ?_, ?_, ?_, ?_, ?_, ?_, ?_, ?_, ?_, ?_, ?_, ?_, ?_, ?_, ?_, ?_, ?_, ?_, ?_, ?_, ?_, ?_, ?_, ?_, ?_⟩ <;> intros <;>
+    psimp [Gen.AssertMacros.M_ENUMS_EQUAL_TYPE_i8_i8, Gen.AssertMacros.M_ENUMS_EQUAL_TYPE_i8_u8, Gen.AssertMacros.M_ENUMS_EQUAL_TYPE_i8_i16, Gen.AssertMacros.M_ENUMS_EQUAL_TYPE_i8_u16, Gen.AssertMacros.M_ENUMS_EQUAL_TYPE_i8_i32, Gen.AssertMacros.M_ENUMS_EQUAL_TYPE_i8_u32, Gen.AssertMacros.M_ENUMS_EQUAL_TYPE_i8_i64, Gen.AssertMacros.M_ENUMS_EQUAL_TYPE_i8_u64, Gen.AssertMacros.M_ENUMS_EQUAL_TYPE_u8_i8, Gen.AssertMacros.M_ENUMS_EQUAL_TYPE_u8_u8, Gen.AssertMacros.M_ENUMS_EQUAL_TYPE_u8_i16, Gen.AssertMacros.M_ENUMS_EQUAL_TYPE_u8_u16, Gen.AssertMacros.M_ENUMS_EQUAL_TYPE_u8_i32, Gen.AssertMacros.M_ENUMS_EQUAL_TYPE_u8_u32, Gen.AssertMacros.M_ENUMS_EQUAL_TYPE_u8_i64, Gen.AssertMacros.M_ENUMS_EQUAL_TYPE_u8_u64, Gen.AssertMacros.M_ENUMS_EQUAL_TYPE_i16_i8, Gen.AssertMacros.M_ENUMS_EQUAL_TYPE_i16_u8, Gen.AssertMacros.M_ENUMS_EQUAL_TYPE_i16_i16, Gen.AssertMacros.M_ENUMS_EQUAL_TYPE_i16_u16, Gen.AssertMacros.M_ENUMS_EQUAL_TYPE_i16_i32, Gen.AssertMacros.M_ENUMS_EQUAL_TYPE_i16_u32, Gen.AssertMacros.M_ENUMS_EQUAL_TYPE_i16_i64, Gen.AssertMacros.M_ENUMS_EQUAL_TYPE_i16_u64, Gen.AssertMacros.M_ENUMS_EQUAL_TYPE_u16_i8, Gen.AssertMacros.M_ENUMS_EQUAL_TYPE_u16_u8, Gen.AssertMacros.M_ENUMS_EQUAL_TYPE_u16_i16, Gen.AssertMacros.M_ENUMS_EQUAL_TYPE_u16_u16, Gen.AssertMacros.M_ENUMS_EQUAL_TYPE_u16_i32, Gen.AssertMacros.M_ENUMS_EQUAL_TYPE_u16_u32, Gen.AssertMacros.M_ENUMS_EQUAL_TYPE_u16_i64, Gen.AssertMacros.M_ENUMS_EQUAL_TYPE_u16_u64, Gen.AssertMacros.M_ENUMS_EQUAL_TYPE_i32_i8, Gen.AssertMacros.M_ENUMS_EQUAL_TYPE_i32_u8, Gen.AssertMacros.M_ENUMS_EQUAL_TYPE_i32_i16, Gen.AssertMacros.M_ENUMS_EQUAL_TYPE_i32_u16, Gen.AssertMacros.M_ENUMS_EQUAL_TYPE_i32_i32, Gen.AssertMacros.M_ENUMS_EQUAL_TYPE_i32_u32, Gen.AssertMacros.M_ENUMS_EQUAL_TYPE_i32_i64, Gen.AssertMacros.M_ENUMS_EQUAL_TYPE_i32_u64, Gen.AssertMacros.M_ENUMS_EQUAL_TYPE_u32_i8, Gen.AssertMacros.M_ENUMS_EQUAL_TYPE_u32_u8, Gen.AssertMacros.M_ENUMS_EQUAL_TYPE_u32_i16, Gen.AssertMacros.M_ENUMS_EQUAL_TYPE_u32_u16, Gen.AssertMacros.M_ENUMS_EQUAL_TYPE_u32_i32, Gen.AssertMacros.M_ENUMS_EQUAL_TYPE_u32_u32, Gen.AssertMacros.M_ENUMS_EQUAL_TYPE_u32_i64, Gen.AssertMacros.M_ENUMS_EQUAL_TYPE_u32_u64, Gen.AssertMacros.M_ENUMS_EQUAL_TYPE_i64_i8, Gen.AssertMacros.M_ENUMS_EQUAL_TYPE_i64_u8, Gen.AssertMacros.M_ENUMS_EQUAL_TYPE_i64_i16, Gen.AssertMacros.M_ENUMS_EQUAL_TYPE_i64_u16, Gen.AssertMacros.M_ENUMS_EQUAL_TYPE_i64_i32, Gen.AssertMacros.M_ENUMS_EQUAL_TYPE_i64_u32, Gen.AssertMacros.M_ENUMS_EQUAL_TYPE_i64_i64, Gen.AssertMacros.M_ENUMS_EQUAL_TYPE_i64_u64, Gen.AssertMacros.M_ENUMS_EQUAL_TYPE_u64_i8, Gen.AssertMacros.M_ENUMS_EQUAL_TYPE_u64_u8, Gen.AssertMacros.M_ENUMS_EQUAL_TYPE_u64_i16, Gen.AssertMacros.M_ENUMS_EQUAL_TYPE_u64_u16, Gen.AssertMacros.M_ENUMS_EQUAL_TYPE_u64_i32, Gen.AssertMacros.M_ENUMS_EQUAL_TYPE_u64_u32, Gen.AssertMacros.M_ENUMS_EQUAL_TYPE_u64_i64, Gen.AssertMacros.M_ENUMS_EQUAL_TYPE_u64_u64, Gen.AssertMacros.M_ENUMS_EQUAL_TYPE_TEXT_u16_i32]
+
+theorem gen_macro_ENUMS_EQUAL_INT :
+    (∀ (e a : BitVec 8), Gen.AssertMacros.M_ENUMS_EQUAL_INT_i8 e a = ENUMS_EQUAL_TYPE 32 (valueAt true e) (valueAt true a)) ∧
+    (∀ (e a : BitVec 8), Gen.AssertMacros.M_ENUMS_EQUAL_INT_u8 e a = ENUMS_EQUAL_TYPE 32 (valueAt false e) (valueAt false a)) ∧
+    (∀ (e a : BitVec 16), Gen.AssertMacros.M_ENUMS_EQUAL_INT_i16 e a = ENUMS_EQUAL_TYPE 32 (valueAt true e) (valueAt true a)) ∧
+    (∀ (e a : BitVec 16), Gen.AssertMacros.M_ENUMS_EQUAL_INT_u16 e a = ENUMS_EQUAL_TYPE 32 (valueAt false e) (valueAt false a)) ∧
+    (∀ (e a : BitVec 32), Gen.AssertMacros.M_ENUMS_EQUAL_INT_i32 e a = ENUMS_EQUAL_TYPE 32 (valueAt true e) (valueAt true a)) ∧
+    (∀ (e a : BitVec 32), Gen.AssertMacros.M_ENUMS_EQUAL_INT_u32 e a = ENUMS_EQUAL_TYPE 32 (valueAt false e) (valueAt false a)) ∧
+    (∀ (e a : BitVec 64), Gen.AssertMacros.M_ENUMS_EQUAL_INT_i64 e a = ENUMS_EQUAL_TYPE 32 (valueAt true e) (valueAt true a)) ∧
+    (∀ (e a : BitVec 64), Gen.AssertMacros.M_ENUMS_EQUAL_INT_u64 e a = ENUMS_EQUAL_TYPE 32 (valueAt false e) (valueAt false a)) ∧
+    (∀ (e a : BitVec 32), Gen.AssertMacros.M_ENUMS_EQUAL_INT_TEXT_i32 e a = ENUMS_EQUAL_TYPE 32 (valueAt true e) (valueAt true a)) := by
+  refine ⟨?_, ?_, ?_, ?_, ?_, ?_, ?_, ?_, ?_⟩ <;> intros <;>
+    psimp [Gen.AssertMacros.M_ENUMS_EQUAL_INT_i8, Gen.AssertMacros.M_ENUMS_EQUAL_INT_u8, Gen.AssertMacros.M_ENUMS_EQUAL_INT_i16, Gen.AssertMacros.M_ENUMS_EQUAL_INT_u16, Gen.AssertMacros.M_ENUMS_EQUAL_INT_i32, Gen.AssertMacros.M_ENUMS_EQUAL_INT_u32, Gen.AssertMacros.M_ENUMS_EQUAL_INT_i64, Gen.AssertMacros.M_ENUMS_EQUAL_INT_u64, Gen.AssertMacros.M_ENUMS_EQUAL_INT_TEXT_i32]
+
+theorem gen_macro_BITS_EQUAL :
+    (∀ (e a : BitVec 8) (m : BitVec 32), Gen.AssertMacros.M_BITS_EQUAL_i8_i32 e a m = BITS_EQUAL (valueAt true e) (valueAt true a) (valueAt true m) 1) ∧
+    (∀ (e a : BitVec 8) (m : BitVec 8), Gen.AssertMacros.M_BITS_EQUAL_i8_u8 e a m = BITS_EQUAL (valueAt true e) (valueAt true a) (valueAt false m) 1) ∧
+    (∀ (e a : BitVec 8) (m : BitVec 64), Gen.AssertMacros.M_BITS_EQUAL_i8_u64 e a m = BITS_EQUAL (valueAt true e) (valueAt true a) (valueAt false m) 1) ∧
+    (∀ (e a : BitVec 8) (m : BitVec 32), Gen.AssertMacros.M_BITS_EQUAL_u8_i32 e a m = BITS_EQUAL (valueAt false e) (valueAt false a) (valueAt true m) 1) ∧
+    (∀ (e a : BitVec 8) (m : BitVec 8), Gen.AssertMacros.M_BITS_EQUAL_u8_u8 e a m = BITS_EQUAL (valueAt false e) (valueAt false a) (valueAt false m) 1) ∧
+    (∀ (e a : BitVec 8) (m : BitVec 64), Gen.AssertMacros.M_BITS_EQUAL_u8_u64 e a m = BITS_EQUAL (valueAt false e) (valueAt false a) (valueAt false m) 1) ∧
+    (∀ (e a : BitVec 16) (m : BitVec 32), Gen.AssertMacros.M_BITS_EQUAL_i16_i32 e a m = BITS_EQUAL (valueAt true e) (valueAt true a) (valueAt true m) 2) ∧
+    (∀ (e a : BitVec 16) (m : BitVec 8), Gen.AssertMacros.M_BITS_EQUAL_i16_u8 e a m = BITS_EQUAL (valueAt true e) (valueAt true a) (valueAt false m) 2) ∧
+    (∀ (e a : BitVec 16) (m : BitVec 64), Gen.AssertMacros.M_BITS_EQUAL_i16_u64 e a m = BITS_EQUAL (valueAt true e) (valueAt true a) (valueAt false m) 2) ∧
+    (∀ (e a : BitVec 16) (m : BitVec 32), Gen.AssertMacros.M_BITS_EQUAL_u16_i32 e a m = BITS_EQUAL (valueAt false e) (valueAt false a) (valueAt true m) 2) ∧
+    (∀ (e a : BitVec 16) (m : BitVec 8), Gen.AssertMacros.M_BITS_EQUAL_u16_u8 e a m = BITS_EQUAL (valueAt false e) (valueAt false a) (valueAt false m) 2) ∧
+    (∀ (e a : BitVec 16) (m : BitVec 64), Gen.AssertMacros.M_BITS_EQUAL_u16_u64 e a m = BITS_EQUAL (valueAt false e) (valueAt false a) (valueAt false m) 2) ∧
+    (∀ (e a : BitVec 32) (m : BitVec 32), Gen.AssertMacros.M_BITS_EQUAL_i32_i32 e a m = BITS_EQUAL (valueAt true e) (valueAt true a) (valueAt true m) 4) ∧
+    (∀ (e a : BitVec 32) (m : BitVec 8), Gen.AssertMacros.M_BITS_EQUAL_i32_u8 e a m = BITS_EQUAL (valueAt true e) (valueAt true a) (valueAt false m) 4) ∧
+    (∀ (e a : BitVec 32) (m : BitVec 64), Gen.AssertMacros.M_BITS_EQUAL_i32_u64 e a m = BITS_EQUAL (valueAt true e) (valueAt true a) (valueAt false m) 4) ∧
+    (∀ (e a : BitVec 32) (m : BitVec 32), Gen.AssertMacros.M_BITS_EQUAL_u32_i32 e a m = BITS_EQUAL (valueAt false e) (valueAt false a) (valueAt true m) 4) ∧
+    (∀ (e a : BitVec 32) (m : BitVec 8), Gen.AssertMacros.M_BITS_EQUAL_u32_u8 e a m = BITS_EQUAL (valueAt false e) (valueAt false a) (valueAt false m) 4) ∧
+    (∀ (e a : BitVec 32) (m : BitVec 64), Gen.AssertMacros.M_BITS_EQUAL_u32_u64 e a m = BITS_EQUAL (valueAt false e) (valueAt false a) (valueAt false m) 4) ∧
+    (∀ (e a : BitVec 64) (m : BitVec 32), Gen.AssertMacros.M_BITS_EQUAL_i64_i32 e a m = BITS_EQUAL (valueAt true e) (valueAt true a) (valueAt true m) 8) ∧
+    (∀ (e a : BitVec 64) (m : BitVec 8), Gen.AssertMacros.M_BITS_EQUAL_i64_u8 e a m = BITS_EQUAL (valueAt true e) (valueAt true a) (valueAt false m) 8) ∧
+    (∀ (e a : BitVec 64) (m : BitVec 64), Gen.AssertMacros.M_BITS_EQUAL_i64_u64 e a m = BITS_EQUAL (valueAt true e) (valueAt true a) (valueAt false m) 8) ∧
+    (∀ (e a : BitVec 64) (m : BitVec 32), Gen.AssertMacros.M_BITS_EQUAL_u64_i32 e a m = BITS_EQUAL (valueAt false e) (valueAt false a) (valueAt true m) 8) ∧
+    (∀ (e a : BitVec 64) (m : BitVec 8), Gen.AssertMacros.M_BITS_EQUAL_u64_u8 e a m = BITS_EQUAL (valueAt false e) (valueAt false a) (valueAt false m) 8) ∧
+    (∀ (e a : BitVec 64) (m : BitVec 64), Gen.AssertMacros.M_BITS_EQUAL_u64_u64 e a m = BITS_EQUAL (valueAt false e) (valueAt false a) (valueAt false m) 8) ∧
+    (∀ (e a m : BitVec 32), Gen.AssertMacros.M_BITS_EQUAL_TEXT_i32_i32 e a m = BITS_EQUAL (valueAt true e) (valueAt true a) (valueAt true m) 4) := by
+  refine ⟨?_, ?_, ?_, ?_, ?_, ?_, ?_, ?_, ?_, ?_, ?_, ?_, ?_, ?_, ?_, ?_, ?_, ?_, ?_, ?_, ?_, ?_, ?_, ?_, ?_⟩ <;> intros <;>
+    psimp [Gen.AssertMacros.M_BITS_EQUAL_i8_i32, Gen.AssertMacros.M_BITS_EQUAL_i8_u8, Gen.AssertMacros.M_BITS_EQUAL_i8_u64, Gen.AssertMacros.M_BITS_EQUAL_u8_i32, Gen.AssertMacros.M_BITS_EQUAL_u8_u8, Gen.AssertMacros.M_BITS_EQUAL_u8_u64, Gen.AssertMacros.M_BITS_EQUAL_i16_i32, Gen.AssertMacros.M_BITS_EQUAL_i16_u8, Gen.AssertMacros.M_BITS_EQUAL_i16_u64, Gen.AssertMacros.M_BITS_EQUAL_u16_i32, Gen.AssertMacros.M_BITS_EQUAL_u16_u8, Gen.AssertMacros.M_BITS_EQUAL_u16_u64, Gen.AssertMacros.M_BITS_EQUAL_i32_i32, Gen.AssertMacros.M_BITS_EQUAL_i32_u8, Gen.AssertMacros.M_BITS_EQUAL_i32_u64, Gen.AssertMacros.M_BITS_EQUAL_u32_i32, Gen.AssertMacros.M_BITS_EQUAL_u32_u8, Gen.AssertMacros.M_BITS_EQUAL_u32_u64, Gen.AssertMacros.M_BITS_EQUAL_i64_i32, Gen.AssertMacros.M_BITS_EQUAL_i64_u8, Gen.AssertMacros.M_BITS_EQUAL_i64_u64, Gen.AssertMacros.M_BITS_EQUAL_u64_i32, Gen.AssertMacros.M_BITS_EQUAL_u64_u8, Gen.AssertMacros.M_BITS_EQUAL_u64_u64, Gen.AssertMacros.M_BITS_EQUAL_TEXT_i32_i32]
+
+theorem gen_macro_CHECK_EQUAL_C_BITS :
+    (∀ (e a : BitVec 8) (m : BitVec 32), Gen.AssertMacros.M_CHECK_EQUAL_C_BITS_i8_i32 e a m = CHECK_EQUAL_C_BITS (valueAt true e) (valueAt true a) (valueAt true m) 1) ∧
+    (∀ (e a : BitVec 8) (m : BitVec 8), Gen.AssertMacros.M_CHECK_EQUAL_C_BITS_i8_u8 e a m = CHECK_EQUAL_C_BITS (valueAt true e) (valueAt true a) (valueAt false m) 1) ∧
+    (∀ (e a : BitVec 8) (m : BitVec 64), Gen.AssertMacros.M_CHECK_EQUAL_C_BITS_i8_u64 e a m = CHECK_EQUAL_C_BITS (valueAt true e) (valueAt true a) (valueAt false m) 1) ∧
+    (∀ (e a : BitVec 8) (m : BitVec 32), Gen.AssertMacros.M_CHECK_EQUAL_C_BITS_u8_i32 e a m = CHECK_EQUAL_C_BITS (valueAt false e) (valueAt false a) (valueAt true m) 1) ∧
+    (∀ (e a : BitVec 8) (m : BitVec 8), Gen.AssertMacros.M_CHECK_EQUAL_C_BITS_u8_u8 e a m = CHECK_EQUAL_C_BITS (valueAt false e) (valueAt false a) (valueAt false m) 1) ∧
+    (∀ (e a : BitVec 8) (m : BitVec 64), Gen.AssertMacros.M_CHECK_EQUAL_C_BITS_u8_u64 e a m = CHECK_EQUAL_C_BITS (valueAt false e) (valueAt false a) (valueAt false m) 1) ∧
+    (∀ (e a : BitVec 16) (m : BitVec 32), Gen.AssertMacros.M_CHECK_EQUAL_C_BITS_i16_i32 e a m = CHECK_EQUAL_C_BITS (valueAt true e) (valueAt true a) (valueAt true m) 2) ∧
+    (∀ (e a : BitVec 16) (m : BitVec 8), Gen.AssertMacros.M_CHECK_EQUAL_C_BITS_i16_u8 e a m = CHECK_EQUAL_C_BITS (valueAt true e) (valueAt true a) (valueAt false m) 2) ∧
+    (∀ (e a : BitVec 16) (m : BitVec 64), Gen.AssertMacros.M_CHECK_EQUAL_C_BITS_i16_u64 e a m = CHECK_EQUAL_C_BITS (valueAt true e) (valueAt true a) (valueAt false m) 2) ∧
+    (∀ (e a : BitVec 16) (m : BitVec 32), Gen.AssertMacros.M_CHECK_EQUAL_C_BITS_u16_i32 e a m = CHECK_EQUAL_C_BITS (valueAt false e) (valueAt false a) (valueAt true m) 2) ∧
+    (∀ (e a : BitVec 16) (m : BitVec 8), Gen.AssertMacros.M_CHECK_EQUAL_C_BITS_u16_u8 e a m = CHECK_EQUAL_C_BITS (valueAt false e) (valueAt false a) (valueAt false m) 2) ∧
+    (∀ (e a : BitVec 16) (m : BitVec 64), Gen.AssertMacros.M_CHECK_EQUAL_C_BITS_u16_u64 e a m = CHECK_EQUAL_C_BITS (valueAt false e) (valueAt false a) (valueAt false m) 2) ∧
+    (∀ (e a : BitVec 32) (m : BitVec 32), Gen.AssertMacros.M_CHECK_EQUAL_C_BITS_i32_i32 e a m = CHECK_EQUAL_C_BITS (valueAt true e) (valueAt true a) (valueAt true m) 4) ∧
+    (∀ (e a : BitVec 32) (m : BitVec 8), Gen.AssertMacros.M_CHECK_EQUAL_C_BITS_i32_u8 e a m = CHECK_EQUAL_C_BITS (valueAt true e) (valueAt true a) (valueAt false m) 4) ∧
+    (∀ (e a : BitVec 32) (m : BitVec 64), Gen.AssertMacros.M_CHECK_EQUAL_C_BITS_i32_u64 e a m = CHECK_EQUAL_C_BITS (valueAt true e) (valueAt true a) (valueAt false m) 4) ∧
+    (∀ (e a : BitVec 32) (m : BitVec 32), Gen.AssertMacros.M_CHECK_EQUAL_C_BITS_u32_i32 e a m = CHECK_EQUAL_C_BITS (valueAt false e) (valueAt false a) (valueAt true m) 4) ∧
+    (∀ (e a : BitVec 32) (m : BitVec 8), Gen.AssertMacros.M_CHECK_EQUAL_C_BITS_u32_u8 e a m = CHECK_EQUAL_C_BITS (valueAt false e) (valueAt false a) (valueAt false m) 4) ∧
+    (∀ (e a : BitVec 32) (m : BitVec 64), Gen.AssertMacros.M_CHECK_EQUAL_C_BITS_u32_u64 e a m = CHECK_EQUAL_C_BITS (valueAt false e) (valueAt false a) (valueAt false m) 4) ∧
+    (∀ (e a : BitVec 64) (m : BitVec 32), Gen.AssertMacros.M_CHECK_EQUAL_C_BITS_i64_i32 e a m = CHECK_EQUAL_C_BITS (valueAt true e) (valueAt true a) (valueAt true m) 8) ∧
+    (∀ (e a : BitVec 64) (m : BitVec 8), Gen.AssertMacros.M_CHECK_EQUAL_C_BITS_i64_u8 e a m = CHECK_EQUAL_C_BITS (valueAt true e) (valueAt true a) (valueAt false m) 8) ∧
+    (∀ (e a : BitVec 64) (m : BitVec 64), Gen.AssertMacros.M_CHECK_EQUAL_C_BITS_i64_u64 e a m = CHECK_EQUAL_C_BITS (valueAt true e) (valueAt true a) (valueAt false m) 8) ∧
+    (∀ (e a : BitVec 64) (m : BitVec 32), Gen.AssertMacros.M_CHECK_EQUAL_C_BITS_u64_i32 e a m = CHECK_EQUAL_C_BITS (valueAt false e) (valueAt false a) (valueAt true m) 8) ∧
+    (∀ (e a : BitVec 64) (m : BitVec 8), Gen.AssertMacros.M_CHECK_EQUAL_C_BITS_u64_u8 e a m = CHECK_EQUAL_C_BITS (valueAt false e) (valueAt false a) (valueAt false m) 8) ∧
+    (∀ (e a : BitVec 64) (m : BitVec 64), Gen.AssertMacros.M_CHECK_EQUAL_C_BITS_u64_u64 e a m = CHECK_EQUAL_C_BITS (valueAt false e) (valueAt false a) (valueAt false m) 8) ∧
+    (∀ (e a m : BitVec 32), Gen.AssertMacros.M_CHECK_EQUAL_C_BITS_TEXT_i32_i32 e a m = CHECK_EQUAL_C_BITS (valueAt true e) (valueAt true a) (valueAt true m) 4) := by
+  refine ⟨?_, ?_, ?_, ?_, ?_, ?_, ?_, ?_, ?_, ?_, ?_, ?_, ?_, ?_, ?_, ?_, ?_, ?_, ?_, ?_, ?_, ?_, ?_, ?_, ?_⟩ <;> intros <;>
+    psimp [Gen.AssertMacros.M_CHECK_EQUAL_C_BITS_i8_i32, Gen.AssertMacros.M_CHECK_EQUAL_C_BITS_i8_u8, Gen.AssertMacros.M_CHECK_EQUAL_C_BITS_i8_u64, Gen.AssertMacros.M_CHECK_EQUAL_C_BITS_u8_i32, Gen.AssertMacros.M_CHECK_EQUAL_C_BITS_u8_u8, Gen.AssertMacros.M_CHECK_EQUAL_C_BITS_u8_u64, Gen.AssertMacros.M_CHECK_EQUAL_C_BITS_i16_i32, Gen.AssertMacros.M_CHECK_EQUAL_C_BITS_i16_u8, Gen.AssertMacros.M_CHECK_EQUAL_C_BITS_i16_u64, Gen.AssertMacros.M_CHECK_EQUAL_C_BITS_u16_i32, Gen.AssertMacros.M_CHECK_EQUAL_C_BITS_u16_u8, Gen.AssertMacros.M_CHECK_EQUAL_C_BITS_u16_u64, Gen.AssertMacros.M_CHECK_EQUAL_C_BITS_i32_i32, Gen.AssertMacros.M_CHECK_EQUAL_C_BITS_i32_u8, Gen.AssertMacros.M_CHECK_EQUAL_C_BITS_i32_u64, Gen.AssertMacros.M_CHECK_EQUAL_C_BITS_u32_i32, Gen.AssertMacros.M_CHECK_EQUAL_C_BITS_u32_u8, Gen.AssertMacros.M_CHECK_EQUAL_C_BITS_u32_u64, Gen.AssertMacros.M_CHECK_EQUAL_C_BITS_i64_i32, Gen.AssertMacros.M_CHECK_EQUAL_C_BITS_i64_u8, Gen.AssertMacros.M_CHECK_EQUAL_C_BITS_i64_u64, Gen.AssertMacros.M_CHECK_EQUAL_C_BITS_u64_i32, Gen.AssertMacros.M_CHECK_EQUAL_C_BITS_u64_u8, Gen.AssertMacros.M_CHECK_EQUAL_C_BITS_u64_u64, Gen.AssertMacros.M_CHECK_EQUAL_C_BITS_TEXT_i32_i32]
+
+/-- the C entry points of TestHarness_c.cpp (regenerated from the typed AST of their bodies) are the model's -/
+theorem gen_c_entries {F : Type} (o : FinOps F) :
+    (∀ e a : BitVec 32, Gen.AssertMacros.C.CHECK_EQUAL_C_BOOL_LOCATION e a = CHECK_EQUAL_C_BOOL e.toInt a.toInt) ∧
+    (∀ e a : BitVec 32, Gen.AssertMacros.C.CHECK_EQUAL_C_INT_LOCATION e a = CHECK_EQUAL_C_INT e.toInt a.toInt) ∧
+    (∀ e a : BitVec 32, Gen.AssertMacros.C.CHECK_EQUAL_C_UINT_LOCATION e a = CHECK_EQUAL_C_UINT e.toNat a.toNat) ∧
+    (∀ e a : BitVec 64, Gen.AssertMacros.C.CHECK_EQUAL_C_LONG_LOCATION e a = CHECK_EQUAL_C_LONG e.toInt a.toInt) ∧
+    (∀ e a : BitVec 64, Gen.AssertMacros.C.CHECK_EQUAL_C_ULONG_LOCATION e a = CHECK_EQUAL_C_ULONG e.toNat a.toNat) ∧
+    (∀ e a : BitVec 64, Gen.AssertMacros.C.CHECK_EQUAL_C_LONGLONG_LOCATION e a = CHECK_EQUAL_C_LONGLONG e.toInt a.toInt) ∧
+    (∀ e a : BitVec 64, Gen.AssertMacros.C.CHECK_EQUAL_C_ULONGLONG_LOCATION e a = CHECK_EQUAL_C_ULONGLONG e.toNat a.toNat) ∧
+    (∀ e a t : D F, Gen.AssertMacros.C.CHECK_EQUAL_C_REAL_LOCATION o e a t = CHECK_EQUAL_C_REAL o e a t) ∧
+    (∀ e a : BitVec 8, Gen.AssertMacros.C.CHECK_EQUAL_C_CHAR_LOCATION e a = CHECK_EQUAL_C_CHAR e.toInt a.toInt) ∧
+    (∀ e a : BitVec 8, Gen.AssertMacros.C.CHECK_EQUAL_C_UBYTE_LOCATION e a = CHECK_EQUAL_C_UBYTE e.toNat a.toNat) ∧
+    (∀ e a : BitVec 8, Gen.AssertMacros.C.CHECK_EQUAL_C_SBYTE_LOCATION e a = CHECK_EQUAL_C_SBYTE e.toInt a.toInt) ∧
+    (∀ e a : Option Bytes, Gen.AssertMacros.C.CHECK_EQUAL_C_STRING_LOCATION e a = CHECK_EQUAL_C_STRING e a) ∧
+    (∀ e a : BitVec 64, Gen.AssertMacros.C.CHECK_EQUAL_C_POINTER_LOCATION e a = CHECK_EQUAL_C_POINTER e a) ∧
+    (∀ (e a : Option Bytes) (n : BitVec 64), Gen.AssertMacros.C.CHECK_EQUAL_C_MEMCMP_LOCATION e a n = CHECK_EQUAL_C_MEMCMP e a n.toNat) ∧
+    (∀ (e a m : BitVec 32) (sz : BitVec 64), Gen.AssertMacros.C.CHECK_EQUAL_C_BITS_LOCATION e a m sz =
+      CHECK_EQUAL_C_BITS e.toNat a.toNat m.toNat sz.toNat) ∧
+    Gen.AssertMacros.C.FAIL_TEXT_C_LOCATION = FAIL_C ∧ Gen.AssertMacros.C.FAIL_C_LOCATION = FAIL_C ∧
+    (∀ c : BitVec 32, Gen.AssertMacros.C.CHECK_C_LOCATION c = CHECK_C c.toInt) := by
+  refine ⟨?_, ?_, ?_, ?_, ?_, ?_, ?_, ?_, ?_, ?_, ?_, ?_, ?_, ?_, ?_, ?_, ?_, ?_⟩ <;> intros <;>
+    psimp [Gen.AssertMacros.C.CHECK_EQUAL_C_REAL_LOCATION, Gen.AssertMacros.C.CHECK_EQUAL_C_STRING_LOCATION,
+      Gen.AssertMacros.C.CHECK_EQUAL_C_POINTER_LOCATION, Gen.AssertMacros.C.CHECK_EQUAL_C_MEMCMP_LOCATION,
+      Gen.AssertMacros.C.FAIL_TEXT_C_LOCATION, Gen.AssertMacros.C.FAIL_C_LOCATION, CHECK_EQUAL_C_REAL, CHECK_EQUAL_C_STRING,
+      CHECK_EQUAL_C_POINTER, CHECK_EQUAL_C_MEMCMP, FAIL_C, gen_assertDoublesEqual_eq, gen_assertCstrEqual_eq,
+      gen_assertPointersEqual_eq, gen_assertBinaryEqual_eq, gen_fail_eq]
+
+/-- the macros on strings, blocks, pointers, doubles and the operand-less ones, plain and `_TEXT`, C++ and C -/
+theorem gen_macro_others {F : Type} (o : FinOps F) (e a : Option Bytes) (n x y : BitVec 64) (d1 d2 t : D F) :
+    Gen.AssertMacros.M_STRCMP_EQUAL e a = STRCMP_EQUAL e a ∧ Gen.AssertMacros.M_STRCMP_EQUAL_TEXT e a = STRCMP_EQUAL e a ∧
+    Gen.AssertMacros.M_STRNCMP_EQUAL e a n = STRNCMP_EQUAL e a n.toNat ∧
+    Gen.AssertMacros.M_STRNCMP_EQUAL_TEXT e a n = STRNCMP_EQUAL e a n.toNat ∧
+    Gen.AssertMacros.M_STRCMP_NOCASE_EQUAL e a = STRCMP_NOCASE_EQUAL e a ∧
+    Gen.AssertMacros.M_STRCMP_NOCASE_EQUAL_TEXT e a = STRCMP_NOCASE_EQUAL e a ∧
+    Gen.AssertMacros.M_STRCMP_CONTAINS e a = STRCMP_CONTAINS e a ∧ Gen.AssertMacros.M_STRCMP_CONTAINS_TEXT e a = STRCMP_CONTAINS e a ∧
+    Gen.AssertMacros.M_STRCMP_NOCASE_CONTAINS e a = STRCMP_NOCASE_CONTAINS e a ∧
+    Gen.AssertMacros.M_STRCMP_NOCASE_CONTAINS_TEXT e a = STRCMP_NOCASE_CONTAINS e a ∧
+    Gen.AssertMacros.M_CHECK_EQUAL_C_STRING e a = CHECK_EQUAL_C_STRING e a ∧
+    Gen.AssertMacros.M_CHECK_EQUAL_C_STRING_TEXT e a = CHECK_EQUAL_C_STRING e a ∧
+    Gen.AssertMacros.M_MEMCMP_EQUAL e a n = MEMCMP_EQUAL e a n.toNat ∧ Gen.AssertMacros.M_MEMCMP_EQUAL_TEXT e a n = MEMCMP_EQUAL e a n.toNat ∧
+    Gen.AssertMacros.M_CHECK_EQUAL_C_MEMCMP e a n = CHECK_EQUAL_C_MEMCMP e a n.toNat ∧
+    Gen.AssertMacros.M_CHECK_EQUAL_C_MEMCMP_TEXT e a n = CHECK_EQUAL_C_MEMCMP e a n.toNat ∧
+    Gen.AssertMacros.M_POINTERS_EQUAL x y = POINTERS_EQUAL x y ∧ Gen.AssertMacros.M_POINTERS_EQUAL_TEXT x y = POINTERS_EQUAL x y ∧
+    Gen.AssertMacros.M_FUNCTIONPOINTERS_EQUAL x y = FUNCTIONPOINTERS_EQUAL x y ∧
+    Gen.AssertMacros.M_FUNCTIONPOINTERS_EQUAL_TEXT x y = FUNCTIONPOINTERS_EQUAL x y ∧
+    Gen.AssertMacros.M_CHECK_EQUAL_C_POINTER x y = CHECK_EQUAL_C_POINTER x y ∧
+    Gen.AssertMacros.M_CHECK_EQUAL_C_POINTER_TEXT x y = CHECK_EQUAL_C_POINTER x y ∧
+    Gen.AssertMacros.M_DOUBLES_EQUAL o d1 d2 t = DOUBLES_EQUAL o d1 d2 t ∧ Gen.AssertMacros.M_DOUBLES_EQUAL_TEXT o d1 d2 t = DOUBLES_EQUAL o d1 d2 t ∧
+    Gen.AssertMacros.M_CHECK_EQUAL_C_REAL o d1 d2 t = CHECK_EQUAL_C_REAL o d1 d2 t ∧
+    Gen.AssertMacros.M_CHECK_EQUAL_C_REAL_TEXT o d1 d2 t = CHECK_EQUAL_C_REAL o d1 d2 t ∧
+    Gen.AssertMacros.M_FAIL = FAIL ∧ Gen.AssertMacros.M_FAIL_TEST = FAIL ∧ Gen.AssertMacros.M_FAIL_C = FAIL_C ∧
+    Gen.AssertMacros.M_FAIL_TEXT_C = FAIL_C := by
+  refine ⟨?_, ?_, ?_, ?_, ?_, ?_, ?_, ?_, ?_, ?_, ?_, ?_, ?_, ?_, ?_, ?_, ?_, ?_, ?_, ?_, ?_, ?_, ?_, ?_, ?_, ?_, ?_, ?_, ?_, ?_⟩ <;>
+    psimp [Gen.AssertMacros.M_STRCMP_EQUAL, Gen.AssertMacros.M_STRCMP_EQUAL_TEXT, Gen.AssertMacros.M_STRNCMP_EQUAL,
+      Gen.AssertMacros.M_STRNCMP_EQUAL_TEXT, Gen.AssertMacros.M_STRCMP_NOCASE_EQUAL, Gen.AssertMacros.M_STRCMP_NOCASE_EQUAL_TEXT,
+      Gen.AssertMacros.M_STRCMP_CONTAINS, Gen.AssertMacros.M_STRCMP_CONTAINS_TEXT, Gen.AssertMacros.M_STRCMP_NOCASE_CONTAINS,
+      Gen.AssertMacros.M_STRCMP_NOCASE_CONTAINS_TEXT, Gen.AssertMacros.M_CHECK_EQUAL_C_STRING, Gen.AssertMacros.M_CHECK_EQUAL_C_STRING_TEXT,
+      Gen.AssertMacros.M_MEMCMP_EQUAL, Gen.AssertMacros.M_MEMCMP_EQUAL_TEXT, Gen.AssertMacros.M_CHECK_EQUAL_C_MEMCMP,
+      Gen.AssertMacros.M_CHECK_EQUAL_C_MEMCMP_TEXT, Gen.AssertMacros.M_POINTERS_EQUAL, Gen.AssertMacros.M_POINTERS_EQUAL_TEXT,
+      Gen.AssertMacros.M_FUNCTIONPOINTERS_EQUAL, Gen.AssertMacros.M_FUNCTIONPOINTERS_EQUAL_TEXT, Gen.AssertMacros.M_CHECK_EQUAL_C_POINTER,
+      Gen.AssertMacros.M_CHECK_EQUAL_C_POINTER_TEXT, Gen.AssertMacros.M_DOUBLES_EQUAL, Gen.AssertMacros.M_DOUBLES_EQUAL_TEXT,
+      Gen.AssertMacros.M_CHECK_EQUAL_C_REAL, Gen.AssertMacros.M_CHECK_EQUAL_C_REAL_TEXT, Gen.AssertMacros.M_FAIL, Gen.AssertMacros.M_FAIL_TEST,
+      Gen.AssertMacros.M_FAIL_C, Gen.AssertMacros.M_FAIL_TEXT_C,
+      Gen.AssertMacros.C.CHECK_EQUAL_C_REAL_LOCATION, Gen.AssertMacros.C.CHECK_EQUAL_C_STRING_LOCATION,
+      Gen.AssertMacros.C.CHECK_EQUAL_C_POINTER_LOCATION, Gen.AssertMacros.C.CHECK_EQUAL_C_MEMCMP_LOCATION,
+      Gen.AssertMacros.C.FAIL_TEXT_C_LOCATION, Gen.AssertMacros.C.FAIL_C_LOCATION, CHECK_EQUAL_C_REAL, CHECK_EQUAL_C_STRING,
+      CHECK_EQUAL_C_POINTER, CHECK_EQUAL_C_MEMCMP, FAIL_C, FAIL, STRCMP_EQUAL, STRNCMP_EQUAL, STRCMP_NOCASE_EQUAL, STRCMP_CONTAINS,
+      STRCMP_NOCASE_CONTAINS, MEMCMP_EQUAL, POINTERS_EQUAL, FUNCTIONPOINTERS_EQUAL, DOUBLES_EQUAL,
+      gen_assertDoublesEqual_eq, gen_assertCstrEqual_eq, gen_assertCstrNEqual_eq, gen_assertCstrNoCaseEqual_eq,
+      gen_assertCstrContains_eq, gen_assertCstrNoCaseContains_eq, gen_assertPointersEqual_eq, gen_assertFunctionPointersEqual_eq,
+      gen_assertBinaryEqual_eq, gen_fail_eq]
+
+/-! ### end-to-end corollaries: the property stated on the regenerated expansions themselves -/
+
+/-- a value read from an `n` bit pattern at a type is representable in that type -/
+theorem inRange_valueAt (w : Nat) (hw : 0 < w) (s : Bool) (x : BitVec w) : InRange ⟨w, s⟩ (valueAt s x) := by
+  cases s
+  · simp only [InRange, valueAt]
+    have := x.isLt
+    constructor
+    · exact Int.natCast_nonneg _
+    · have h : ((x.toNat : Nat) : Int) < ((2 ^ w : Nat) : Int) := Int.ofNat_lt.mpr this
+      rwa [natCast_two_pow] at h
+  · simp only [InRange, valueAt]
+    have h1 := @BitVec.le_toInt w x
+    have h2 := @BitVec.toInt_lt w x
+    have e1 : ((2 ^ (w - 1) : Nat) : Int) = (2 : Int) ^ (w - 1) := natCast_two_pow _
+    constructor
+    · simpa [e1] using h1
+    · simpa [e1] using h2
+
+/-- `LONGS_EQUAL(e, a)` / `UNSIGNED_LONGS_EQUAL(e, a)` as the header expands them today, on two operands of the SAME
+    integer type - any of the eight - fail exactly when the operands differ (the casts to (unsigned) long are injective
+    on every operand type, including `unsigned long` → `long`) -/
+theorem gen_LONGS_EQUAL_same_type_fails_iff :
+    (∀ e a : BitVec 8, (Gen.AssertMacros.M_LONGS_EQUAL_i8 e a).fails = true ↔ e ≠ a) ∧
+    (∀ e a : BitVec 8, (Gen.AssertMacros.M_LONGS_EQUAL_u8 e a).fails = true ↔ e ≠ a) ∧
+    (∀ e a : BitVec 16, (Gen.AssertMacros.M_LONGS_EQUAL_i16 e a).fails = true ↔ e ≠ a) ∧
+    (∀ e a : BitVec 16, (Gen.AssertMacros.M_LONGS_EQUAL_u16 e a).fails = true ↔ e ≠ a) ∧
+    (∀ e a : BitVec 32, (Gen.AssertMacros.M_LONGS_EQUAL_i32 e a).fails = true ↔ e ≠ a) ∧
+    (∀ e a : BitVec 32, (Gen.AssertMacros.M_LONGS_EQUAL_u32 e a).fails = true ↔ e ≠ a) ∧
+    (∀ e a : BitVec 64, (Gen.AssertMacros.M_LONGS_EQUAL_i64 e a).fails = true ↔ e ≠ a) ∧
+    (∀ e a : BitVec 64, (Gen.AssertMacros.M_LONGS_EQUAL_u64 e a).fails = true ↔ e ≠ a) ∧
+    (∀ e a : BitVec 8, (Gen.AssertMacros.M_UNSIGNED_LONGS_EQUAL_i8 e a).fails = true ↔ e ≠ a) ∧
+    (∀ e a : BitVec 32, (Gen.AssertMacros.M_UNSIGNED_LONGS_EQUAL_i32 e a).fails = true ↔ e ≠ a) ∧
+    (∀ e a : BitVec 64, (Gen.AssertMacros.M_UNSIGNED_LONGS_EQUAL_i64 e a).fails = true ↔ e ≠ a) ∧
+    (∀ e a : BitVec 64, (Gen.AssertMacros.M_UNSIGNED_LONGS_EQUAL_u64 e a).fails = true ↔ e ≠ a) := by
+  refine ⟨?_, ?_, ?_, ?_, ?_, ?_, ?_, ?_, ?_, ?_, ?_, ?_⟩ <;> intros <;>
+    simp [Gen.AssertMacros.M_LONGS_EQUAL_i8, Gen.AssertMacros.M_LONGS_EQUAL_u8, Gen.AssertMacros.M_LONGS_EQUAL_i16,
+      Gen.AssertMacros.M_LONGS_EQUAL_u16, Gen.AssertMacros.M_LONGS_EQUAL_i32, Gen.AssertMacros.M_LONGS_EQUAL_u32,
+      Gen.AssertMacros.M_LONGS_EQUAL_i64, Gen.AssertMacros.M_LONGS_EQUAL_u64, Gen.AssertMacros.M_UNSIGNED_LONGS_EQUAL_i8,
+      Gen.AssertMacros.M_UNSIGNED_LONGS_EQUAL_i32, Gen.AssertMacros.M_UNSIGNED_LONGS_EQUAL_i64,
+      Gen.AssertMacros.M_UNSIGNED_LONGS_EQUAL_u64, gen_assertLongsEqual_eq, gen_assertUnsignedLongsEqual_eq, assertLongsEqual,
+      assertUnsignedLongsEqual, countThenFailIf, signExtend_eq_iff, setWidth_eq_iff]
+
+/-- `CHECK_EQUAL` on a `signed char` and an `unsigned short` operand (both promote to `int`): fails exactly when the
+    mathematical values differ -/
+theorem gen_CHECK_EQUAL_i8_u16_fails_iff (e : BitVec 8) (a : BitVec 16) :
+    (Gen.AssertMacros.M_CHECK_EQUAL_i8_u16 e a).fails = true ↔ e.toInt ≠ (a.toNat : Int) := by
+  rw [gen_macro_CHECK_EQUAL.2.2.2.1 e a]
+  exact CHECK_EQUAL_int_fails_iff_math _ _ (inRange_valueAt 8 (by decide) true e) (inRange_valueAt 16 (by decide) false a)
+    (Or.inl rfl)
+
+/-- `CHECK_EQUAL` on an `int` and an `unsigned int` operand: the language converts the `int` to unsigned before the
+    macro sees it; mathematical equality is decided whenever the `int` is not negative … -/
+theorem gen_CHECK_EQUAL_i32_u32_fails_iff (e a : BitVec 32) (h : 0 ≤ e.toInt) :
+    (Gen.AssertMacros.M_CHECK_EQUAL_i32_u32 e a).fails = true ↔ e.toInt ≠ (a.toNat : Int) := by
+  have hm := gen_macro_CHECK_EQUAL
+  rw [hm.2.2.2.2.2.2.2.2.2.2.2.2.2.2.2.2.2.2.2.2.2.2.2.2.2.2.2.2.2.2.2.2.2.2.2.2.2.1 e a]
+  exact CHECK_EQUAL_int_fails_iff_math _ _ (inRange_valueAt 32 (by decide) true e) (inRange_valueAt 32 (by decide) false a)
+    (Or.inr ⟨h, Int.natCast_nonneg _⟩)
+
+/-- … and only then: `CHECK_EQUAL(-1, 4294967295u)` passes (an observation about C++, reproduced by the typed AST) -/
+theorem gen_CHECK_EQUAL_i32_u32_negative_witness :
+    (Gen.AssertMacros.M_CHECK_EQUAL_i32_u32 (-1) 4294967295).fails = false := by decide
+
+/-- `CHECK_COMPARE(e, <, a)` on two `int` operands: fails iff `e < a` is false, counted iff it fails -/
+theorem gen_CHECK_COMPARE_lt_i32_i32 (e a : BitVec 32) :
+    ((Gen.AssertMacros.M_CHECK_COMPARE_lt_i32_i32 e a).fails = true ↔ ¬ e.toInt < a.toInt) ∧
+    (Gen.AssertMacros.M_CHECK_COMPARE_lt_i32_i32 e a).counted = if e.toInt < a.toInt then 0 else 1 := by
+  simp only [Gen.AssertMacros.M_CHECK_COMPARE_lt_i32_i32, gen_assertCompare_eq, BitVec.slt]
+  by_cases h : e.toInt < a.toInt <;> simp [h, assertCompare, countThenFailIf, nothing]
+
+example : (Gen.AssertMacros.M_BYTES_EQUAL_i8 (-1) 0xff#8).fails = false := by decide
+example : (Gen.AssertMacros.M_BYTES_EQUAL_i32 256 0).fails = false ∧ (Gen.AssertMacros.M_BYTES_EQUAL_i32 255 0).fails = true := by decide
+example : (Gen.AssertMacros.M_CHECK_COMPARE_lt_i8_u32 (-1) 1).counted = 1 := by decide       -- -1 converts to 4294967295u
+example : (Gen.AssertMacros.M_CHECK_COMPARE_lt_i8_u16 (-1) 1) = nothing := by decide          -- both promote to int
+example : (Gen.AssertMacros.M_ENUMS_EQUAL_TYPE_u8_i32 256 0).fails = false := by decide       -- cast to the underlying type
+example : (Gen.AssertMacros.M_CHECK_EQUAL_C_INT_i64 (2 ^ 32) 0).fails = false := by decide    -- converted to the int parameter
+example : (Gen.AssertMacros.M_CHECK_C_i64 (2 ^ 32)).fails = true := by decide
+example : (Gen.AssertMacros.M_BITS_EQUAL_i8_u64 (-1) 127 256).fails = true := by decide
 
 /-! ## 12. non-vacuity: concrete operands on both sides of each rule -/
 
